@@ -86,6 +86,7 @@ variables
   qrSent = [f \in Ops |-> FALSE],
   qrWaker = [f \in Ops |-> NoW],
   dnState = [f \in Ops |-> "open"],
+  susDropped = [f \in Ops |-> FALSE],
   dnWaker = [f \in Ops |-> NoW],
   parkTok = [t \in Procs |-> FALSE],
   barGen = 1,
@@ -522,9 +523,10 @@ sus_signal:  \* [fres] the suspend job signals the future returned by suspend()
     if (IsLocking(w)) { call Wake(w); }
     else { parkTok := Unpark(parkTok, TaskOf(w)); }
   };
-sus_sigdrop: \* [fres]
+sus_sigdrop: \* [fres] (if the future was dropped before, the signaller held the last reference to the result slot: the resumer is dropped here)
   jaw[jj] := 1;
-  if (OpTab[jj].g \notin gfired) { gwaker[OpTab[jj].g] := jwk; rv[self] := 5; return; };
+  if (susDropped[jj]) { gfired := gfired \cup {OpTab[jj].g}; fres[jj] := "taken"; }
+  else if (OpTab[jj].g \notin gfired) { gwaker[OpTab[jj].g] := jwk; rv[self] := 5; return; };
 sus_inner:   \* [fres] the (detached) future of the suspend job itself is signalled
   skip;
 sus_innerdrop: \* [fres]
@@ -816,7 +818,21 @@ z_ps_panic:
 \* ---- dropping a stored future (a SchedulerFuture just goes away; a SyncFuture cancels its operation)
 procedure DropFuture(xf) {
 z_df:
-  if (K(xf) # "fsync" \/ sfst[xf] = "Done") { h := ObsDropped(h, self, xf); rv[self] := 0; return; }
+  if (K(xf) = "suspend") {
+    \* the future returned by suspend() is dropped: a resumer that is (or will be) stored in its result slot is dropped with the slot, which
+    \* cancels the resume channel, i.e. resumes the queue
+    \* (if the future had already resolved, the caller holds the resumer itself: dropping that is drop_resumer)
+    h := IF fres[xf] = "taken" THEN ObsResume(h, self, xf) ELSE ObsDropped(h, self, xf);
+    susDropped[xf] := TRUE;
+    if (fres[xf] \in {"some", "taken"}) {
+      fres[xf] := "taken";
+      gfired := gfired \cup {OpTab[xf].g};
+      parkTok := Unpark(parkTok, TaskOf(gwaker[OpTab[xf].g]));
+      if (IsLocking(gwaker[OpTab[xf].g])) { call Wake(gwaker[OpTab[xf].g]); goto z_df_sus; }
+      else { goto z_df_sus; }
+    } else { rv[self] := 0; return; }
+  }
+  else if (K(xf) # "fsync" \/ sfst[xf] = "Done") { h := ObsDropped(h, self, xf); rv[self] := 0; return; }
   else {
     \* the user future (if it was started) is destroyed first, then the completion sender
     h := IF sfst[xf] = "WFF" THEN ObsEnd(ObsDropped(h, self, xf), self, xf) ELSE ObsDropped(h, self, xf);
@@ -827,6 +843,10 @@ z_df:
     }
   };
 z_df2:
+  rv[self] := 0;
+  return;
+z_df_sus:
+  gwaker[OpTab[xf].g] := NoW;
   rv[self] := 0;
   return;
 }
@@ -1088,10 +1108,11 @@ VARIABLES pc, qstate, qpoll, jobs, wakeBlocked, schedule, pthreads, nspawned,
           maxThreads, jkind, jaw, fres, fwaker, gfired, gwaker, gthreads, 
           gwhist, dwSt, dwW, dblTaken, dblW1, dblW2, nextDW, ready, cwait, 
           cnotif, cvHeld, sdres, jpanic, sfst, slotSt, qrSent, qrWaker, 
-          dnState, dnWaker, parkTok, barGen, myBar, cdone, rv, rwb, rneed, 
-          stres, dsl, atomic, strong, ppPending, ppClosed, ppNotify, ppNC, 
-          ppBP, ppDepth, ppAlive, ppHeld, inItems, inClosed, inWaker, pollFn, 
-          chuteFn, pwTaken, nextPoll, ppItem, pjLive, ppStage, h, stack
+          dnState, susDropped, dnWaker, parkTok, barGen, myBar, cdone, rv, 
+          rwb, rneed, stres, dsl, atomic, strong, ppPending, ppClosed, 
+          ppNotify, ppNC, ppBP, ppDepth, ppAlive, ppHeld, inItems, inClosed, 
+          inWaker, pollFn, chuteFn, pwTaken, nextPoll, ppItem, pjLive, 
+          ppStage, h, stack
 
 (* define statement *)
 RECURSIVE NTR(_)
@@ -1144,14 +1165,14 @@ vars == << pc, qstate, qpoll, jobs, wakeBlocked, schedule, pthreads, nspawned,
            maxThreads, jkind, jaw, fres, fwaker, gfired, gwaker, gthreads, 
            gwhist, dwSt, dwW, dblTaken, dblW1, dblW2, nextDW, ready, cwait, 
            cnotif, cvHeld, sdres, jpanic, sfst, slotSt, qrSent, qrWaker, 
-           dnState, dnWaker, parkTok, barGen, myBar, cdone, rv, rwb, rneed, 
-           stres, dsl, atomic, strong, ppPending, ppClosed, ppNotify, ppNC, 
-           ppBP, ppDepth, ppAlive, ppHeld, inItems, inClosed, inWaker, pollFn, 
-           chuteFn, pwTaken, nextPoll, ppItem, pjLive, ppStage, h, stack, 
-           dead, sti, smax, rq, sq, sj, ww, rsq, bown, bwk, bi, bcur, bw, bsp, 
-           jq, jj, jwk, fj, dq, dj, oq, oop, omode, oj, yq, yop, yclaimed, tq, 
-           top, af, wf, wop, sf, sctx, xf, cop, kj, pp, pwk, np, nbp, nres, 
-           dp, pf, pctx, pq, pj, pd, nq >>
+           dnState, susDropped, dnWaker, parkTok, barGen, myBar, cdone, rv, 
+           rwb, rneed, stres, dsl, atomic, strong, ppPending, ppClosed, 
+           ppNotify, ppNC, ppBP, ppDepth, ppAlive, ppHeld, inItems, inClosed, 
+           inWaker, pollFn, chuteFn, pwTaken, nextPoll, ppItem, pjLive, 
+           ppStage, h, stack, dead, sti, smax, rq, sq, sj, ww, rsq, bown, bwk, 
+           bi, bcur, bw, bsp, jq, jj, jwk, fj, dq, dj, oq, oop, omode, oj, yq, 
+           yop, yclaimed, tq, top, af, wf, wop, sf, sctx, xf, cop, kj, pp, 
+           pwk, np, nbp, nres, dp, pf, pctx, pq, pj, pd, nq >>
 
 ProcSet == (Threads) \cup (PoolSet)
 
@@ -1196,6 +1217,7 @@ Init == (* Global variables *)
         /\ qrSent = [f \in Ops |-> FALSE]
         /\ qrWaker = [f \in Ops |-> NoW]
         /\ dnState = [f \in Ops |-> "open"]
+        /\ susDropped = [f \in Ops |-> FALSE]
         /\ dnWaker = [f \in Ops |-> NoW]
         /\ parkTok = [t \in Procs |-> FALSE]
         /\ barGen = 1
@@ -1315,10 +1337,10 @@ st_reap(self) == /\ pc[self] = "st_reap"
                                  gwhist, dwSt, dwW, dblTaken, dblW1, dblW2, 
                                  nextDW, ready, cwait, cnotif, cvHeld, sdres, 
                                  jpanic, sfst, slotSt, qrSent, qrWaker, 
-                                 dnState, dnWaker, parkTok, barGen, myBar, 
-                                 cdone, rv, rwb, rneed, stres, dsl, atomic, 
-                                 strong, ppPending, ppClosed, ppNotify, ppNC, 
-                                 ppBP, ppDepth, ppAlive, ppHeld, inItems, 
+                                 dnState, susDropped, dnWaker, parkTok, barGen, 
+                                 myBar, cdone, rv, rwb, rneed, stres, dsl, 
+                                 atomic, strong, ppPending, ppClosed, ppNotify, 
+                                 ppNC, ppBP, ppDepth, ppAlive, ppHeld, inItems, 
                                  inClosed, inWaker, pollFn, chuteFn, pwTaken, 
                                  nextPoll, ppItem, pjLive, ppStage, h, stack, 
                                  sti, smax, rq, sq, sj, ww, rsq, bown, bwk, bi, 
@@ -1339,10 +1361,10 @@ st_join(self) == /\ pc[self] = "st_join"
                                  gthreads, gwhist, dwSt, dwW, dblTaken, dblW1, 
                                  dblW2, nextDW, ready, cwait, cnotif, cvHeld, 
                                  sdres, jpanic, sfst, slotSt, qrSent, qrWaker, 
-                                 dnState, dnWaker, parkTok, barGen, myBar, 
-                                 cdone, rv, rwb, rneed, stres, dsl, atomic, 
-                                 strong, ppPending, ppClosed, ppNotify, ppNC, 
-                                 ppBP, ppDepth, ppAlive, ppHeld, inItems, 
+                                 dnState, susDropped, dnWaker, parkTok, barGen, 
+                                 myBar, cdone, rv, rwb, rneed, stres, dsl, 
+                                 atomic, strong, ppPending, ppClosed, ppNotify, 
+                                 ppNC, ppBP, ppDepth, ppAlive, ppHeld, inItems, 
                                  inClosed, inWaker, pollFn, chuteFn, pwTaken, 
                                  nextPoll, ppItem, pjLive, ppStage, h, stack, 
                                  sti, smax, rq, sq, sj, ww, rsq, bown, bwk, bi, 
@@ -1380,18 +1402,19 @@ st_dormant(self) == /\ pc[self] = "st_dormant"
                                     gwhist, dwSt, dwW, dblTaken, dblW1, dblW2, 
                                     nextDW, ready, cwait, cnotif, cvHeld, 
                                     sdres, jpanic, sfst, slotSt, qrSent, 
-                                    qrWaker, dnState, dnWaker, parkTok, barGen, 
-                                    myBar, cdone, rv, rwb, rneed, dsl, atomic, 
-                                    strong, ppPending, ppClosed, ppNotify, 
-                                    ppNC, ppBP, ppDepth, ppAlive, ppHeld, 
-                                    inItems, inClosed, inWaker, pollFn, 
-                                    chuteFn, pwTaken, nextPoll, ppItem, pjLive, 
-                                    ppStage, h, rq, sq, sj, ww, rsq, bown, bwk, 
-                                    bi, bcur, bw, bsp, jq, jj, jwk, fj, dq, dj, 
-                                    oq, oop, omode, oj, yq, yop, yclaimed, tq, 
-                                    top, af, wf, wop, sf, sctx, xf, cop, kj, 
-                                    pp, pwk, np, nbp, nres, dp, pf, pctx, pq, 
-                                    pj, pd, nq >>
+                                    qrWaker, dnState, susDropped, dnWaker, 
+                                    parkTok, barGen, myBar, cdone, rv, rwb, 
+                                    rneed, dsl, atomic, strong, ppPending, 
+                                    ppClosed, ppNotify, ppNC, ppBP, ppDepth, 
+                                    ppAlive, ppHeld, inItems, inClosed, 
+                                    inWaker, pollFn, chuteFn, pwTaken, 
+                                    nextPoll, ppItem, pjLive, ppStage, h, rq, 
+                                    sq, sj, ww, rsq, bown, bwk, bi, bcur, bw, 
+                                    bsp, jq, jj, jwk, fj, dq, dj, oq, oop, 
+                                    omode, oj, yq, yop, yclaimed, tq, top, af, 
+                                    wf, wop, sf, sctx, xf, cop, kj, pp, pwk, 
+                                    np, nbp, nres, dp, pf, pctx, pq, pj, pd, 
+                                    nq >>
 
 st_max(self) == /\ pc[self] = "st_max"
                 /\ smax' = [smax EXCEPT ![self] = maxThreads]
@@ -1403,10 +1426,10 @@ st_max(self) == /\ pc[self] = "st_max"
                                 gthreads, gwhist, dwSt, dwW, dblTaken, dblW1, 
                                 dblW2, nextDW, ready, cwait, cnotif, cvHeld, 
                                 sdres, jpanic, sfst, slotSt, qrSent, qrWaker, 
-                                dnState, dnWaker, parkTok, barGen, myBar, 
-                                cdone, rv, rwb, rneed, stres, dsl, atomic, 
-                                strong, ppPending, ppClosed, ppNotify, ppNC, 
-                                ppBP, ppDepth, ppAlive, ppHeld, inItems, 
+                                dnState, susDropped, dnWaker, parkTok, barGen, 
+                                myBar, cdone, rv, rwb, rneed, stres, dsl, 
+                                atomic, strong, ppPending, ppClosed, ppNotify, 
+                                ppNC, ppBP, ppDepth, ppAlive, ppHeld, inItems, 
                                 inClosed, inWaker, pollFn, chuteFn, pwTaken, 
                                 nextPoll, ppItem, pjLive, ppStage, h, stack, 
                                 dead, sti, rq, sq, sj, ww, rsq, bown, bwk, bi, 
@@ -1439,17 +1462,18 @@ st_spawn(self) == /\ pc[self] = "st_spawn"
                                   gwaker, gthreads, gwhist, dwSt, dwW, 
                                   dblTaken, dblW1, dblW2, nextDW, ready, cwait, 
                                   cnotif, cvHeld, sdres, jpanic, sfst, slotSt, 
-                                  qrSent, qrWaker, dnState, dnWaker, parkTok, 
-                                  barGen, myBar, cdone, rv, rwb, rneed, dsl, 
-                                  atomic, strong, ppPending, ppClosed, 
-                                  ppNotify, ppNC, ppBP, ppDepth, ppAlive, 
-                                  ppHeld, inItems, inClosed, inWaker, pollFn, 
-                                  chuteFn, pwTaken, nextPoll, ppItem, pjLive, 
-                                  ppStage, rq, sq, sj, ww, rsq, bown, bwk, bi, 
-                                  bcur, bw, bsp, jq, jj, jwk, fj, dq, dj, oq, 
-                                  oop, omode, oj, yq, yop, yclaimed, tq, top, 
-                                  af, wf, wop, sf, sctx, xf, cop, kj, pp, pwk, 
-                                  np, nbp, nres, dp, pf, pctx, pq, pj, pd, nq >>
+                                  qrSent, qrWaker, dnState, susDropped, 
+                                  dnWaker, parkTok, barGen, myBar, cdone, rv, 
+                                  rwb, rneed, dsl, atomic, strong, ppPending, 
+                                  ppClosed, ppNotify, ppNC, ppBP, ppDepth, 
+                                  ppAlive, ppHeld, inItems, inClosed, inWaker, 
+                                  pollFn, chuteFn, pwTaken, nextPoll, ppItem, 
+                                  pjLive, ppStage, rq, sq, sj, ww, rsq, bown, 
+                                  bwk, bi, bcur, bw, bsp, jq, jj, jwk, fj, dq, 
+                                  dj, oq, oop, omode, oj, yq, yop, yclaimed, 
+                                  tq, top, af, wf, wop, sf, sctx, xf, cop, kj, 
+                                  pp, pwk, np, nbp, nres, dp, pf, pctx, pq, pj, 
+                                  pd, nq >>
 
 ScheduleThread(self) == st_reap(self) \/ st_join(self) \/ st_dormant(self)
                            \/ st_max(self) \/ st_spawn(self)
@@ -1483,17 +1507,18 @@ rq_core(self) == /\ pc[self] = "rq_core"
                                  fwaker, gfired, gwaker, gthreads, gwhist, 
                                  dwSt, dwW, dblTaken, dblW1, dblW2, nextDW, 
                                  ready, cwait, cvHeld, sdres, jpanic, sfst, 
-                                 slotSt, qrSent, qrWaker, dnState, dnWaker, 
-                                 parkTok, barGen, myBar, cdone, rv, stres, dsl, 
-                                 atomic, strong, ppPending, ppClosed, ppNotify, 
-                                 ppNC, ppBP, ppDepth, ppAlive, ppHeld, inItems, 
-                                 inClosed, inWaker, pollFn, chuteFn, pwTaken, 
-                                 nextPoll, ppItem, pjLive, ppStage, h, dead, 
-                                 sti, smax, sq, sj, ww, rsq, bown, bwk, bi, 
-                                 bcur, bw, bsp, jq, jj, jwk, fj, dq, dj, oq, 
-                                 oop, omode, oj, yq, yop, yclaimed, tq, top, 
-                                 af, wf, wop, sf, sctx, xf, cop, kj, pp, pwk, 
-                                 np, nbp, nres, dp, pf, pctx, pq, pj, pd, nq >>
+                                 slotSt, qrSent, qrWaker, dnState, susDropped, 
+                                 dnWaker, parkTok, barGen, myBar, cdone, rv, 
+                                 stres, dsl, atomic, strong, ppPending, 
+                                 ppClosed, ppNotify, ppNC, ppBP, ppDepth, 
+                                 ppAlive, ppHeld, inItems, inClosed, inWaker, 
+                                 pollFn, chuteFn, pwTaken, nextPoll, ppItem, 
+                                 pjLive, ppStage, h, dead, sti, smax, sq, sj, 
+                                 ww, rsq, bown, bwk, bi, bcur, bw, bsp, jq, jj, 
+                                 jwk, fj, dq, dj, oq, oop, omode, oj, yq, yop, 
+                                 yclaimed, tq, top, af, wf, wop, sf, sctx, xf, 
+                                 cop, kj, pp, pwk, np, nbp, nres, dp, pf, pctx, 
+                                 pq, pj, pd, nq >>
 
 rq_notify(self) == /\ pc[self] = "rq_notify"
                    /\ cnotif' = [cnotif EXCEPT ![Head(rwb[self])] = cwait[Head(rwb[self])]]
@@ -1514,18 +1539,18 @@ rq_notify(self) == /\ pc[self] = "rq_notify"
                                    gfired, gwaker, gthreads, gwhist, dwSt, dwW, 
                                    dblTaken, dblW1, dblW2, nextDW, ready, 
                                    cwait, cvHeld, sdres, jpanic, sfst, slotSt, 
-                                   qrSent, qrWaker, dnState, dnWaker, parkTok, 
-                                   barGen, myBar, cdone, rv, rneed, stres, dsl, 
-                                   atomic, strong, ppPending, ppClosed, 
-                                   ppNotify, ppNC, ppBP, ppDepth, ppAlive, 
-                                   ppHeld, inItems, inClosed, inWaker, pollFn, 
-                                   chuteFn, pwTaken, nextPoll, ppItem, pjLive, 
-                                   ppStage, h, dead, sti, smax, sq, sj, ww, 
-                                   rsq, bown, bwk, bi, bcur, bw, bsp, jq, jj, 
-                                   jwk, fj, dq, dj, oq, oop, omode, oj, yq, 
-                                   yop, yclaimed, tq, top, af, wf, wop, sf, 
-                                   sctx, xf, cop, kj, pp, pwk, np, nbp, nres, 
-                                   dp, pf, pctx, pq, pj, pd, nq >>
+                                   qrSent, qrWaker, dnState, susDropped, 
+                                   dnWaker, parkTok, barGen, myBar, cdone, rv, 
+                                   rneed, stres, dsl, atomic, strong, 
+                                   ppPending, ppClosed, ppNotify, ppNC, ppBP, 
+                                   ppDepth, ppAlive, ppHeld, inItems, inClosed, 
+                                   inWaker, pollFn, chuteFn, pwTaken, nextPoll, 
+                                   ppItem, pjLive, ppStage, h, dead, sti, smax, 
+                                   sq, sj, ww, rsq, bown, bwk, bi, bcur, bw, 
+                                   bsp, jq, jj, jwk, fj, dq, dj, oq, oop, 
+                                   omode, oj, yq, yop, yclaimed, tq, top, af, 
+                                   wf, wop, sf, sctx, xf, cop, kj, pp, pwk, np, 
+                                   nbp, nres, dp, pf, pctx, pq, pj, pd, nq >>
 
 rq_sched(self) == /\ pc[self] = "rq_sched"
                   /\ schedule' = Append(schedule, rq[self])
@@ -1546,17 +1571,18 @@ rq_sched(self) == /\ pc[self] = "rq_sched"
                                   gwhist, dwSt, dwW, dblTaken, dblW1, dblW2, 
                                   nextDW, ready, cwait, cnotif, cvHeld, sdres, 
                                   jpanic, sfst, slotSt, qrSent, qrWaker, 
-                                  dnState, dnWaker, parkTok, barGen, myBar, 
-                                  cdone, rv, rwb, rneed, stres, dsl, atomic, 
-                                  strong, ppPending, ppClosed, ppNotify, ppNC, 
-                                  ppBP, ppDepth, ppAlive, ppHeld, inItems, 
-                                  inClosed, inWaker, pollFn, chuteFn, pwTaken, 
-                                  nextPoll, ppItem, pjLive, ppStage, h, rq, sq, 
-                                  sj, ww, rsq, bown, bwk, bi, bcur, bw, bsp, 
-                                  jq, jj, jwk, fj, dq, dj, oq, oop, omode, oj, 
-                                  yq, yop, yclaimed, tq, top, af, wf, wop, sf, 
-                                  sctx, xf, cop, kj, pp, pwk, np, nbp, nres, 
-                                  dp, pf, pctx, pq, pj, pd, nq >>
+                                  dnState, susDropped, dnWaker, parkTok, 
+                                  barGen, myBar, cdone, rv, rwb, rneed, stres, 
+                                  dsl, atomic, strong, ppPending, ppClosed, 
+                                  ppNotify, ppNC, ppBP, ppDepth, ppAlive, 
+                                  ppHeld, inItems, inClosed, inWaker, pollFn, 
+                                  chuteFn, pwTaken, nextPoll, ppItem, pjLive, 
+                                  ppStage, h, rq, sq, sj, ww, rsq, bown, bwk, 
+                                  bi, bcur, bw, bsp, jq, jj, jwk, fj, dq, dj, 
+                                  oq, oop, omode, oj, yq, yop, yclaimed, tq, 
+                                  top, af, wf, wop, sf, sctx, xf, cop, kj, pp, 
+                                  pwk, np, nbp, nres, dp, pf, pctx, pq, pj, pd, 
+                                  nq >>
 
 Reschedule(self) == rq_core(self) \/ rq_notify(self) \/ rq_sched(self)
 
@@ -1585,17 +1611,17 @@ sj_push(self) == /\ pc[self] = "sj_push"
                                  gwhist, dwSt, dwW, dblTaken, dblW1, dblW2, 
                                  nextDW, ready, cwait, cnotif, cvHeld, sdres, 
                                  jpanic, sfst, slotSt, qrSent, qrWaker, 
-                                 dnState, dnWaker, parkTok, barGen, myBar, 
-                                 cdone, rwb, rneed, stres, dsl, atomic, strong, 
-                                 ppPending, ppClosed, ppNotify, ppNC, ppBP, 
-                                 ppDepth, ppAlive, ppHeld, inItems, inClosed, 
-                                 inWaker, pollFn, chuteFn, pwTaken, nextPoll, 
-                                 ppItem, pjLive, ppStage, h, dead, sti, smax, 
-                                 rq, ww, rsq, bown, bwk, bi, bcur, bw, bsp, jq, 
-                                 jj, jwk, fj, dq, dj, oq, oop, omode, oj, yq, 
-                                 yop, yclaimed, tq, top, af, wf, wop, sf, sctx, 
-                                 xf, cop, kj, pp, pwk, np, nbp, nres, dp, pf, 
-                                 pctx, pq, pj, pd, nq >>
+                                 dnState, susDropped, dnWaker, parkTok, barGen, 
+                                 myBar, cdone, rwb, rneed, stres, dsl, atomic, 
+                                 strong, ppPending, ppClosed, ppNotify, ppNC, 
+                                 ppBP, ppDepth, ppAlive, ppHeld, inItems, 
+                                 inClosed, inWaker, pollFn, chuteFn, pwTaken, 
+                                 nextPoll, ppItem, pjLive, ppStage, h, dead, 
+                                 sti, smax, rq, ww, rsq, bown, bwk, bi, bcur, 
+                                 bw, bsp, jq, jj, jwk, fj, dq, dj, oq, oop, 
+                                 omode, oj, yq, yop, yclaimed, tq, top, af, wf, 
+                                 wop, sf, sctx, xf, cop, kj, pp, pwk, np, nbp, 
+                                 nres, dp, pf, pctx, pq, pj, pd, nq >>
 
 sj_sched(self) == /\ pc[self] = "sj_sched"
                   /\ schedule' = Append(schedule, sq[self])
@@ -1616,17 +1642,18 @@ sj_sched(self) == /\ pc[self] = "sj_sched"
                                   gwhist, dwSt, dwW, dblTaken, dblW1, dblW2, 
                                   nextDW, ready, cwait, cnotif, cvHeld, sdres, 
                                   jpanic, sfst, slotSt, qrSent, qrWaker, 
-                                  dnState, dnWaker, parkTok, barGen, myBar, 
-                                  cdone, rv, rwb, rneed, stres, dsl, atomic, 
-                                  strong, ppPending, ppClosed, ppNotify, ppNC, 
-                                  ppBP, ppDepth, ppAlive, ppHeld, inItems, 
-                                  inClosed, inWaker, pollFn, chuteFn, pwTaken, 
-                                  nextPoll, ppItem, pjLive, ppStage, h, rq, sq, 
-                                  sj, ww, rsq, bown, bwk, bi, bcur, bw, bsp, 
-                                  jq, jj, jwk, fj, dq, dj, oq, oop, omode, oj, 
-                                  yq, yop, yclaimed, tq, top, af, wf, wop, sf, 
-                                  sctx, xf, cop, kj, pp, pwk, np, nbp, nres, 
-                                  dp, pf, pctx, pq, pj, pd, nq >>
+                                  dnState, susDropped, dnWaker, parkTok, 
+                                  barGen, myBar, cdone, rv, rwb, rneed, stres, 
+                                  dsl, atomic, strong, ppPending, ppClosed, 
+                                  ppNotify, ppNC, ppBP, ppDepth, ppAlive, 
+                                  ppHeld, inItems, inClosed, inWaker, pollFn, 
+                                  chuteFn, pwTaken, nextPoll, ppItem, pjLive, 
+                                  ppStage, h, rq, sq, sj, ww, rsq, bown, bwk, 
+                                  bi, bcur, bw, bsp, jq, jj, jwk, fj, dq, dj, 
+                                  oq, oop, omode, oj, yq, yop, yclaimed, tq, 
+                                  top, af, wf, wop, sf, sctx, xf, cop, kj, pp, 
+                                  pwk, np, nbp, nres, dp, pf, pctx, pq, pj, pd, 
+                                  nq >>
 
 z_sj_ret(self) == /\ pc[self] = "z_sj_ret"
                   /\ rv' = [rv EXCEPT ![self] = 0]
@@ -1641,17 +1668,18 @@ z_sj_ret(self) == /\ pc[self] = "z_sj_ret"
                                   gthreads, gwhist, dwSt, dwW, dblTaken, dblW1, 
                                   dblW2, nextDW, ready, cwait, cnotif, cvHeld, 
                                   sdres, jpanic, sfst, slotSt, qrSent, qrWaker, 
-                                  dnState, dnWaker, parkTok, barGen, myBar, 
-                                  cdone, rwb, rneed, stres, dsl, atomic, 
-                                  strong, ppPending, ppClosed, ppNotify, ppNC, 
-                                  ppBP, ppDepth, ppAlive, ppHeld, inItems, 
-                                  inClosed, inWaker, pollFn, chuteFn, pwTaken, 
-                                  nextPoll, ppItem, pjLive, ppStage, h, dead, 
-                                  sti, smax, rq, ww, rsq, bown, bwk, bi, bcur, 
-                                  bw, bsp, jq, jj, jwk, fj, dq, dj, oq, oop, 
-                                  omode, oj, yq, yop, yclaimed, tq, top, af, 
-                                  wf, wop, sf, sctx, xf, cop, kj, pp, pwk, np, 
-                                  nbp, nres, dp, pf, pctx, pq, pj, pd, nq >>
+                                  dnState, susDropped, dnWaker, parkTok, 
+                                  barGen, myBar, cdone, rwb, rneed, stres, dsl, 
+                                  atomic, strong, ppPending, ppClosed, 
+                                  ppNotify, ppNC, ppBP, ppDepth, ppAlive, 
+                                  ppHeld, inItems, inClosed, inWaker, pollFn, 
+                                  chuteFn, pwTaken, nextPoll, ppItem, pjLive, 
+                                  ppStage, h, dead, sti, smax, rq, ww, rsq, 
+                                  bown, bwk, bi, bcur, bw, bsp, jq, jj, jwk, 
+                                  fj, dq, dj, oq, oop, omode, oj, yq, yop, 
+                                  yclaimed, tq, top, af, wf, wop, sf, sctx, xf, 
+                                  cop, kj, pp, pwk, np, nbp, nres, dp, pf, 
+                                  pctx, pq, pj, pd, nq >>
 
 ScheduleJob(self) == sj_push(self) \/ sj_sched(self) \/ z_sj_ret(self)
 
@@ -1783,10 +1811,10 @@ wk_lock(self) == /\ pc[self] = "wk_lock"
                                  fres, fwaker, gfired, gwaker, gthreads, 
                                  gwhist, dblW1, dblW2, nextDW, ready, cwait, 
                                  cnotif, cvHeld, sdres, jpanic, sfst, slotSt, 
-                                 qrSent, qrWaker, dnState, dnWaker, barGen, 
-                                 myBar, cdone, rv, rwb, rneed, stres, dsl, 
-                                 atomic, ppPending, ppClosed, ppNotify, ppNC, 
-                                 ppBP, ppDepth, ppAlive, ppHeld, inItems, 
+                                 qrSent, qrWaker, dnState, susDropped, dnWaker, 
+                                 barGen, myBar, cdone, rv, rwb, rneed, stres, 
+                                 dsl, atomic, ppPending, ppClosed, ppNotify, 
+                                 ppNC, ppBP, ppDepth, ppAlive, ppHeld, inItems, 
                                  inClosed, inWaker, pollFn, chuteFn, ppItem, 
                                  ppStage, h, dead, sti, smax, rsq, bown, bwk, 
                                  bi, bcur, bw, bsp, jq, jj, jwk, fj, dq, dj, 
@@ -1812,18 +1840,19 @@ z_wk_second(self) == /\ pc[self] = "z_wk_second"
                                      dwSt, dwW, dblTaken, dblW1, dblW2, nextDW, 
                                      ready, cwait, cnotif, cvHeld, sdres, 
                                      jpanic, sfst, slotSt, qrSent, qrWaker, 
-                                     dnState, dnWaker, barGen, myBar, cdone, 
-                                     rv, rwb, rneed, stres, dsl, atomic, 
-                                     strong, ppPending, ppClosed, ppNotify, 
-                                     ppNC, ppBP, ppDepth, ppAlive, ppHeld, 
-                                     inItems, inClosed, inWaker, pollFn, 
-                                     chuteFn, pwTaken, nextPoll, ppItem, 
-                                     pjLive, ppStage, h, dead, sti, smax, rq, 
-                                     sq, sj, rsq, bown, bwk, bi, bcur, bw, bsp, 
-                                     jq, jj, jwk, fj, dq, dj, oq, oop, omode, 
-                                     oj, yq, yop, yclaimed, tq, top, af, wf, 
-                                     wop, sf, sctx, xf, cop, kj, pp, pwk, np, 
-                                     nbp, nres, dp, pf, pctx, pq, pj, pd, nq >>
+                                     dnState, susDropped, dnWaker, barGen, 
+                                     myBar, cdone, rv, rwb, rneed, stres, dsl, 
+                                     atomic, strong, ppPending, ppClosed, 
+                                     ppNotify, ppNC, ppBP, ppDepth, ppAlive, 
+                                     ppHeld, inItems, inClosed, inWaker, 
+                                     pollFn, chuteFn, pwTaken, nextPoll, 
+                                     ppItem, pjLive, ppStage, h, dead, sti, 
+                                     smax, rq, sq, sj, rsq, bown, bwk, bi, 
+                                     bcur, bw, bsp, jq, jj, jwk, fj, dq, dj, 
+                                     oq, oop, omode, oj, yq, yop, yclaimed, tq, 
+                                     top, af, wf, wop, sf, sctx, xf, cop, kj, 
+                                     pp, pwk, np, nbp, nres, dp, pf, pctx, pq, 
+                                     pj, pd, nq >>
 
 z_pw_after(self) == /\ pc[self] = "z_pw_after"
                     /\ strong' = [strong EXCEPT ![O(ww[self].d)] = strong[O(ww[self].d)] - 1]
@@ -1850,18 +1879,19 @@ z_pw_after(self) == /\ pc[self] = "z_pw_after"
                                     gfired, gwaker, gthreads, gwhist, dwSt, 
                                     dwW, dblTaken, dblW1, dblW2, nextDW, ready, 
                                     cwait, cnotif, cvHeld, sdres, jpanic, sfst, 
-                                    slotSt, qrSent, qrWaker, dnState, dnWaker, 
-                                    parkTok, barGen, myBar, cdone, rv, rwb, 
-                                    rneed, stres, dsl, atomic, ppPending, 
-                                    ppClosed, ppNotify, ppNC, ppBP, ppDepth, 
-                                    ppAlive, ppHeld, inItems, inClosed, 
-                                    inWaker, pollFn, chuteFn, pwTaken, 
-                                    nextPoll, ppItem, pjLive, ppStage, h, dead, 
-                                    sti, smax, rq, sq, sj, rsq, bown, bwk, bi, 
-                                    bcur, bw, bsp, jq, jj, jwk, fj, dq, dj, oq, 
-                                    oop, omode, oj, tq, top, af, wf, wop, sf, 
-                                    sctx, xf, cop, kj, pp, pwk, np, nbp, nres, 
-                                    dp, pf, pctx, pq, pj, pd, nq >>
+                                    slotSt, qrSent, qrWaker, dnState, 
+                                    susDropped, dnWaker, parkTok, barGen, 
+                                    myBar, cdone, rv, rwb, rneed, stres, dsl, 
+                                    atomic, ppPending, ppClosed, ppNotify, 
+                                    ppNC, ppBP, ppDepth, ppAlive, ppHeld, 
+                                    inItems, inClosed, inWaker, pollFn, 
+                                    chuteFn, pwTaken, nextPoll, ppItem, pjLive, 
+                                    ppStage, h, dead, sti, smax, rq, sq, sj, 
+                                    rsq, bown, bwk, bi, bcur, bw, bsp, jq, jj, 
+                                    jwk, fj, dq, dj, oq, oop, omode, oj, tq, 
+                                    top, af, wf, wop, sf, sctx, xf, cop, kj, 
+                                    pp, pwk, np, nbp, nres, dp, pf, pctx, pq, 
+                                    pj, pd, nq >>
 
 pw_take(self) == /\ pc[self] = "pw_take"
                  /\ chuteFn' = [chuteFn EXCEPT ![OpTab[ww[self].d].p] = pollFn[OpTab[ww[self].d].p]]
@@ -1882,10 +1912,10 @@ pw_take(self) == /\ pc[self] = "pw_take"
                                  gwhist, dwSt, dwW, dblTaken, dblW1, dblW2, 
                                  nextDW, ready, cwait, cnotif, cvHeld, sdres, 
                                  jpanic, sfst, slotSt, qrSent, qrWaker, 
-                                 dnState, dnWaker, parkTok, barGen, myBar, 
-                                 cdone, rv, rwb, rneed, stres, dsl, atomic, 
-                                 strong, ppPending, ppClosed, ppNotify, ppNC, 
-                                 ppBP, ppDepth, ppAlive, ppHeld, inItems, 
+                                 dnState, susDropped, dnWaker, parkTok, barGen, 
+                                 myBar, cdone, rv, rwb, rneed, stres, dsl, 
+                                 atomic, strong, ppPending, ppClosed, ppNotify, 
+                                 ppNC, ppBP, ppDepth, ppAlive, ppHeld, inItems, 
                                  inClosed, inWaker, pwTaken, nextPoll, ppItem, 
                                  pjLive, ppStage, h, dead, sti, smax, rq, ww, 
                                  rsq, bown, bwk, bi, bcur, bw, bsp, jq, jj, 
@@ -1905,17 +1935,18 @@ z_wk_ret(self) == /\ pc[self] = "z_wk_ret"
                                   gthreads, gwhist, dwSt, dwW, dblTaken, dblW1, 
                                   dblW2, nextDW, ready, cwait, cnotif, cvHeld, 
                                   sdres, jpanic, sfst, slotSt, qrSent, qrWaker, 
-                                  dnState, dnWaker, parkTok, barGen, myBar, 
-                                  cdone, rv, rwb, rneed, stres, dsl, atomic, 
-                                  strong, ppPending, ppClosed, ppNotify, ppNC, 
-                                  ppBP, ppDepth, ppAlive, ppHeld, inItems, 
-                                  inClosed, inWaker, pollFn, chuteFn, pwTaken, 
-                                  nextPoll, ppItem, pjLive, ppStage, h, dead, 
-                                  sti, smax, rq, sq, sj, rsq, bown, bwk, bi, 
-                                  bcur, bw, bsp, jq, jj, jwk, fj, dq, dj, oq, 
-                                  oop, omode, oj, yq, yop, yclaimed, tq, top, 
-                                  af, wf, wop, sf, sctx, xf, cop, kj, pp, pwk, 
-                                  np, nbp, nres, dp, pf, pctx, pq, pj, pd, nq >>
+                                  dnState, susDropped, dnWaker, parkTok, 
+                                  barGen, myBar, cdone, rv, rwb, rneed, stres, 
+                                  dsl, atomic, strong, ppPending, ppClosed, 
+                                  ppNotify, ppNC, ppBP, ppDepth, ppAlive, 
+                                  ppHeld, inItems, inClosed, inWaker, pollFn, 
+                                  chuteFn, pwTaken, nextPoll, ppItem, pjLive, 
+                                  ppStage, h, dead, sti, smax, rq, sq, sj, rsq, 
+                                  bown, bwk, bi, bcur, bw, bsp, jq, jj, jwk, 
+                                  fj, dq, dj, oq, oop, omode, oj, yq, yop, 
+                                  yclaimed, tq, top, af, wf, wop, sf, sctx, xf, 
+                                  cop, kj, pp, pwk, np, nbp, nres, dp, pf, 
+                                  pctx, pq, pj, pd, nq >>
 
 Wake(self) == wk_lock(self) \/ z_wk_second(self) \/ z_pw_after(self)
                  \/ pw_take(self) \/ z_wk_ret(self)
@@ -1945,10 +1976,10 @@ rb_step(self) == /\ pc[self] = "rb_step"
                                  gthreads, gwhist, dwSt, dwW, dblTaken, dblW1, 
                                  dblW2, nextDW, ready, cwait, cnotif, cvHeld, 
                                  sdres, jpanic, sfst, slotSt, qrSent, qrWaker, 
-                                 dnState, dnWaker, parkTok, barGen, myBar, 
-                                 cdone, rv, rwb, rneed, stres, dsl, atomic, 
-                                 strong, ppPending, ppClosed, ppNotify, ppNC, 
-                                 ppBP, ppDepth, ppAlive, ppHeld, inItems, 
+                                 dnState, susDropped, dnWaker, parkTok, barGen, 
+                                 myBar, cdone, rv, rwb, rneed, stres, dsl, 
+                                 atomic, strong, ppPending, ppClosed, ppNotify, 
+                                 ppNC, ppBP, ppDepth, ppAlive, ppHeld, inItems, 
                                  inClosed, inWaker, pollFn, chuteFn, pwTaken, 
                                  nextPoll, ppItem, pjLive, ppStage, stack, 
                                  dead, sti, smax, rq, sq, sj, ww, rsq, bown, 
@@ -2046,17 +2077,17 @@ z_finish(self) == /\ pc[self] = "z_finish"
                                   jkind, fres, fwaker, gfired, dwSt, dwW, 
                                   dblTaken, dblW1, dblW2, nextDW, ready, cwait, 
                                   cnotif, cvHeld, sfst, slotSt, qrSent, 
-                                  qrWaker, dnState, dnWaker, parkTok, barGen, 
-                                  myBar, cdone, rwb, rneed, stres, dsl, atomic, 
-                                  strong, ppPending, ppClosed, ppNotify, ppNC, 
-                                  ppBP, ppDepth, ppAlive, ppHeld, inItems, 
-                                  inClosed, inWaker, pollFn, chuteFn, pwTaken, 
-                                  nextPoll, ppItem, pjLive, ppStage, dead, sti, 
-                                  smax, rq, sq, sj, ww, jq, jj, jwk, fj, dq, 
-                                  dj, oq, oop, omode, oj, yq, yop, yclaimed, 
-                                  tq, top, af, wf, wop, sf, sctx, xf, cop, kj, 
-                                  pp, pwk, np, nbp, nres, dp, pf, pctx, pq, pj, 
-                                  pd, nq >>
+                                  qrWaker, dnState, susDropped, dnWaker, 
+                                  parkTok, barGen, myBar, cdone, rwb, rneed, 
+                                  stres, dsl, atomic, strong, ppPending, 
+                                  ppClosed, ppNotify, ppNC, ppBP, ppDepth, 
+                                  ppAlive, ppHeld, inItems, inClosed, inWaker, 
+                                  pollFn, chuteFn, pwTaken, nextPoll, ppItem, 
+                                  pjLive, ppStage, dead, sti, smax, rq, sq, sj, 
+                                  ww, jq, jj, jwk, fj, dq, dj, oq, oop, omode, 
+                                  oj, yq, yop, yclaimed, tq, top, af, wf, wop, 
+                                  sf, sctx, xf, cop, kj, pp, pwk, np, nbp, 
+                                  nres, dp, pf, pctx, pq, pj, pd, nq >>
 
 z_pollaw(self) == /\ pc[self] = "z_pollaw"
                   /\ IF K(0 - AwItem(bown[self])) = "fsync"
@@ -2091,17 +2122,17 @@ z_pollaw(self) == /\ pc[self] = "z_pollaw"
                                   gthreads, gwhist, dwSt, dwW, dblTaken, dblW1, 
                                   dblW2, nextDW, ready, cwait, cnotif, cvHeld, 
                                   sdres, jpanic, sfst, slotSt, qrSent, qrWaker, 
-                                  dnState, dnWaker, parkTok, barGen, myBar, 
-                                  cdone, rv, rwb, rneed, stres, dsl, atomic, 
-                                  strong, ppPending, ppClosed, ppNotify, ppNC, 
-                                  ppBP, ppDepth, ppAlive, ppHeld, inItems, 
-                                  inClosed, inWaker, pollFn, chuteFn, pwTaken, 
-                                  nextPoll, ppItem, pjLive, ppStage, h, dead, 
-                                  sti, smax, rq, sq, sj, ww, rsq, bown, bwk, 
-                                  bi, bcur, bw, bsp, jq, jj, jwk, fj, dq, dj, 
-                                  oq, oop, omode, oj, yq, yop, yclaimed, tq, 
-                                  top, af, wf, wop, xf, cop, kj, pp, pwk, np, 
-                                  nbp, nres, dp, nq >>
+                                  dnState, susDropped, dnWaker, parkTok, 
+                                  barGen, myBar, cdone, rv, rwb, rneed, stres, 
+                                  dsl, atomic, strong, ppPending, ppClosed, 
+                                  ppNotify, ppNC, ppBP, ppDepth, ppAlive, 
+                                  ppHeld, inItems, inClosed, inWaker, pollFn, 
+                                  chuteFn, pwTaken, nextPoll, ppItem, pjLive, 
+                                  ppStage, h, dead, sti, smax, rq, sq, sj, ww, 
+                                  rsq, bown, bwk, bi, bcur, bw, bsp, jq, jj, 
+                                  jwk, fj, dq, dj, oq, oop, omode, oj, yq, yop, 
+                                  yclaimed, tq, top, af, wf, wop, xf, cop, kj, 
+                                  pp, pwk, np, nbp, nres, dp, nq >>
 
 z_pollaw_after(self) == /\ pc[self] = "z_pollaw_after"
                         /\ IF rv[self] = 5
@@ -2130,11 +2161,11 @@ z_pollaw_after(self) == /\ pc[self] = "z_pollaw_after"
                                         gwhist, dwSt, dwW, dblTaken, dblW1, 
                                         dblW2, nextDW, ready, cwait, cnotif, 
                                         cvHeld, sdres, jpanic, sfst, slotSt, 
-                                        qrSent, qrWaker, dnState, dnWaker, 
-                                        parkTok, barGen, myBar, cdone, rv, rwb, 
-                                        rneed, stres, dsl, atomic, strong, 
-                                        ppPending, ppClosed, ppNotify, ppNC, 
-                                        ppBP, ppDepth, ppAlive, ppHeld, 
+                                        qrSent, qrWaker, dnState, susDropped, 
+                                        dnWaker, parkTok, barGen, myBar, cdone, 
+                                        rv, rwb, rneed, stres, dsl, atomic, 
+                                        strong, ppPending, ppClosed, ppNotify, 
+                                        ppNC, ppBP, ppDepth, ppAlive, ppHeld, 
                                         inItems, inClosed, inWaker, pollFn, 
                                         chuteFn, pwTaken, nextPoll, ppItem, 
                                         pjLive, ppStage, dead, sti, smax, rq, 
@@ -2157,19 +2188,19 @@ z_drop_ret(self) == /\ pc[self] = "z_drop_ret"
                                     gfired, gwaker, gthreads, gwhist, dwSt, 
                                     dwW, dblTaken, dblW1, dblW2, nextDW, ready, 
                                     cwait, cnotif, cvHeld, sdres, jpanic, sfst, 
-                                    slotSt, qrSent, qrWaker, dnState, dnWaker, 
-                                    parkTok, barGen, myBar, cdone, rwb, rneed, 
-                                    stres, dsl, atomic, strong, ppPending, 
-                                    ppClosed, ppNotify, ppNC, ppBP, ppDepth, 
-                                    ppAlive, ppHeld, inItems, inClosed, 
-                                    inWaker, pollFn, chuteFn, pwTaken, 
-                                    nextPoll, ppItem, pjLive, ppStage, h, 
-                                    stack, dead, sti, smax, rq, sq, sj, ww, 
-                                    rsq, bown, bwk, bi, bcur, bw, bsp, jq, jj, 
-                                    jwk, fj, dq, dj, oq, oop, omode, oj, yq, 
-                                    yop, yclaimed, tq, top, af, wf, wop, sf, 
-                                    sctx, xf, cop, kj, pp, pwk, np, nbp, nres, 
-                                    dp, pf, pctx, pq, pj, pd, nq >>
+                                    slotSt, qrSent, qrWaker, dnState, 
+                                    susDropped, dnWaker, parkTok, barGen, 
+                                    myBar, cdone, rwb, rneed, stres, dsl, 
+                                    atomic, strong, ppPending, ppClosed, 
+                                    ppNotify, ppNC, ppBP, ppDepth, ppAlive, 
+                                    ppHeld, inItems, inClosed, inWaker, pollFn, 
+                                    chuteFn, pwTaken, nextPoll, ppItem, pjLive, 
+                                    ppStage, h, stack, dead, sti, smax, rq, sq, 
+                                    sj, ww, rsq, bown, bwk, bi, bcur, bw, bsp, 
+                                    jq, jj, jwk, fj, dq, dj, oq, oop, omode, 
+                                    oj, yq, yop, yclaimed, tq, top, af, wf, 
+                                    wop, sf, sctx, xf, cop, kj, pp, pwk, np, 
+                                    nbp, nres, dp, pf, pctx, pq, pj, pd, nq >>
 
 rb_bar(self) == /\ pc[self] = "rb_bar"
                 /\ myBar[self] < barGen \/ BarrierReady(self)
@@ -2186,17 +2217,17 @@ rb_bar(self) == /\ pc[self] = "rb_bar"
                                 gthreads, gwhist, dwSt, dwW, dblTaken, dblW1, 
                                 dblW2, nextDW, ready, cwait, cnotif, cvHeld, 
                                 sdres, jpanic, sfst, slotSt, qrSent, qrWaker, 
-                                dnState, dnWaker, parkTok, myBar, cdone, rwb, 
-                                rneed, stres, dsl, atomic, strong, ppPending, 
-                                ppClosed, ppNotify, ppNC, ppBP, ppDepth, 
-                                ppAlive, ppHeld, inItems, inClosed, inWaker, 
-                                pollFn, chuteFn, pwTaken, nextPoll, ppItem, 
-                                pjLive, ppStage, h, stack, dead, sti, smax, rq, 
-                                sq, sj, ww, rsq, bown, bwk, bi, bcur, bw, bsp, 
-                                jq, jj, jwk, fj, dq, dj, oq, oop, omode, oj, 
-                                yq, yop, yclaimed, tq, top, af, wf, wop, sf, 
-                                sctx, xf, cop, kj, pp, pwk, np, nbp, nres, dp, 
-                                pf, pctx, pq, pj, pd, nq >>
+                                dnState, susDropped, dnWaker, parkTok, myBar, 
+                                cdone, rwb, rneed, stres, dsl, atomic, strong, 
+                                ppPending, ppClosed, ppNotify, ppNC, ppBP, 
+                                ppDepth, ppAlive, ppHeld, inItems, inClosed, 
+                                inWaker, pollFn, chuteFn, pwTaken, nextPoll, 
+                                ppItem, pjLive, ppStage, h, stack, dead, sti, 
+                                smax, rq, sq, sj, ww, rsq, bown, bwk, bi, bcur, 
+                                bw, bsp, jq, jj, jwk, fj, dq, dj, oq, oop, 
+                                omode, oj, yq, yop, yclaimed, tq, top, af, wf, 
+                                wop, sf, sctx, xf, cop, kj, pp, pwk, np, nbp, 
+                                nres, dp, pf, pctx, pq, pj, pd, nq >>
 
 rb_block(self) == /\ pc[self] = "rb_block"
                   /\ parkTok[self]
@@ -2209,17 +2240,18 @@ rb_block(self) == /\ pc[self] = "rb_block"
                                   gthreads, gwhist, dwSt, dwW, dblTaken, dblW1, 
                                   dblW2, nextDW, ready, cwait, cnotif, cvHeld, 
                                   sdres, jpanic, sfst, slotSt, qrSent, qrWaker, 
-                                  dnState, dnWaker, barGen, myBar, cdone, rv, 
-                                  rwb, rneed, stres, dsl, atomic, strong, 
-                                  ppPending, ppClosed, ppNotify, ppNC, ppBP, 
-                                  ppDepth, ppAlive, ppHeld, inItems, inClosed, 
-                                  inWaker, pollFn, chuteFn, pwTaken, nextPoll, 
-                                  ppItem, pjLive, ppStage, h, stack, dead, sti, 
-                                  smax, rq, sq, sj, ww, rsq, bown, bwk, bi, 
-                                  bcur, bw, bsp, jq, jj, jwk, fj, dq, dj, oq, 
-                                  oop, omode, oj, yq, yop, yclaimed, tq, top, 
-                                  af, wf, wop, sf, sctx, xf, cop, kj, pp, pwk, 
-                                  np, nbp, nres, dp, pf, pctx, pq, pj, pd, nq >>
+                                  dnState, susDropped, dnWaker, barGen, myBar, 
+                                  cdone, rv, rwb, rneed, stres, dsl, atomic, 
+                                  strong, ppPending, ppClosed, ppNotify, ppNC, 
+                                  ppBP, ppDepth, ppAlive, ppHeld, inItems, 
+                                  inClosed, inWaker, pollFn, chuteFn, pwTaken, 
+                                  nextPoll, ppItem, pjLive, ppStage, h, stack, 
+                                  dead, sti, smax, rq, sq, sj, ww, rsq, bown, 
+                                  bwk, bi, bcur, bw, bsp, jq, jj, jwk, fj, dq, 
+                                  dj, oq, oop, omode, oj, yq, yop, yclaimed, 
+                                  tq, top, af, wf, wop, sf, sctx, xf, cop, kj, 
+                                  pp, pwk, np, nbp, nres, dp, pf, pctx, pq, pj, 
+                                  pd, nq >>
 
 z_dispatch(self) == /\ pc[self] = "z_dispatch"
                     /\ IF K(bcur[self]) = "desync"
@@ -2838,14 +2870,14 @@ z_dispatch(self) == /\ pc[self] = "z_dispatch"
                                     dwSt, dwW, dblTaken, dblW1, dblW2, nextDW, 
                                     ready, cwait, cnotif, cvHeld, sdres, 
                                     jpanic, sfst, slotSt, qrSent, qrWaker, 
-                                    dnState, dnWaker, barGen, cdone, rwb, 
-                                    rneed, stres, dsl, atomic, ppPending, 
-                                    ppClosed, ppNotify, ppNC, ppBP, ppDepth, 
-                                    ppAlive, ppHeld, pollFn, chuteFn, pwTaken, 
-                                    nextPoll, ppItem, pjLive, ppStage, dead, 
-                                    sti, smax, rq, rsq, bown, bwk, bi, bcur, 
-                                    jq, jj, jwk, fj, dq, dj, oq, oop, omode, 
-                                    oj, kj, pp, pwk, nq >>
+                                    dnState, susDropped, dnWaker, barGen, 
+                                    cdone, rwb, rneed, stres, dsl, atomic, 
+                                    ppPending, ppClosed, ppNotify, ppNC, ppBP, 
+                                    ppDepth, ppAlive, ppHeld, pollFn, chuteFn, 
+                                    pwTaken, nextPoll, ppItem, pjLive, ppStage, 
+                                    dead, sti, smax, rq, rsq, bown, bwk, bi, 
+                                    bcur, jq, jj, jwk, fj, dq, dj, oq, oop, 
+                                    omode, oj, kj, pp, pwk, nq >>
 
 z_then(self) == /\ pc[self] = "z_then"
                 /\ IF rv[self] = 0 /\ OpTab[bcur[self]].then = "await"
@@ -2873,10 +2905,10 @@ z_then(self) == /\ pc[self] = "z_then"
                                 gthreads, gwhist, dwSt, dwW, dblTaken, dblW1, 
                                 dblW2, nextDW, ready, cwait, cnotif, cvHeld, 
                                 sdres, jpanic, sfst, slotSt, qrSent, qrWaker, 
-                                dnState, dnWaker, parkTok, barGen, myBar, 
-                                cdone, rv, rwb, rneed, stres, dsl, atomic, 
-                                strong, ppPending, ppClosed, ppNotify, ppNC, 
-                                ppBP, ppDepth, ppAlive, ppHeld, inItems, 
+                                dnState, susDropped, dnWaker, parkTok, barGen, 
+                                myBar, cdone, rv, rwb, rneed, stres, dsl, 
+                                atomic, strong, ppPending, ppClosed, ppNotify, 
+                                ppNC, ppBP, ppDepth, ppAlive, ppHeld, inItems, 
                                 inClosed, inWaker, pollFn, chuteFn, pwTaken, 
                                 nextPoll, ppItem, pjLive, ppStage, h, dead, 
                                 sti, smax, rq, sq, sj, ww, rsq, bown, bwk, bi, 
@@ -2898,18 +2930,18 @@ z_polled(self) == /\ pc[self] = "z_polled"
                                   gthreads, gwhist, dwSt, dwW, dblTaken, dblW1, 
                                   dblW2, nextDW, ready, cwait, cnotif, cvHeld, 
                                   sdres, jpanic, sfst, slotSt, qrSent, qrWaker, 
-                                  dnState, dnWaker, parkTok, barGen, myBar, 
-                                  cdone, rv, rwb, rneed, stres, dsl, atomic, 
-                                  strong, ppPending, ppClosed, ppNotify, ppNC, 
-                                  ppBP, ppDepth, ppAlive, ppHeld, inItems, 
-                                  inClosed, inWaker, pollFn, chuteFn, pwTaken, 
-                                  nextPoll, ppItem, pjLive, ppStage, stack, 
-                                  dead, sti, smax, rq, sq, sj, ww, rsq, bown, 
-                                  bwk, bi, bcur, bw, bsp, jq, jj, jwk, fj, dq, 
-                                  dj, oq, oop, omode, oj, yq, yop, yclaimed, 
-                                  tq, top, af, wf, wop, sf, sctx, xf, cop, kj, 
-                                  pp, pwk, np, nbp, nres, dp, pf, pctx, pq, pj, 
-                                  pd, nq >>
+                                  dnState, susDropped, dnWaker, parkTok, 
+                                  barGen, myBar, cdone, rv, rwb, rneed, stres, 
+                                  dsl, atomic, strong, ppPending, ppClosed, 
+                                  ppNotify, ppNC, ppBP, ppDepth, ppAlive, 
+                                  ppHeld, inItems, inClosed, inWaker, pollFn, 
+                                  chuteFn, pwTaken, nextPoll, ppItem, pjLive, 
+                                  ppStage, stack, dead, sti, smax, rq, sq, sj, 
+                                  ww, rsq, bown, bwk, bi, bcur, bw, bsp, jq, 
+                                  jj, jwk, fj, dq, dj, oq, oop, omode, oj, yq, 
+                                  yop, yclaimed, tq, top, af, wf, wop, sf, 
+                                  sctx, xf, cop, kj, pp, pwk, np, nbp, nres, 
+                                  dp, pf, pctx, pq, pj, pd, nq >>
 
 pp_setdepth(self) == /\ pc[self] = "pp_setdepth"
                      /\ ppDepth' = [ppDepth EXCEPT ![OpTab[bcur[self]].p] = OpTab[bcur[self]].n]
@@ -2923,19 +2955,19 @@ pp_setdepth(self) == /\ pc[self] = "pp_setdepth"
                                      dwSt, dwW, dblTaken, dblW1, dblW2, nextDW, 
                                      ready, cwait, cnotif, cvHeld, sdres, 
                                      jpanic, sfst, slotSt, qrSent, qrWaker, 
-                                     dnState, dnWaker, parkTok, barGen, myBar, 
-                                     cdone, rwb, rneed, stres, dsl, atomic, 
-                                     strong, ppPending, ppClosed, ppNotify, 
-                                     ppNC, ppBP, ppAlive, ppHeld, inItems, 
-                                     inClosed, inWaker, pollFn, chuteFn, 
-                                     pwTaken, nextPoll, ppItem, pjLive, 
-                                     ppStage, h, stack, dead, sti, smax, rq, 
-                                     sq, sj, ww, rsq, bown, bwk, bi, bcur, bw, 
-                                     bsp, jq, jj, jwk, fj, dq, dj, oq, oop, 
-                                     omode, oj, yq, yop, yclaimed, tq, top, af, 
-                                     wf, wop, sf, sctx, xf, cop, kj, pp, pwk, 
-                                     np, nbp, nres, dp, pf, pctx, pq, pj, pd, 
-                                     nq >>
+                                     dnState, susDropped, dnWaker, parkTok, 
+                                     barGen, myBar, cdone, rwb, rneed, stres, 
+                                     dsl, atomic, strong, ppPending, ppClosed, 
+                                     ppNotify, ppNC, ppBP, ppAlive, ppHeld, 
+                                     inItems, inClosed, inWaker, pollFn, 
+                                     chuteFn, pwTaken, nextPoll, ppItem, 
+                                     pjLive, ppStage, h, stack, dead, sti, 
+                                     smax, rq, sq, sj, ww, rsq, bown, bwk, bi, 
+                                     bcur, bw, bsp, jq, jj, jwk, fj, dq, dj, 
+                                     oq, oop, omode, oj, yq, yop, yclaimed, tq, 
+                                     top, af, wf, wop, sf, sctx, xf, cop, kj, 
+                                     pp, pwk, np, nbp, nres, dp, pf, pctx, pq, 
+                                     pj, pd, nq >>
 
 z_spur(self) == /\ pc[self] = "z_spur"
                 /\ IF bsp[self] = << >>
@@ -2961,17 +2993,17 @@ z_spur(self) == /\ pc[self] = "z_spur"
                                 gthreads, gwhist, dwSt, dwW, dblTaken, dblW1, 
                                 dblW2, nextDW, ready, cwait, cnotif, cvHeld, 
                                 sdres, jpanic, sfst, slotSt, qrSent, qrWaker, 
-                                dnState, dnWaker, barGen, myBar, cdone, rv, 
-                                rwb, rneed, stres, dsl, atomic, strong, 
-                                ppPending, ppClosed, ppNotify, ppNC, ppBP, 
-                                ppDepth, ppAlive, ppHeld, inItems, inClosed, 
-                                inWaker, pollFn, chuteFn, pwTaken, nextPoll, 
-                                ppItem, pjLive, ppStage, h, dead, sti, smax, 
-                                rq, sq, sj, rsq, bown, bwk, bi, bcur, jq, jj, 
-                                jwk, fj, dq, dj, oq, oop, omode, oj, yq, yop, 
-                                yclaimed, tq, top, af, wf, wop, sf, sctx, xf, 
-                                cop, kj, pp, pwk, np, nbp, nres, dp, pf, pctx, 
-                                pq, pj, pd, nq >>
+                                dnState, susDropped, dnWaker, barGen, myBar, 
+                                cdone, rv, rwb, rneed, stres, dsl, atomic, 
+                                strong, ppPending, ppClosed, ppNotify, ppNC, 
+                                ppBP, ppDepth, ppAlive, ppHeld, inItems, 
+                                inClosed, inWaker, pollFn, chuteFn, pwTaken, 
+                                nextPoll, ppItem, pjLive, ppStage, h, dead, 
+                                sti, smax, rq, sq, sj, rsq, bown, bwk, bi, 
+                                bcur, jq, jj, jwk, fj, dq, dj, oq, oop, omode, 
+                                oj, yq, yop, yclaimed, tq, top, af, wf, wop, 
+                                sf, sctx, xf, cop, kj, pp, pwk, np, nbp, nres, 
+                                dp, pf, pctx, pq, pj, pd, nq >>
 
 rb_wait(self) == /\ pc[self] = "rb_wait"
                  /\ parkTok[self]
@@ -2988,17 +3020,18 @@ rb_wait(self) == /\ pc[self] = "rb_wait"
                                  gwhist, dwSt, dwW, dblTaken, dblW1, dblW2, 
                                  nextDW, ready, cwait, cnotif, cvHeld, sdres, 
                                  jpanic, sfst, slotSt, qrSent, qrWaker, 
-                                 dnState, dnWaker, barGen, myBar, cdone, rv, 
-                                 rwb, rneed, stres, dsl, atomic, strong, 
-                                 ppPending, ppClosed, ppNotify, ppNC, ppBP, 
-                                 ppDepth, ppAlive, ppHeld, inItems, inClosed, 
-                                 inWaker, pollFn, chuteFn, pwTaken, nextPoll, 
-                                 ppItem, pjLive, ppStage, h, stack, dead, sti, 
-                                 smax, rq, sq, sj, ww, rsq, bown, bwk, bi, 
-                                 bcur, bw, bsp, jq, jj, jwk, fj, dq, dj, oq, 
-                                 oop, omode, oj, yq, yop, yclaimed, tq, top, 
-                                 af, wf, wop, sf, sctx, xf, cop, kj, pp, pwk, 
-                                 np, nbp, nres, dp, pf, pctx, pq, pj, pd, nq >>
+                                 dnState, susDropped, dnWaker, barGen, myBar, 
+                                 cdone, rv, rwb, rneed, stres, dsl, atomic, 
+                                 strong, ppPending, ppClosed, ppNotify, ppNC, 
+                                 ppBP, ppDepth, ppAlive, ppHeld, inItems, 
+                                 inClosed, inWaker, pollFn, chuteFn, pwTaken, 
+                                 nextPoll, ppItem, pjLive, ppStage, h, stack, 
+                                 dead, sti, smax, rq, sq, sj, ww, rsq, bown, 
+                                 bwk, bi, bcur, bw, bsp, jq, jj, jwk, fj, dq, 
+                                 dj, oq, oop, omode, oj, yq, yop, yclaimed, tq, 
+                                 top, af, wf, wop, sf, sctx, xf, cop, kj, pp, 
+                                 pwk, np, nbp, nres, dp, pf, pctx, pq, pj, pd, 
+                                 nq >>
 
 mx_set(self) == /\ pc[self] = "mx_set"
                 /\ maxThreads' = OpTab[bcur[self]].n
@@ -3015,17 +3048,17 @@ mx_set(self) == /\ pc[self] = "mx_set"
                                 dwSt, dwW, dblTaken, dblW1, dblW2, nextDW, 
                                 ready, cwait, cnotif, cvHeld, sdres, jpanic, 
                                 sfst, slotSt, qrSent, qrWaker, dnState, 
-                                dnWaker, parkTok, barGen, myBar, cdone, rwb, 
-                                rneed, stres, dsl, atomic, strong, ppPending, 
-                                ppClosed, ppNotify, ppNC, ppBP, ppDepth, 
-                                ppAlive, ppHeld, inItems, inClosed, inWaker, 
-                                pollFn, chuteFn, pwTaken, nextPoll, ppItem, 
-                                pjLive, ppStage, stack, dead, sti, smax, rq, 
-                                sq, sj, ww, rsq, bown, bwk, bi, bcur, bw, bsp, 
-                                jq, jj, jwk, fj, dq, dj, oq, oop, omode, oj, 
-                                yq, yop, yclaimed, tq, top, af, wf, wop, sf, 
-                                sctx, xf, cop, kj, pp, pwk, np, nbp, nres, dp, 
-                                pf, pctx, pq, pj, pd, nq >>
+                                susDropped, dnWaker, parkTok, barGen, myBar, 
+                                cdone, rwb, rneed, stres, dsl, atomic, strong, 
+                                ppPending, ppClosed, ppNotify, ppNC, ppBP, 
+                                ppDepth, ppAlive, ppHeld, inItems, inClosed, 
+                                inWaker, pollFn, chuteFn, pwTaken, nextPoll, 
+                                ppItem, pjLive, ppStage, stack, dead, sti, 
+                                smax, rq, sq, sj, ww, rsq, bown, bwk, bi, bcur, 
+                                bw, bsp, jq, jj, jwk, fj, dq, dj, oq, oop, 
+                                omode, oj, yq, yop, yclaimed, tq, top, af, wf, 
+                                wop, sf, sctx, xf, cop, kj, pp, pwk, np, nbp, 
+                                nres, dp, pf, pctx, pq, pj, pd, nq >>
 
 z_mx_loop(self) == /\ pc[self] = "z_mx_loop"
                    /\ stack' = [stack EXCEPT ![self] = << [ procedure |->  "ScheduleThread",
@@ -3045,18 +3078,18 @@ z_mx_loop(self) == /\ pc[self] = "z_mx_loop"
                                    gfired, gwaker, gthreads, gwhist, dwSt, dwW, 
                                    dblTaken, dblW1, dblW2, nextDW, ready, 
                                    cwait, cnotif, cvHeld, sdres, jpanic, sfst, 
-                                   slotSt, qrSent, qrWaker, dnState, dnWaker, 
-                                   parkTok, barGen, myBar, cdone, rv, rwb, 
-                                   rneed, stres, dsl, atomic, strong, 
-                                   ppPending, ppClosed, ppNotify, ppNC, ppBP, 
-                                   ppDepth, ppAlive, ppHeld, inItems, inClosed, 
-                                   inWaker, pollFn, chuteFn, pwTaken, nextPoll, 
-                                   ppItem, pjLive, ppStage, h, rq, sq, sj, ww, 
-                                   rsq, bown, bwk, bi, bcur, bw, bsp, jq, jj, 
-                                   jwk, fj, dq, dj, oq, oop, omode, oj, yq, 
-                                   yop, yclaimed, tq, top, af, wf, wop, sf, 
-                                   sctx, xf, cop, kj, pp, pwk, np, nbp, nres, 
-                                   dp, pf, pctx, pq, pj, pd, nq >>
+                                   slotSt, qrSent, qrWaker, dnState, 
+                                   susDropped, dnWaker, parkTok, barGen, myBar, 
+                                   cdone, rv, rwb, rneed, stres, dsl, atomic, 
+                                   strong, ppPending, ppClosed, ppNotify, ppNC, 
+                                   ppBP, ppDepth, ppAlive, ppHeld, inItems, 
+                                   inClosed, inWaker, pollFn, chuteFn, pwTaken, 
+                                   nextPoll, ppItem, pjLive, ppStage, h, rq, 
+                                   sq, sj, ww, rsq, bown, bwk, bi, bcur, bw, 
+                                   bsp, jq, jj, jwk, fj, dq, dj, oq, oop, 
+                                   omode, oj, yq, yop, yclaimed, tq, top, af, 
+                                   wf, wop, sf, sctx, xf, cop, kj, pp, pwk, np, 
+                                   nbp, nres, dp, pf, pctx, pq, pj, pd, nq >>
 
 z_mx_chk(self) == /\ pc[self] = "z_mx_chk"
                   /\ IF stres[self]
@@ -3071,18 +3104,18 @@ z_mx_chk(self) == /\ pc[self] = "z_mx_chk"
                                   gthreads, gwhist, dwSt, dwW, dblTaken, dblW1, 
                                   dblW2, nextDW, ready, cwait, cnotif, cvHeld, 
                                   sdres, jpanic, sfst, slotSt, qrSent, qrWaker, 
-                                  dnState, dnWaker, parkTok, barGen, myBar, 
-                                  cdone, rwb, rneed, stres, dsl, atomic, 
-                                  strong, ppPending, ppClosed, ppNotify, ppNC, 
-                                  ppBP, ppDepth, ppAlive, ppHeld, inItems, 
-                                  inClosed, inWaker, pollFn, chuteFn, pwTaken, 
-                                  nextPoll, ppItem, pjLive, ppStage, h, stack, 
-                                  dead, sti, smax, rq, sq, sj, ww, rsq, bown, 
-                                  bwk, bi, bcur, bw, bsp, jq, jj, jwk, fj, dq, 
-                                  dj, oq, oop, omode, oj, yq, yop, yclaimed, 
-                                  tq, top, af, wf, wop, sf, sctx, xf, cop, kj, 
-                                  pp, pwk, np, nbp, nres, dp, pf, pctx, pq, pj, 
-                                  pd, nq >>
+                                  dnState, susDropped, dnWaker, parkTok, 
+                                  barGen, myBar, cdone, rwb, rneed, stres, dsl, 
+                                  atomic, strong, ppPending, ppClosed, 
+                                  ppNotify, ppNC, ppBP, ppDepth, ppAlive, 
+                                  ppHeld, inItems, inClosed, inWaker, pollFn, 
+                                  chuteFn, pwTaken, nextPoll, ppItem, pjLive, 
+                                  ppStage, h, stack, dead, sti, smax, rq, sq, 
+                                  sj, ww, rsq, bown, bwk, bi, bcur, bw, bsp, 
+                                  jq, jj, jwk, fj, dq, dj, oq, oop, omode, oj, 
+                                  yq, yop, yclaimed, tq, top, af, wf, wop, sf, 
+                                  sctx, xf, cop, kj, pp, pwk, np, nbp, nres, 
+                                  dp, pf, pctx, pq, pj, pd, nq >>
 
 RunOps(self) == rb_step(self) \/ z_finish(self) \/ z_pollaw(self)
                    \/ z_pollaw_after(self) \/ z_drop_ret(self)
@@ -3458,14 +3491,14 @@ z_rj(self) == /\ pc[self] = "z_rj"
                               jkind, jaw, fres, fwaker, gfired, gthreads, dwSt, 
                               dwW, dblTaken, dblW1, dblW2, nextDW, ready, 
                               cwait, cnotif, cvHeld, jpanic, sfst, qrWaker, 
-                              dnState, dnWaker, barGen, myBar, cdone, rwb, 
-                              rneed, stres, dsl, atomic, ppPending, ppClosed, 
-                              ppNotify, ppNC, ppBP, ppDepth, ppAlive, ppHeld, 
-                              inItems, inClosed, inWaker, pollFn, pwTaken, 
-                              nextPoll, ppItem, pjLive, ppStage, dead, sti, 
-                              smax, rq, sq, sj, fj, dq, dj, oq, oop, omode, oj, 
-                              tq, top, af, wf, wop, sf, sctx, xf, cop, np, nbp, 
-                              nres, dp, pf, pctx, pq, pj, pd, nq >>
+                              dnState, susDropped, dnWaker, barGen, myBar, 
+                              cdone, rwb, rneed, stres, dsl, atomic, ppPending, 
+                              ppClosed, ppNotify, ppNC, ppBP, ppDepth, ppAlive, 
+                              ppHeld, inItems, inClosed, inWaker, pollFn, 
+                              pwTaken, nextPoll, ppItem, pjLive, ppStage, dead, 
+                              sti, smax, rq, sq, sj, fj, dq, dj, oq, oop, 
+                              omode, oj, tq, top, af, wf, wop, sf, sctx, xf, 
+                              cop, np, nbp, nres, dp, pf, pctx, pq, pj, pd, nq >>
 
 z_rj_ret(self) == /\ pc[self] = "z_rj_ret"
                   /\ pc' = [pc EXCEPT ![self] = Head(stack[self]).pc]
@@ -3480,17 +3513,18 @@ z_rj_ret(self) == /\ pc[self] = "z_rj_ret"
                                   gthreads, gwhist, dwSt, dwW, dblTaken, dblW1, 
                                   dblW2, nextDW, ready, cwait, cnotif, cvHeld, 
                                   sdres, jpanic, sfst, slotSt, qrSent, qrWaker, 
-                                  dnState, dnWaker, parkTok, barGen, myBar, 
-                                  cdone, rv, rwb, rneed, stres, dsl, atomic, 
-                                  strong, ppPending, ppClosed, ppNotify, ppNC, 
-                                  ppBP, ppDepth, ppAlive, ppHeld, inItems, 
-                                  inClosed, inWaker, pollFn, chuteFn, pwTaken, 
-                                  nextPoll, ppItem, pjLive, ppStage, h, dead, 
-                                  sti, smax, rq, sq, sj, ww, rsq, bown, bwk, 
-                                  bi, bcur, bw, bsp, fj, dq, dj, oq, oop, 
-                                  omode, oj, yq, yop, yclaimed, tq, top, af, 
-                                  wf, wop, sf, sctx, xf, cop, kj, pp, pwk, np, 
-                                  nbp, nres, dp, pf, pctx, pq, pj, pd, nq >>
+                                  dnState, susDropped, dnWaker, parkTok, 
+                                  barGen, myBar, cdone, rv, rwb, rneed, stres, 
+                                  dsl, atomic, strong, ppPending, ppClosed, 
+                                  ppNotify, ppNC, ppBP, ppDepth, ppAlive, 
+                                  ppHeld, inItems, inClosed, inWaker, pollFn, 
+                                  chuteFn, pwTaken, nextPoll, ppItem, pjLive, 
+                                  ppStage, h, dead, sti, smax, rq, sq, sj, ww, 
+                                  rsq, bown, bwk, bi, bcur, bw, bsp, fj, dq, 
+                                  dj, oq, oop, omode, oj, yq, yop, yclaimed, 
+                                  tq, top, af, wf, wop, sf, sctx, xf, cop, kj, 
+                                  pp, pwk, np, nbp, nres, dp, pf, pctx, pq, pj, 
+                                  pd, nq >>
 
 z_rj_ok(self) == /\ pc[self] = "z_rj_ok"
                  /\ rv' = [rv EXCEPT ![self] = 0]
@@ -3506,17 +3540,17 @@ z_rj_ok(self) == /\ pc[self] = "z_rj_ok"
                                  gthreads, gwhist, dwSt, dwW, dblTaken, dblW1, 
                                  dblW2, nextDW, ready, cwait, cnotif, cvHeld, 
                                  sdres, jpanic, sfst, slotSt, qrSent, qrWaker, 
-                                 dnState, dnWaker, parkTok, barGen, myBar, 
-                                 cdone, rwb, rneed, stres, dsl, atomic, strong, 
-                                 ppPending, ppClosed, ppNotify, ppNC, ppBP, 
-                                 ppDepth, ppAlive, ppHeld, inItems, inClosed, 
-                                 inWaker, pollFn, chuteFn, pwTaken, nextPoll, 
-                                 ppItem, pjLive, ppStage, h, dead, sti, smax, 
-                                 rq, sq, sj, ww, rsq, bown, bwk, bi, bcur, bw, 
-                                 bsp, fj, dq, dj, oq, oop, omode, oj, yq, yop, 
-                                 yclaimed, tq, top, af, wf, wop, sf, sctx, xf, 
-                                 cop, kj, pp, pwk, np, nbp, nres, dp, pf, pctx, 
-                                 pq, pj, pd, nq >>
+                                 dnState, susDropped, dnWaker, parkTok, barGen, 
+                                 myBar, cdone, rwb, rneed, stres, dsl, atomic, 
+                                 strong, ppPending, ppClosed, ppNotify, ppNC, 
+                                 ppBP, ppDepth, ppAlive, ppHeld, inItems, 
+                                 inClosed, inWaker, pollFn, chuteFn, pwTaken, 
+                                 nextPoll, ppItem, pjLive, ppStage, h, dead, 
+                                 sti, smax, rq, sq, sj, ww, rsq, bown, bwk, bi, 
+                                 bcur, bw, bsp, fj, dq, dj, oq, oop, omode, oj, 
+                                 yq, yop, yclaimed, tq, top, af, wf, wop, sf, 
+                                 sctx, xf, cop, kj, pp, pwk, np, nbp, nres, dp, 
+                                 pf, pctx, pq, pj, pd, nq >>
 
 z_pp_gc(self) == /\ pc[self] = "z_pp_gc"
                  /\ IF pollFn[OpTab[jj[self]].p] /\ rv[self] = 0 /\ ~(\/ HoldsCtx(inWaker[OpTab[jj[self]].p])
@@ -3542,10 +3576,10 @@ z_pp_gc(self) == /\ pc[self] = "z_pp_gc"
                                  gthreads, gwhist, dwSt, dwW, dblTaken, dblW1, 
                                  dblW2, nextDW, ready, cwait, cnotif, cvHeld, 
                                  sdres, jpanic, sfst, slotSt, qrSent, qrWaker, 
-                                 dnState, dnWaker, parkTok, barGen, myBar, 
-                                 cdone, rv, rwb, rneed, stres, dsl, atomic, 
-                                 strong, ppPending, ppClosed, ppNotify, ppNC, 
-                                 ppBP, ppDepth, ppAlive, ppHeld, inItems, 
+                                 dnState, susDropped, dnWaker, parkTok, barGen, 
+                                 myBar, cdone, rv, rwb, rneed, stres, dsl, 
+                                 atomic, strong, ppPending, ppClosed, ppNotify, 
+                                 ppNC, ppBP, ppDepth, ppAlive, ppHeld, inItems, 
                                  inClosed, inWaker, chuteFn, pwTaken, nextPoll, 
                                  ppItem, ppStage, dead, sti, smax, rq, sq, sj, 
                                  ww, rsq, bown, bwk, bi, bcur, bw, bsp, fj, dq, 
@@ -3577,17 +3611,17 @@ z_slot2(self) == /\ pc[self] = "z_slot2"
                                  gthreads, gwhist, dwSt, dwW, dblTaken, dblW1, 
                                  dblW2, nextDW, ready, cwait, cnotif, cvHeld, 
                                  sdres, jpanic, sfst, slotSt, qrSent, qrWaker, 
-                                 dnState, parkTok, barGen, myBar, cdone, rwb, 
-                                 rneed, stres, dsl, atomic, strong, ppPending, 
-                                 ppClosed, ppNotify, ppNC, ppBP, ppDepth, 
-                                 ppAlive, ppHeld, inItems, inClosed, inWaker, 
-                                 pollFn, chuteFn, pwTaken, nextPoll, ppItem, 
-                                 pjLive, ppStage, h, dead, sti, smax, rq, sq, 
-                                 sj, ww, rsq, bown, bwk, bi, bcur, bw, bsp, fj, 
-                                 dq, dj, oq, oop, omode, oj, yq, yop, yclaimed, 
-                                 tq, top, af, wf, wop, sf, sctx, xf, cop, kj, 
-                                 pp, pwk, np, nbp, nres, dp, pf, pctx, pq, pj, 
-                                 pd, nq >>
+                                 dnState, susDropped, parkTok, barGen, myBar, 
+                                 cdone, rwb, rneed, stres, dsl, atomic, strong, 
+                                 ppPending, ppClosed, ppNotify, ppNC, ppBP, 
+                                 ppDepth, ppAlive, ppHeld, inItems, inClosed, 
+                                 inWaker, pollFn, chuteFn, pwTaken, nextPoll, 
+                                 ppItem, pjLive, ppStage, h, dead, sti, smax, 
+                                 rq, sq, sj, ww, rsq, bown, bwk, bi, bcur, bw, 
+                                 bsp, fj, dq, dj, oq, oop, omode, oj, yq, yop, 
+                                 yclaimed, tq, top, af, wf, wop, sf, sctx, xf, 
+                                 cop, kj, pp, pwk, np, nbp, nres, dp, pf, pctx, 
+                                 pq, pj, pd, nq >>
 
 sus_signal(self) == /\ pc[self] = "sus_signal"
                     /\ LET w == fwaker[jj[self]] IN
@@ -3611,51 +3645,59 @@ sus_signal(self) == /\ pc[self] = "sus_signal"
                                     gthreads, gwhist, dwSt, dwW, dblTaken, 
                                     dblW1, dblW2, nextDW, ready, cwait, cnotif, 
                                     cvHeld, sdres, jpanic, sfst, slotSt, 
-                                    qrSent, qrWaker, dnState, dnWaker, barGen, 
-                                    myBar, cdone, rv, rwb, rneed, stres, dsl, 
-                                    atomic, strong, ppPending, ppClosed, 
-                                    ppNotify, ppNC, ppBP, ppDepth, ppAlive, 
-                                    ppHeld, inItems, inClosed, inWaker, pollFn, 
-                                    chuteFn, pwTaken, nextPoll, ppItem, pjLive, 
-                                    ppStage, h, dead, sti, smax, rq, sq, sj, 
-                                    rsq, bown, bwk, bi, bcur, bw, bsp, jq, jj, 
-                                    jwk, fj, dq, dj, oq, oop, omode, oj, yq, 
-                                    yop, yclaimed, tq, top, af, wf, wop, sf, 
-                                    sctx, xf, cop, kj, pp, pwk, np, nbp, nres, 
-                                    dp, pf, pctx, pq, pj, pd, nq >>
+                                    qrSent, qrWaker, dnState, susDropped, 
+                                    dnWaker, barGen, myBar, cdone, rv, rwb, 
+                                    rneed, stres, dsl, atomic, strong, 
+                                    ppPending, ppClosed, ppNotify, ppNC, ppBP, 
+                                    ppDepth, ppAlive, ppHeld, inItems, 
+                                    inClosed, inWaker, pollFn, chuteFn, 
+                                    pwTaken, nextPoll, ppItem, pjLive, ppStage, 
+                                    h, dead, sti, smax, rq, sq, sj, rsq, bown, 
+                                    bwk, bi, bcur, bw, bsp, jq, jj, jwk, fj, 
+                                    dq, dj, oq, oop, omode, oj, yq, yop, 
+                                    yclaimed, tq, top, af, wf, wop, sf, sctx, 
+                                    xf, cop, kj, pp, pwk, np, nbp, nres, dp, 
+                                    pf, pctx, pq, pj, pd, nq >>
 
 sus_sigdrop(self) == /\ pc[self] = "sus_sigdrop"
                      /\ jaw' = [jaw EXCEPT ![jj[self]] = 1]
-                     /\ IF OpTab[jj[self]].g \notin gfired
-                           THEN /\ gwaker' = [gwaker EXCEPT ![OpTab[jj[self]].g] = jwk[self]]
-                                /\ rv' = [rv EXCEPT ![self] = 5]
-                                /\ pc' = [pc EXCEPT ![self] = Head(stack[self]).pc]
-                                /\ jq' = [jq EXCEPT ![self] = Head(stack[self]).jq]
-                                /\ jj' = [jj EXCEPT ![self] = Head(stack[self]).jj]
-                                /\ jwk' = [jwk EXCEPT ![self] = Head(stack[self]).jwk]
-                                /\ stack' = [stack EXCEPT ![self] = Tail(stack[self])]
-                           ELSE /\ pc' = [pc EXCEPT ![self] = "sus_inner"]
+                     /\ IF susDropped[jj[self]]
+                           THEN /\ gfired' = (gfired \cup {OpTab[jj[self]].g})
+                                /\ fres' = [fres EXCEPT ![jj[self]] = "taken"]
+                                /\ pc' = [pc EXCEPT ![self] = "sus_inner"]
                                 /\ UNCHANGED << gwaker, rv, stack, jq, jj, jwk >>
+                           ELSE /\ IF OpTab[jj[self]].g \notin gfired
+                                      THEN /\ gwaker' = [gwaker EXCEPT ![OpTab[jj[self]].g] = jwk[self]]
+                                           /\ rv' = [rv EXCEPT ![self] = 5]
+                                           /\ pc' = [pc EXCEPT ![self] = Head(stack[self]).pc]
+                                           /\ jq' = [jq EXCEPT ![self] = Head(stack[self]).jq]
+                                           /\ jj' = [jj EXCEPT ![self] = Head(stack[self]).jj]
+                                           /\ jwk' = [jwk EXCEPT ![self] = Head(stack[self]).jwk]
+                                           /\ stack' = [stack EXCEPT ![self] = Tail(stack[self])]
+                                      ELSE /\ pc' = [pc EXCEPT ![self] = "sus_inner"]
+                                           /\ UNCHANGED << gwaker, rv, stack, 
+                                                           jq, jj, jwk >>
+                                /\ UNCHANGED << fres, gfired >>
                      /\ UNCHANGED << qstate, qpoll, jobs, wakeBlocked, 
                                      schedule, pthreads, nspawned, palive, 
                                      busy, busyLocked, inbox, chanOpen, pfin, 
-                                     thrHeld, maxThreads, jkind, fres, fwaker, 
-                                     gfired, gthreads, gwhist, dwSt, dwW, 
-                                     dblTaken, dblW1, dblW2, nextDW, ready, 
-                                     cwait, cnotif, cvHeld, sdres, jpanic, 
-                                     sfst, slotSt, qrSent, qrWaker, dnState, 
-                                     dnWaker, parkTok, barGen, myBar, cdone, 
-                                     rwb, rneed, stres, dsl, atomic, strong, 
-                                     ppPending, ppClosed, ppNotify, ppNC, ppBP, 
-                                     ppDepth, ppAlive, ppHeld, inItems, 
-                                     inClosed, inWaker, pollFn, chuteFn, 
-                                     pwTaken, nextPoll, ppItem, pjLive, 
-                                     ppStage, h, dead, sti, smax, rq, sq, sj, 
-                                     ww, rsq, bown, bwk, bi, bcur, bw, bsp, fj, 
-                                     dq, dj, oq, oop, omode, oj, yq, yop, 
-                                     yclaimed, tq, top, af, wf, wop, sf, sctx, 
-                                     xf, cop, kj, pp, pwk, np, nbp, nres, dp, 
-                                     pf, pctx, pq, pj, pd, nq >>
+                                     thrHeld, maxThreads, jkind, fwaker, 
+                                     gthreads, gwhist, dwSt, dwW, dblTaken, 
+                                     dblW1, dblW2, nextDW, ready, cwait, 
+                                     cnotif, cvHeld, sdres, jpanic, sfst, 
+                                     slotSt, qrSent, qrWaker, dnState, 
+                                     susDropped, dnWaker, parkTok, barGen, 
+                                     myBar, cdone, rwb, rneed, stres, dsl, 
+                                     atomic, strong, ppPending, ppClosed, 
+                                     ppNotify, ppNC, ppBP, ppDepth, ppAlive, 
+                                     ppHeld, inItems, inClosed, inWaker, 
+                                     pollFn, chuteFn, pwTaken, nextPoll, 
+                                     ppItem, pjLive, ppStage, h, dead, sti, 
+                                     smax, rq, sq, sj, ww, rsq, bown, bwk, bi, 
+                                     bcur, bw, bsp, fj, dq, dj, oq, oop, omode, 
+                                     oj, yq, yop, yclaimed, tq, top, af, wf, 
+                                     wop, sf, sctx, xf, cop, kj, pp, pwk, np, 
+                                     nbp, nres, dp, pf, pctx, pq, pj, pd, nq >>
 
 sus_inner(self) == /\ pc[self] = "sus_inner"
                    /\ TRUE
@@ -3667,19 +3709,19 @@ sus_inner(self) == /\ pc[self] = "sus_inner"
                                    gfired, gwaker, gthreads, gwhist, dwSt, dwW, 
                                    dblTaken, dblW1, dblW2, nextDW, ready, 
                                    cwait, cnotif, cvHeld, sdres, jpanic, sfst, 
-                                   slotSt, qrSent, qrWaker, dnState, dnWaker, 
-                                   parkTok, barGen, myBar, cdone, rv, rwb, 
-                                   rneed, stres, dsl, atomic, strong, 
-                                   ppPending, ppClosed, ppNotify, ppNC, ppBP, 
-                                   ppDepth, ppAlive, ppHeld, inItems, inClosed, 
-                                   inWaker, pollFn, chuteFn, pwTaken, nextPoll, 
-                                   ppItem, pjLive, ppStage, h, stack, dead, 
-                                   sti, smax, rq, sq, sj, ww, rsq, bown, bwk, 
-                                   bi, bcur, bw, bsp, jq, jj, jwk, fj, dq, dj, 
-                                   oq, oop, omode, oj, yq, yop, yclaimed, tq, 
-                                   top, af, wf, wop, sf, sctx, xf, cop, kj, pp, 
-                                   pwk, np, nbp, nres, dp, pf, pctx, pq, pj, 
-                                   pd, nq >>
+                                   slotSt, qrSent, qrWaker, dnState, 
+                                   susDropped, dnWaker, parkTok, barGen, myBar, 
+                                   cdone, rv, rwb, rneed, stres, dsl, atomic, 
+                                   strong, ppPending, ppClosed, ppNotify, ppNC, 
+                                   ppBP, ppDepth, ppAlive, ppHeld, inItems, 
+                                   inClosed, inWaker, pollFn, chuteFn, pwTaken, 
+                                   nextPoll, ppItem, pjLive, ppStage, h, stack, 
+                                   dead, sti, smax, rq, sq, sj, ww, rsq, bown, 
+                                   bwk, bi, bcur, bw, bsp, jq, jj, jwk, fj, dq, 
+                                   dj, oq, oop, omode, oj, yq, yop, yclaimed, 
+                                   tq, top, af, wf, wop, sf, sctx, xf, cop, kj, 
+                                   pp, pwk, np, nbp, nres, dp, pf, pctx, pq, 
+                                   pj, pd, nq >>
 
 sus_innerdrop(self) == /\ pc[self] = "sus_innerdrop"
                        /\ rv' = [rv EXCEPT ![self] = 0]
@@ -3696,9 +3738,9 @@ sus_innerdrop(self) == /\ pc[self] = "sus_innerdrop"
                                        gwhist, dwSt, dwW, dblTaken, dblW1, 
                                        dblW2, nextDW, ready, cwait, cnotif, 
                                        cvHeld, sdres, jpanic, sfst, slotSt, 
-                                       qrSent, qrWaker, dnState, dnWaker, 
-                                       parkTok, barGen, myBar, cdone, rwb, 
-                                       rneed, stres, dsl, atomic, strong, 
+                                       qrSent, qrWaker, dnState, susDropped, 
+                                       dnWaker, parkTok, barGen, myBar, cdone, 
+                                       rwb, rneed, stres, dsl, atomic, strong, 
                                        ppPending, ppClosed, ppNotify, ppNC, 
                                        ppBP, ppDepth, ppAlive, ppHeld, inItems, 
                                        inClosed, inWaker, pollFn, chuteFn, 
@@ -3735,17 +3777,17 @@ ws_take(self) == /\ pc[self] = "ws_take"
                                  gwhist, dwSt, dwW, dblTaken, dblW1, dblW2, 
                                  nextDW, ready, cwait, cnotif, cvHeld, jpanic, 
                                  sfst, slotSt, qrSent, qrWaker, dnState, 
-                                 dnWaker, parkTok, barGen, myBar, cdone, rwb, 
-                                 rneed, stres, dsl, atomic, strong, ppPending, 
-                                 ppClosed, ppNotify, ppNC, ppBP, ppDepth, 
-                                 ppAlive, ppHeld, inItems, inClosed, inWaker, 
-                                 pollFn, chuteFn, pwTaken, nextPoll, ppItem, 
-                                 pjLive, ppStage, h, dead, sti, smax, rq, sq, 
-                                 sj, ww, rsq, bown, bwk, bi, bcur, bw, bsp, fj, 
-                                 dq, dj, oq, oop, omode, oj, yq, yop, yclaimed, 
-                                 tq, top, af, wf, wop, sf, sctx, xf, cop, kj, 
-                                 pp, pwk, np, nbp, nres, dp, pf, pctx, pq, pj, 
-                                 pd, nq >>
+                                 susDropped, dnWaker, parkTok, barGen, myBar, 
+                                 cdone, rwb, rneed, stres, dsl, atomic, strong, 
+                                 ppPending, ppClosed, ppNotify, ppNC, ppBP, 
+                                 ppDepth, ppAlive, ppHeld, inItems, inClosed, 
+                                 inWaker, pollFn, chuteFn, pwTaken, nextPoll, 
+                                 ppItem, pjLive, ppStage, h, dead, sti, smax, 
+                                 rq, sq, sj, ww, rsq, bown, bwk, bi, bcur, bw, 
+                                 bsp, fj, dq, dj, oq, oop, omode, oj, yq, yop, 
+                                 yclaimed, tq, top, af, wf, wop, sf, sctx, xf, 
+                                 cop, kj, pp, pwk, np, nbp, nres, dp, pf, pctx, 
+                                 pq, pj, pd, nq >>
 
 RunJob(self) == z_rj(self) \/ z_rj_ret(self) \/ z_rj_ok(self)
                    \/ z_pp_gc(self) \/ z_slot2(self) \/ sus_signal(self)
@@ -3781,17 +3823,18 @@ fj_lock(self) == /\ pc[self] = "fj_lock"
                                  jkind, jaw, gfired, gwaker, gthreads, gwhist, 
                                  dwSt, dwW, dblTaken, dblW1, dblW2, nextDW, 
                                  cwait, cvHeld, sdres, jpanic, sfst, slotSt, 
-                                 qrSent, qrWaker, dnState, dnWaker, barGen, 
-                                 myBar, cdone, rv, rwb, rneed, stres, dsl, 
-                                 atomic, strong, ppPending, ppClosed, ppNotify, 
-                                 ppNC, ppBP, ppDepth, ppAlive, ppHeld, inItems, 
-                                 inClosed, inWaker, pollFn, chuteFn, pwTaken, 
-                                 nextPoll, ppItem, pjLive, ppStage, h, dead, 
-                                 sti, smax, rq, sq, sj, rsq, bown, bwk, bi, 
-                                 bcur, bw, bsp, jq, jj, jwk, dq, dj, oq, oop, 
-                                 omode, oj, yq, yop, yclaimed, tq, top, af, wf, 
-                                 wop, sf, sctx, xf, cop, kj, pp, pwk, np, nbp, 
-                                 nres, dp, pf, pctx, pq, pj, pd, nq >>
+                                 qrSent, qrWaker, dnState, susDropped, dnWaker, 
+                                 barGen, myBar, cdone, rv, rwb, rneed, stres, 
+                                 dsl, atomic, strong, ppPending, ppClosed, 
+                                 ppNotify, ppNC, ppBP, ppDepth, ppAlive, 
+                                 ppHeld, inItems, inClosed, inWaker, pollFn, 
+                                 chuteFn, pwTaken, nextPoll, ppItem, pjLive, 
+                                 ppStage, h, dead, sti, smax, rq, sq, sj, rsq, 
+                                 bown, bwk, bi, bcur, bw, bsp, jq, jj, jwk, dq, 
+                                 dj, oq, oop, omode, oj, yq, yop, yclaimed, tq, 
+                                 top, af, wf, wop, sf, sctx, xf, cop, kj, pp, 
+                                 pwk, np, nbp, nres, dp, pf, pctx, pq, pj, pd, 
+                                 nq >>
 
 z_fj_chk(self) == /\ pc[self] = "z_fj_chk"
                   /\ IF jpanic[fj[self]] /\ jkind[fj[self]] = "fut"
@@ -3807,17 +3850,18 @@ z_fj_chk(self) == /\ pc[self] = "z_fj_chk"
                                   gthreads, gwhist, dwSt, dwW, dblTaken, dblW1, 
                                   dblW2, nextDW, ready, cwait, cnotif, cvHeld, 
                                   sdres, jpanic, sfst, slotSt, qrSent, qrWaker, 
-                                  dnState, dnWaker, parkTok, barGen, myBar, 
-                                  cdone, rv, rwb, rneed, stres, dsl, atomic, 
-                                  strong, ppPending, ppClosed, ppNotify, ppNC, 
-                                  ppBP, ppDepth, ppAlive, ppHeld, inItems, 
-                                  inClosed, inWaker, pollFn, chuteFn, pwTaken, 
-                                  nextPoll, ppItem, pjLive, ppStage, h, dead, 
-                                  sti, smax, rq, sq, sj, ww, rsq, bown, bwk, 
-                                  bi, bcur, bw, bsp, jq, jj, jwk, dq, dj, oq, 
-                                  oop, omode, oj, yq, yop, yclaimed, tq, top, 
-                                  af, wf, wop, sf, sctx, xf, cop, kj, pp, pwk, 
-                                  np, nbp, nres, dp, pf, pctx, pq, pj, pd, nq >>
+                                  dnState, susDropped, dnWaker, parkTok, 
+                                  barGen, myBar, cdone, rv, rwb, rneed, stres, 
+                                  dsl, atomic, strong, ppPending, ppClosed, 
+                                  ppNotify, ppNC, ppBP, ppDepth, ppAlive, 
+                                  ppHeld, inItems, inClosed, inWaker, pollFn, 
+                                  chuteFn, pwTaken, nextPoll, ppItem, pjLive, 
+                                  ppStage, h, dead, sti, smax, rq, sq, sj, ww, 
+                                  rsq, bown, bwk, bi, bcur, bw, bsp, jq, jj, 
+                                  jwk, dq, dj, oq, oop, omode, oj, yq, yop, 
+                                  yclaimed, tq, top, af, wf, wop, sf, sctx, xf, 
+                                  cop, kj, pp, pwk, np, nbp, nres, dp, pf, 
+                                  pctx, pq, pj, pd, nq >>
 
 fj_sigdrop(self) == /\ pc[self] = "fj_sigdrop"
                     /\ pc' = [pc EXCEPT ![self] = Head(stack[self]).pc]
@@ -3830,19 +3874,19 @@ fj_sigdrop(self) == /\ pc[self] = "fj_sigdrop"
                                     gfired, gwaker, gthreads, gwhist, dwSt, 
                                     dwW, dblTaken, dblW1, dblW2, nextDW, ready, 
                                     cwait, cnotif, cvHeld, sdres, jpanic, sfst, 
-                                    slotSt, qrSent, qrWaker, dnState, dnWaker, 
-                                    parkTok, barGen, myBar, cdone, rv, rwb, 
-                                    rneed, stres, dsl, atomic, strong, 
-                                    ppPending, ppClosed, ppNotify, ppNC, ppBP, 
-                                    ppDepth, ppAlive, ppHeld, inItems, 
-                                    inClosed, inWaker, pollFn, chuteFn, 
-                                    pwTaken, nextPoll, ppItem, pjLive, ppStage, 
-                                    h, dead, sti, smax, rq, sq, sj, ww, rsq, 
-                                    bown, bwk, bi, bcur, bw, bsp, jq, jj, jwk, 
-                                    dq, dj, oq, oop, omode, oj, yq, yop, 
-                                    yclaimed, tq, top, af, wf, wop, sf, sctx, 
-                                    xf, cop, kj, pp, pwk, np, nbp, nres, dp, 
-                                    pf, pctx, pq, pj, pd, nq >>
+                                    slotSt, qrSent, qrWaker, dnState, 
+                                    susDropped, dnWaker, parkTok, barGen, 
+                                    myBar, cdone, rv, rwb, rneed, stres, dsl, 
+                                    atomic, strong, ppPending, ppClosed, 
+                                    ppNotify, ppNC, ppBP, ppDepth, ppAlive, 
+                                    ppHeld, inItems, inClosed, inWaker, pollFn, 
+                                    chuteFn, pwTaken, nextPoll, ppItem, pjLive, 
+                                    ppStage, h, dead, sti, smax, rq, sq, sj, 
+                                    ww, rsq, bown, bwk, bi, bcur, bw, bsp, jq, 
+                                    jj, jwk, dq, dj, oq, oop, omode, oj, yq, 
+                                    yop, yclaimed, tq, top, af, wf, wop, sf, 
+                                    sctx, xf, cop, kj, pp, pwk, np, nbp, nres, 
+                                    dp, pf, pctx, pq, pj, pd, nq >>
 
 FinishJob(self) == fj_lock(self) \/ z_fj_chk(self) \/ fj_sigdrop(self)
 
@@ -3869,17 +3913,17 @@ pd_deq(self) == /\ pc[self] = "pd_deq"
                                 gwhist, dwSt, dwW, dblTaken, dblW1, dblW2, 
                                 nextDW, ready, cwait, cnotif, cvHeld, sdres, 
                                 jpanic, sfst, slotSt, qrSent, qrWaker, dnState, 
-                                dnWaker, parkTok, barGen, myBar, cdone, rv, 
-                                rwb, rneed, stres, dsl, atomic, strong, 
-                                ppPending, ppClosed, ppNotify, ppNC, ppBP, 
-                                ppDepth, ppAlive, ppHeld, inItems, inClosed, 
-                                inWaker, pollFn, chuteFn, pwTaken, nextPoll, 
-                                ppItem, pjLive, ppStage, h, dead, sti, smax, 
-                                rq, sq, sj, ww, rsq, bown, bwk, bi, bcur, bw, 
-                                bsp, fj, dq, oq, oop, omode, oj, yq, yop, 
-                                yclaimed, tq, top, af, wf, wop, sf, sctx, xf, 
-                                cop, kj, pp, pwk, np, nbp, nres, dp, pf, pctx, 
-                                pq, pj, pd, nq >>
+                                susDropped, dnWaker, parkTok, barGen, myBar, 
+                                cdone, rv, rwb, rneed, stres, dsl, atomic, 
+                                strong, ppPending, ppClosed, ppNotify, ppNC, 
+                                ppBP, ppDepth, ppAlive, ppHeld, inItems, 
+                                inClosed, inWaker, pollFn, chuteFn, pwTaken, 
+                                nextPoll, ppItem, pjLive, ppStage, h, dead, 
+                                sti, smax, rq, sq, sj, ww, rsq, bown, bwk, bi, 
+                                bcur, bw, bsp, fj, dq, oq, oop, omode, oj, yq, 
+                                yop, yclaimed, tq, top, af, wf, wop, sf, sctx, 
+                                xf, cop, kj, pp, pwk, np, nbp, nres, dp, pf, 
+                                pctx, pq, pj, pd, nq >>
 
 z_pd_after(self) == /\ pc[self] = "z_pd_after"
                     /\ IF rv[self] = 5
@@ -3911,19 +3955,19 @@ z_pd_after(self) == /\ pc[self] = "z_pd_after"
                                     gfired, gwaker, gthreads, gwhist, dwSt, 
                                     dwW, dblTaken, dblW1, dblW2, nextDW, ready, 
                                     cwait, cnotif, cvHeld, sdres, jpanic, sfst, 
-                                    slotSt, qrSent, qrWaker, dnState, dnWaker, 
-                                    parkTok, barGen, myBar, cdone, rv, rwb, 
-                                    rneed, stres, dsl, atomic, strong, 
-                                    ppPending, ppClosed, ppNotify, ppNC, ppBP, 
-                                    ppDepth, ppAlive, ppHeld, inItems, 
-                                    inClosed, inWaker, pollFn, chuteFn, 
-                                    pwTaken, nextPoll, ppItem, pjLive, ppStage, 
-                                    h, dead, sti, smax, rq, sq, sj, ww, rsq, 
-                                    bown, bwk, bi, bcur, bw, bsp, jq, jj, jwk, 
-                                    dq, dj, oq, oop, omode, oj, yq, yop, 
-                                    yclaimed, tq, top, af, wf, wop, sf, sctx, 
-                                    xf, cop, kj, pp, pwk, np, nbp, nres, dp, 
-                                    pf, pctx, pq, pj, pd, nq >>
+                                    slotSt, qrSent, qrWaker, dnState, 
+                                    susDropped, dnWaker, parkTok, barGen, 
+                                    myBar, cdone, rv, rwb, rneed, stres, dsl, 
+                                    atomic, strong, ppPending, ppClosed, 
+                                    ppNotify, ppNC, ppBP, ppDepth, ppAlive, 
+                                    ppHeld, inItems, inClosed, inWaker, pollFn, 
+                                    chuteFn, pwTaken, nextPoll, ppItem, pjLive, 
+                                    ppStage, h, dead, sti, smax, rq, sq, sj, 
+                                    ww, rsq, bown, bwk, bi, bcur, bw, bsp, jq, 
+                                    jj, jwk, dq, dj, oq, oop, omode, oj, yq, 
+                                    yop, yclaimed, tq, top, af, wf, wop, sf, 
+                                    sctx, xf, cop, kj, pp, pwk, np, nbp, nres, 
+                                    dp, pf, pctx, pq, pj, pd, nq >>
 
 pd_requeue(self) == /\ pc[self] = "pd_requeue"
                     /\ jobs' = [jobs EXCEPT ![dq[self]] = << dj[self] >> \o jobs[dq[self]]]
@@ -3935,19 +3979,19 @@ pd_requeue(self) == /\ pc[self] = "pd_requeue"
                                     gfired, gwaker, gthreads, gwhist, dwSt, 
                                     dwW, dblTaken, dblW1, dblW2, nextDW, ready, 
                                     cwait, cnotif, cvHeld, sdres, jpanic, sfst, 
-                                    slotSt, qrSent, qrWaker, dnState, dnWaker, 
-                                    parkTok, barGen, myBar, cdone, rv, rwb, 
-                                    rneed, stres, dsl, atomic, strong, 
-                                    ppPending, ppClosed, ppNotify, ppNC, ppBP, 
-                                    ppDepth, ppAlive, ppHeld, inItems, 
-                                    inClosed, inWaker, pollFn, chuteFn, 
-                                    pwTaken, nextPoll, ppItem, pjLive, ppStage, 
-                                    h, stack, dead, sti, smax, rq, sq, sj, ww, 
-                                    rsq, bown, bwk, bi, bcur, bw, bsp, jq, jj, 
-                                    jwk, fj, dq, dj, oq, oop, omode, oj, yq, 
-                                    yop, yclaimed, tq, top, af, wf, wop, sf, 
-                                    sctx, xf, cop, kj, pp, pwk, np, nbp, nres, 
-                                    dp, pf, pctx, pq, pj, pd, nq >>
+                                    slotSt, qrSent, qrWaker, dnState, 
+                                    susDropped, dnWaker, parkTok, barGen, 
+                                    myBar, cdone, rv, rwb, rneed, stres, dsl, 
+                                    atomic, strong, ppPending, ppClosed, 
+                                    ppNotify, ppNC, ppBP, ppDepth, ppAlive, 
+                                    ppHeld, inItems, inClosed, inWaker, pollFn, 
+                                    chuteFn, pwTaken, nextPoll, ppItem, pjLive, 
+                                    ppStage, h, stack, dead, sti, smax, rq, sq, 
+                                    sj, ww, rsq, bown, bwk, bi, bcur, bw, bsp, 
+                                    jq, jj, jwk, fj, dq, dj, oq, oop, omode, 
+                                    oj, yq, yop, yclaimed, tq, top, af, wf, 
+                                    wop, sf, sctx, xf, cop, kj, pp, pwk, np, 
+                                    nbp, nres, dp, pf, pctx, pq, pj, pd, nq >>
 
 pd_park(self) == /\ pc[self] = "pd_park"
                  /\ IF qstate[dq[self]] = "Running"
@@ -3970,17 +4014,17 @@ pd_park(self) == /\ pc[self] = "pd_park"
                                  gwhist, dwSt, dwW, dblTaken, dblW1, dblW2, 
                                  nextDW, ready, cwait, cnotif, cvHeld, sdres, 
                                  jpanic, sfst, slotSt, qrSent, qrWaker, 
-                                 dnState, dnWaker, parkTok, barGen, myBar, 
-                                 cdone, rwb, rneed, stres, dsl, atomic, strong, 
-                                 ppPending, ppClosed, ppNotify, ppNC, ppBP, 
-                                 ppDepth, ppAlive, ppHeld, inItems, inClosed, 
-                                 inWaker, pollFn, chuteFn, pwTaken, nextPoll, 
-                                 ppItem, pjLive, ppStage, h, dead, sti, smax, 
-                                 rq, sq, sj, ww, rsq, bown, bwk, bi, bcur, bw, 
-                                 bsp, jq, jj, jwk, fj, oq, oop, omode, oj, yq, 
-                                 yop, yclaimed, tq, top, af, wf, wop, sf, sctx, 
-                                 xf, cop, kj, pp, pwk, np, nbp, nres, dp, pf, 
-                                 pctx, pq, pj, pd, nq >>
+                                 dnState, susDropped, dnWaker, parkTok, barGen, 
+                                 myBar, cdone, rwb, rneed, stres, dsl, atomic, 
+                                 strong, ppPending, ppClosed, ppNotify, ppNC, 
+                                 ppBP, ppDepth, ppAlive, ppHeld, inItems, 
+                                 inClosed, inWaker, pollFn, chuteFn, pwTaken, 
+                                 nextPoll, ppItem, pjLive, ppStage, h, dead, 
+                                 sti, smax, rq, sq, sj, ww, rsq, bown, bwk, bi, 
+                                 bcur, bw, bsp, jq, jj, jwk, fj, oq, oop, 
+                                 omode, oj, yq, yop, yclaimed, tq, top, af, wf, 
+                                 wop, sf, sctx, xf, cop, kj, pp, pwk, np, nbp, 
+                                 nres, dp, pf, pctx, pq, pj, pd, nq >>
 
 pd_end(self) == /\ pc[self] = "pd_end"
                 /\ IF jobs[dq[self]] = << >>
@@ -4009,17 +4053,17 @@ pd_end(self) == /\ pc[self] = "pd_end"
                                 gwhist, dwSt, dwW, dblTaken, dblW1, dblW2, 
                                 nextDW, ready, cwait, cnotif, cvHeld, sdres, 
                                 jpanic, sfst, slotSt, qrSent, qrWaker, dnState, 
-                                dnWaker, parkTok, barGen, myBar, cdone, rwb, 
-                                rneed, stres, dsl, atomic, strong, ppPending, 
-                                ppClosed, ppNotify, ppNC, ppBP, ppDepth, 
-                                ppAlive, ppHeld, inItems, inClosed, inWaker, 
-                                pollFn, chuteFn, pwTaken, nextPoll, ppItem, 
-                                pjLive, ppStage, h, dead, sti, smax, rq, sq, 
-                                sj, ww, rsq, bown, bwk, bi, bcur, bw, bsp, jq, 
-                                jj, jwk, fj, oq, oop, omode, oj, yq, yop, 
-                                yclaimed, tq, top, af, wf, wop, sf, sctx, xf, 
-                                cop, kj, pp, pwk, np, nbp, nres, dp, pf, pctx, 
-                                pq, pj, pd, nq >>
+                                susDropped, dnWaker, parkTok, barGen, myBar, 
+                                cdone, rwb, rneed, stres, dsl, atomic, strong, 
+                                ppPending, ppClosed, ppNotify, ppNC, ppBP, 
+                                ppDepth, ppAlive, ppHeld, inItems, inClosed, 
+                                inWaker, pollFn, chuteFn, pwTaken, nextPoll, 
+                                ppItem, pjLive, ppStage, h, dead, sti, smax, 
+                                rq, sq, sj, ww, rsq, bown, bwk, bi, bcur, bw, 
+                                bsp, jq, jj, jwk, fj, oq, oop, omode, oj, yq, 
+                                yop, yclaimed, tq, top, af, wf, wop, sf, sctx, 
+                                xf, cop, kj, pp, pwk, np, nbp, nres, dp, pf, 
+                                pctx, pq, pj, pd, nq >>
 
 pd_panic(self) == /\ pc[self] = "pd_panic"
                   /\ qstate' = [qstate EXCEPT ![dq[self]] = "Panicked"]
@@ -4035,17 +4079,18 @@ pd_panic(self) == /\ pc[self] = "pd_panic"
                                   gwhist, dwSt, dwW, dblTaken, dblW1, dblW2, 
                                   nextDW, ready, cwait, cnotif, cvHeld, sdres, 
                                   jpanic, sfst, slotSt, qrSent, qrWaker, 
-                                  dnState, dnWaker, parkTok, barGen, myBar, 
-                                  cdone, rwb, rneed, stres, dsl, atomic, 
-                                  strong, ppPending, ppClosed, ppNotify, ppNC, 
-                                  ppBP, ppDepth, ppAlive, ppHeld, inItems, 
-                                  inClosed, inWaker, pollFn, chuteFn, pwTaken, 
-                                  nextPoll, ppItem, pjLive, ppStage, h, dead, 
-                                  sti, smax, rq, sq, sj, ww, rsq, bown, bwk, 
-                                  bi, bcur, bw, bsp, jq, jj, jwk, fj, oq, oop, 
-                                  omode, oj, yq, yop, yclaimed, tq, top, af, 
-                                  wf, wop, sf, sctx, xf, cop, kj, pp, pwk, np, 
-                                  nbp, nres, dp, pf, pctx, pq, pj, pd, nq >>
+                                  dnState, susDropped, dnWaker, parkTok, 
+                                  barGen, myBar, cdone, rwb, rneed, stres, dsl, 
+                                  atomic, strong, ppPending, ppClosed, 
+                                  ppNotify, ppNC, ppBP, ppDepth, ppAlive, 
+                                  ppHeld, inItems, inClosed, inWaker, pollFn, 
+                                  chuteFn, pwTaken, nextPoll, ppItem, pjLive, 
+                                  ppStage, h, dead, sti, smax, rq, sq, sj, ww, 
+                                  rsq, bown, bwk, bi, bcur, bw, bsp, jq, jj, 
+                                  jwk, fj, oq, oop, omode, oj, yq, yop, 
+                                  yclaimed, tq, top, af, wf, wop, sf, sctx, xf, 
+                                  cop, kj, pp, pwk, np, nbp, nres, dp, pf, 
+                                  pctx, pq, pj, pd, nq >>
 
 PoolDrain(self) == pd_deq(self) \/ z_pd_after(self) \/ pd_requeue(self)
                       \/ pd_park(self) \/ pd_end(self) \/ pd_panic(self)
@@ -4084,16 +4129,16 @@ ro_deq(self) == /\ pc[self] = "ro_deq"
                                 gwhist, dwSt, dwW, dblTaken, dblW1, dblW2, 
                                 nextDW, ready, cwait, cnotif, cvHeld, sdres, 
                                 jpanic, sfst, slotSt, qrSent, qrWaker, dnState, 
-                                dnWaker, parkTok, barGen, myBar, cdone, rwb, 
-                                rneed, stres, dsl, atomic, strong, ppPending, 
-                                ppClosed, ppNotify, ppNC, ppBP, ppDepth, 
-                                ppAlive, ppHeld, inItems, inClosed, inWaker, 
-                                pollFn, chuteFn, pwTaken, nextPoll, ppItem, 
-                                pjLive, ppStage, h, dead, sti, smax, rq, sq, 
-                                sj, ww, rsq, bown, bwk, bi, bcur, bw, bsp, fj, 
-                                dq, dj, yq, yop, yclaimed, tq, top, af, wf, 
-                                wop, sf, sctx, xf, cop, kj, pp, pwk, np, nbp, 
-                                nres, dp, pf, pctx, pq, pj, pd, nq >>
+                                susDropped, dnWaker, parkTok, barGen, myBar, 
+                                cdone, rwb, rneed, stres, dsl, atomic, strong, 
+                                ppPending, ppClosed, ppNotify, ppNC, ppBP, 
+                                ppDepth, ppAlive, ppHeld, inItems, inClosed, 
+                                inWaker, pollFn, chuteFn, pwTaken, nextPoll, 
+                                ppItem, pjLive, ppStage, h, dead, sti, smax, 
+                                rq, sq, sj, ww, rsq, bown, bwk, bi, bcur, bw, 
+                                bsp, fj, dq, dj, yq, yop, yclaimed, tq, top, 
+                                af, wf, wop, sf, sctx, xf, cop, kj, pp, pwk, 
+                                np, nbp, nres, dp, pf, pctx, pq, pj, pd, nq >>
 
 z_ro_after(self) == /\ pc[self] = "z_ro_after"
                     /\ IF rv[self] = 5
@@ -4125,19 +4170,19 @@ z_ro_after(self) == /\ pc[self] = "z_ro_after"
                                     gfired, gwaker, gthreads, gwhist, dwSt, 
                                     dwW, dblTaken, dblW1, dblW2, nextDW, ready, 
                                     cwait, cnotif, cvHeld, sdres, jpanic, sfst, 
-                                    slotSt, qrSent, qrWaker, dnState, dnWaker, 
-                                    parkTok, barGen, myBar, cdone, rv, rwb, 
-                                    rneed, stres, dsl, atomic, strong, 
-                                    ppPending, ppClosed, ppNotify, ppNC, ppBP, 
-                                    ppDepth, ppAlive, ppHeld, inItems, 
-                                    inClosed, inWaker, pollFn, chuteFn, 
-                                    pwTaken, nextPoll, ppItem, pjLive, ppStage, 
-                                    h, dead, sti, smax, rq, sq, sj, ww, rsq, 
-                                    bown, bwk, bi, bcur, bw, bsp, jq, jj, jwk, 
-                                    dq, dj, oq, oop, omode, oj, yq, yop, 
-                                    yclaimed, tq, top, af, wf, wop, sf, sctx, 
-                                    xf, cop, kj, pp, pwk, np, nbp, nres, dp, 
-                                    pf, pctx, pq, pj, pd, nq >>
+                                    slotSt, qrSent, qrWaker, dnState, 
+                                    susDropped, dnWaker, parkTok, barGen, 
+                                    myBar, cdone, rv, rwb, rneed, stres, dsl, 
+                                    atomic, strong, ppPending, ppClosed, 
+                                    ppNotify, ppNC, ppBP, ppDepth, ppAlive, 
+                                    ppHeld, inItems, inClosed, inWaker, pollFn, 
+                                    chuteFn, pwTaken, nextPoll, ppItem, pjLive, 
+                                    ppStage, h, dead, sti, smax, rq, sq, sj, 
+                                    ww, rsq, bown, bwk, bi, bcur, bw, bsp, jq, 
+                                    jj, jwk, dq, dj, oq, oop, omode, oj, yq, 
+                                    yop, yclaimed, tq, top, af, wf, wop, sf, 
+                                    sctx, xf, cop, kj, pp, pwk, np, nbp, nres, 
+                                    dp, pf, pctx, pq, pj, pd, nq >>
 
 z_ro_done(self) == /\ pc[self] = "z_ro_done"
                    /\ IF omode[self] = "sd" /\ ~sdres[oop[self]]
@@ -4157,18 +4202,18 @@ z_ro_done(self) == /\ pc[self] = "z_ro_done"
                                    gfired, gwaker, gthreads, gwhist, dwSt, dwW, 
                                    dblTaken, dblW1, dblW2, nextDW, ready, 
                                    cwait, cnotif, cvHeld, sdres, jpanic, sfst, 
-                                   slotSt, qrSent, qrWaker, dnState, dnWaker, 
-                                   parkTok, barGen, myBar, cdone, rwb, rneed, 
-                                   stres, dsl, atomic, strong, ppPending, 
-                                   ppClosed, ppNotify, ppNC, ppBP, ppDepth, 
-                                   ppAlive, ppHeld, inItems, inClosed, inWaker, 
-                                   pollFn, chuteFn, pwTaken, nextPoll, ppItem, 
-                                   pjLive, ppStage, h, dead, sti, smax, rq, sq, 
-                                   sj, ww, rsq, bown, bwk, bi, bcur, bw, bsp, 
-                                   jq, jj, jwk, fj, dq, dj, yq, yop, yclaimed, 
-                                   tq, top, af, wf, wop, sf, sctx, xf, cop, kj, 
-                                   pp, pwk, np, nbp, nres, dp, pf, pctx, pq, 
-                                   pj, pd, nq >>
+                                   slotSt, qrSent, qrWaker, dnState, 
+                                   susDropped, dnWaker, parkTok, barGen, myBar, 
+                                   cdone, rwb, rneed, stres, dsl, atomic, 
+                                   strong, ppPending, ppClosed, ppNotify, ppNC, 
+                                   ppBP, ppDepth, ppAlive, ppHeld, inItems, 
+                                   inClosed, inWaker, pollFn, chuteFn, pwTaken, 
+                                   nextPoll, ppItem, pjLive, ppStage, h, dead, 
+                                   sti, smax, rq, sq, sj, ww, rsq, bown, bwk, 
+                                   bi, bcur, bw, bsp, jq, jj, jwk, fj, dq, dj, 
+                                   yq, yop, yclaimed, tq, top, af, wf, wop, sf, 
+                                   sctx, xf, cop, kj, pp, pwk, np, nbp, nres, 
+                                   dp, pf, pctx, pq, pj, pd, nq >>
 
 z_ro_panic(self) == /\ pc[self] = "z_ro_panic"
                     /\ rv' = [rv EXCEPT ![self] = 9]
@@ -4185,18 +4230,19 @@ z_ro_panic(self) == /\ pc[self] = "z_ro_panic"
                                     gfired, gwaker, gthreads, gwhist, dwSt, 
                                     dwW, dblTaken, dblW1, dblW2, nextDW, ready, 
                                     cwait, cnotif, cvHeld, sdres, jpanic, sfst, 
-                                    slotSt, qrSent, qrWaker, dnState, dnWaker, 
-                                    parkTok, barGen, myBar, cdone, rwb, rneed, 
-                                    stres, dsl, atomic, strong, ppPending, 
-                                    ppClosed, ppNotify, ppNC, ppBP, ppDepth, 
-                                    ppAlive, ppHeld, inItems, inClosed, 
-                                    inWaker, pollFn, chuteFn, pwTaken, 
-                                    nextPoll, ppItem, pjLive, ppStage, h, dead, 
-                                    sti, smax, rq, sq, sj, ww, rsq, bown, bwk, 
-                                    bi, bcur, bw, bsp, jq, jj, jwk, fj, dq, dj, 
-                                    yq, yop, yclaimed, tq, top, af, wf, wop, 
-                                    sf, sctx, xf, cop, kj, pp, pwk, np, nbp, 
-                                    nres, dp, pf, pctx, pq, pj, pd, nq >>
+                                    slotSt, qrSent, qrWaker, dnState, 
+                                    susDropped, dnWaker, parkTok, barGen, 
+                                    myBar, cdone, rwb, rneed, stres, dsl, 
+                                    atomic, strong, ppPending, ppClosed, 
+                                    ppNotify, ppNC, ppBP, ppDepth, ppAlive, 
+                                    ppHeld, inItems, inClosed, inWaker, pollFn, 
+                                    chuteFn, pwTaken, nextPoll, ppItem, pjLive, 
+                                    ppStage, h, dead, sti, smax, rq, sq, sj, 
+                                    ww, rsq, bown, bwk, bi, bcur, bw, bsp, jq, 
+                                    jj, jwk, fj, dq, dj, yq, yop, yclaimed, tq, 
+                                    top, af, wf, wop, sf, sctx, xf, cop, kj, 
+                                    pp, pwk, np, nbp, nres, dp, pf, pctx, pq, 
+                                    pj, pd, nq >>
 
 ro_park(self) == /\ pc[self] = "ro_park"
                  /\ IF qstate[oq[self]] = "AwokenWhileRunning"
@@ -4212,7 +4258,7 @@ ro_park(self) == /\ pc[self] = "ro_park"
                                                                     \o stack[self]]
                             /\ pc' = [pc EXCEPT ![self] = "z_rj"]
                        ELSE /\ Assert(qstate[oq[self]] = "Running", 
-                                      "Failure of assertion at line 613, column 5.")
+                                      "Failure of assertion at line 615, column 5.")
                             /\ qstate' = [qstate EXCEPT ![oq[self]] = "WaitingForUnpark"]
                             /\ pc' = [pc EXCEPT ![self] = "ro_check"]
                             /\ UNCHANGED << stack, jq, jj, jwk >>
@@ -4223,10 +4269,10 @@ ro_park(self) == /\ pc[self] = "ro_park"
                                  gwhist, dwSt, dwW, dblTaken, dblW1, dblW2, 
                                  nextDW, ready, cwait, cnotif, cvHeld, sdres, 
                                  jpanic, sfst, slotSt, qrSent, qrWaker, 
-                                 dnState, dnWaker, parkTok, barGen, myBar, 
-                                 cdone, rv, rwb, rneed, stres, dsl, atomic, 
-                                 strong, ppPending, ppClosed, ppNotify, ppNC, 
-                                 ppBP, ppDepth, ppAlive, ppHeld, inItems, 
+                                 dnState, susDropped, dnWaker, parkTok, barGen, 
+                                 myBar, cdone, rv, rwb, rneed, stres, dsl, 
+                                 atomic, strong, ppPending, ppClosed, ppNotify, 
+                                 ppNC, ppBP, ppDepth, ppAlive, ppHeld, inItems, 
                                  inClosed, inWaker, pollFn, chuteFn, pwTaken, 
                                  nextPoll, ppItem, pjLive, ppStage, h, dead, 
                                  sti, smax, rq, sq, sj, ww, rsq, bown, bwk, bi, 
@@ -4248,7 +4294,7 @@ ro_check(self) == /\ pc[self] = "ro_check"
                                                                      \o stack[self]]
                              /\ pc' = [pc EXCEPT ![self] = "z_rj"]
                         ELSE /\ Assert(qstate[oq[self]] = "WaitingForUnpark", 
-                                       "Failure of assertion at line 620, column 12.")
+                                       "Failure of assertion at line 622, column 12.")
                              /\ pc' = [pc EXCEPT ![self] = "ro_parked"]
                              /\ UNCHANGED << stack, jq, jj, jwk >>
                   /\ UNCHANGED << qstate, qpoll, jobs, wakeBlocked, schedule, 
@@ -4258,17 +4304,18 @@ ro_check(self) == /\ pc[self] = "ro_check"
                                   gthreads, gwhist, dwSt, dwW, dblTaken, dblW1, 
                                   dblW2, nextDW, ready, cwait, cnotif, cvHeld, 
                                   sdres, jpanic, sfst, slotSt, qrSent, qrWaker, 
-                                  dnState, dnWaker, parkTok, barGen, myBar, 
-                                  cdone, rv, rwb, rneed, stres, dsl, atomic, 
-                                  strong, ppPending, ppClosed, ppNotify, ppNC, 
-                                  ppBP, ppDepth, ppAlive, ppHeld, inItems, 
-                                  inClosed, inWaker, pollFn, chuteFn, pwTaken, 
-                                  nextPoll, ppItem, pjLive, ppStage, h, dead, 
-                                  sti, smax, rq, sq, sj, ww, rsq, bown, bwk, 
-                                  bi, bcur, bw, bsp, fj, dq, dj, oq, oop, 
-                                  omode, oj, yq, yop, yclaimed, tq, top, af, 
-                                  wf, wop, sf, sctx, xf, cop, kj, pp, pwk, np, 
-                                  nbp, nres, dp, pf, pctx, pq, pj, pd, nq >>
+                                  dnState, susDropped, dnWaker, parkTok, 
+                                  barGen, myBar, cdone, rv, rwb, rneed, stres, 
+                                  dsl, atomic, strong, ppPending, ppClosed, 
+                                  ppNotify, ppNC, ppBP, ppDepth, ppAlive, 
+                                  ppHeld, inItems, inClosed, inWaker, pollFn, 
+                                  chuteFn, pwTaken, nextPoll, ppItem, pjLive, 
+                                  ppStage, h, dead, sti, smax, rq, sq, sj, ww, 
+                                  rsq, bown, bwk, bi, bcur, bw, bsp, fj, dq, 
+                                  dj, oq, oop, omode, oj, yq, yop, yclaimed, 
+                                  tq, top, af, wf, wop, sf, sctx, xf, cop, kj, 
+                                  pp, pwk, np, nbp, nres, dp, pf, pctx, pq, pj, 
+                                  pd, nq >>
 
 ro_parked(self) == /\ pc[self] = "ro_parked"
                    /\ parkTok[self]
@@ -4282,18 +4329,18 @@ ro_parked(self) == /\ pc[self] = "ro_parked"
                                    gfired, gwaker, gthreads, gwhist, dwSt, dwW, 
                                    dblTaken, dblW1, dblW2, nextDW, ready, 
                                    cwait, cnotif, cvHeld, sdres, jpanic, sfst, 
-                                   slotSt, qrSent, qrWaker, dnState, dnWaker, 
-                                   barGen, myBar, cdone, rv, rwb, rneed, stres, 
-                                   dsl, atomic, strong, ppPending, ppClosed, 
-                                   ppNotify, ppNC, ppBP, ppDepth, ppAlive, 
-                                   ppHeld, inItems, inClosed, inWaker, pollFn, 
-                                   chuteFn, pwTaken, nextPoll, ppItem, pjLive, 
-                                   ppStage, stack, dead, sti, smax, rq, sq, sj, 
-                                   ww, rsq, bown, bwk, bi, bcur, bw, bsp, jq, 
-                                   jj, jwk, fj, dq, dj, oq, oop, omode, oj, yq, 
-                                   yop, yclaimed, tq, top, af, wf, wop, sf, 
-                                   sctx, xf, cop, kj, pp, pwk, np, nbp, nres, 
-                                   dp, pf, pctx, pq, pj, pd, nq >>
+                                   slotSt, qrSent, qrWaker, dnState, 
+                                   susDropped, dnWaker, barGen, myBar, cdone, 
+                                   rv, rwb, rneed, stres, dsl, atomic, strong, 
+                                   ppPending, ppClosed, ppNotify, ppNC, ppBP, 
+                                   ppDepth, ppAlive, ppHeld, inItems, inClosed, 
+                                   inWaker, pollFn, chuteFn, pwTaken, nextPoll, 
+                                   ppItem, pjLive, ppStage, stack, dead, sti, 
+                                   smax, rq, sq, sj, ww, rsq, bown, bwk, bi, 
+                                   bcur, bw, bsp, jq, jj, jwk, fj, dq, dj, oq, 
+                                   oop, omode, oj, yq, yop, yclaimed, tq, top, 
+                                   af, wf, wop, sf, sctx, xf, cop, kj, pp, pwk, 
+                                   np, nbp, nres, dp, pf, pctx, pq, pj, pd, nq >>
 
 RunOne(self) == ro_deq(self) \/ z_ro_after(self) \/ z_ro_done(self)
                    \/ z_ro_panic(self) \/ ro_park(self) \/ ro_check(self)
@@ -4346,17 +4393,18 @@ sy_decide(self) == /\ pc[self] = "sy_decide"
                                    gwaker, gthreads, gwhist, dwSt, dwW, 
                                    dblTaken, dblW1, dblW2, nextDW, ready, 
                                    cwait, cnotif, cvHeld, sdres, jpanic, sfst, 
-                                   slotSt, qrSent, qrWaker, dnState, dnWaker, 
-                                   parkTok, barGen, myBar, cdone, rwb, rneed, 
-                                   stres, dsl, atomic, strong, ppPending, 
-                                   ppClosed, ppNotify, ppNC, ppBP, ppDepth, 
-                                   ppAlive, ppHeld, inItems, inClosed, inWaker, 
-                                   pollFn, chuteFn, pwTaken, nextPoll, ppItem, 
-                                   pjLive, ppStage, h, dead, sti, smax, rq, sq, 
-                                   sj, ww, rsq, bown, bwk, bi, bcur, bw, bsp, 
-                                   fj, dq, dj, oq, oop, omode, oj, tq, top, af, 
-                                   wf, wop, sf, sctx, xf, cop, kj, pp, pwk, np, 
-                                   nbp, nres, dp, pf, pctx, pq, pj, pd, nq >>
+                                   slotSt, qrSent, qrWaker, dnState, 
+                                   susDropped, dnWaker, parkTok, barGen, myBar, 
+                                   cdone, rwb, rneed, stres, dsl, atomic, 
+                                   strong, ppPending, ppClosed, ppNotify, ppNC, 
+                                   ppBP, ppDepth, ppAlive, ppHeld, inItems, 
+                                   inClosed, inWaker, pollFn, chuteFn, pwTaken, 
+                                   nextPoll, ppItem, pjLive, ppStage, h, dead, 
+                                   sti, smax, rq, sq, sj, ww, rsq, bown, bwk, 
+                                   bi, bcur, bw, bsp, fj, dq, dj, oq, oop, 
+                                   omode, oj, tq, top, af, wf, wop, sf, sctx, 
+                                   xf, cop, kj, pp, pwk, np, nbp, nres, dp, pf, 
+                                   pctx, pq, pj, pd, nq >>
 
 z_si_chk(self) == /\ pc[self] = "z_si_chk"
                   /\ IF rv[self] = 9
@@ -4369,18 +4417,18 @@ z_si_chk(self) == /\ pc[self] = "z_si_chk"
                                   gthreads, gwhist, dwSt, dwW, dblTaken, dblW1, 
                                   dblW2, nextDW, ready, cwait, cnotif, cvHeld, 
                                   sdres, jpanic, sfst, slotSt, qrSent, qrWaker, 
-                                  dnState, dnWaker, parkTok, barGen, myBar, 
-                                  cdone, rv, rwb, rneed, stres, dsl, atomic, 
-                                  strong, ppPending, ppClosed, ppNotify, ppNC, 
-                                  ppBP, ppDepth, ppAlive, ppHeld, inItems, 
-                                  inClosed, inWaker, pollFn, chuteFn, pwTaken, 
-                                  nextPoll, ppItem, pjLive, ppStage, h, stack, 
-                                  dead, sti, smax, rq, sq, sj, ww, rsq, bown, 
-                                  bwk, bi, bcur, bw, bsp, jq, jj, jwk, fj, dq, 
-                                  dj, oq, oop, omode, oj, yq, yop, yclaimed, 
-                                  tq, top, af, wf, wop, sf, sctx, xf, cop, kj, 
-                                  pp, pwk, np, nbp, nres, dp, pf, pctx, pq, pj, 
-                                  pd, nq >>
+                                  dnState, susDropped, dnWaker, parkTok, 
+                                  barGen, myBar, cdone, rv, rwb, rneed, stres, 
+                                  dsl, atomic, strong, ppPending, ppClosed, 
+                                  ppNotify, ppNC, ppBP, ppDepth, ppAlive, 
+                                  ppHeld, inItems, inClosed, inWaker, pollFn, 
+                                  chuteFn, pwTaken, nextPoll, ppItem, pjLive, 
+                                  ppStage, h, stack, dead, sti, smax, rq, sq, 
+                                  sj, ww, rsq, bown, bwk, bi, bcur, bw, bsp, 
+                                  jq, jj, jwk, fj, dq, dj, oq, oop, omode, oj, 
+                                  yq, yop, yclaimed, tq, top, af, wf, wop, sf, 
+                                  sctx, xf, cop, kj, pp, pwk, np, nbp, nres, 
+                                  dp, pf, pctx, pq, pj, pd, nq >>
 
 si_idle(self) == /\ pc[self] = "si_idle"
                  /\ qstate' = [qstate EXCEPT ![yq[self]] = "Idle"]
@@ -4397,10 +4445,10 @@ si_idle(self) == /\ pc[self] = "si_idle"
                                  gwhist, dwSt, dwW, dblTaken, dblW1, dblW2, 
                                  nextDW, ready, cwait, cnotif, cvHeld, sdres, 
                                  jpanic, sfst, slotSt, qrSent, qrWaker, 
-                                 dnState, dnWaker, parkTok, barGen, myBar, 
-                                 cdone, rv, rwb, rneed, stres, dsl, atomic, 
-                                 strong, ppPending, ppClosed, ppNotify, ppNC, 
-                                 ppBP, ppDepth, ppAlive, ppHeld, inItems, 
+                                 dnState, susDropped, dnWaker, parkTok, barGen, 
+                                 myBar, cdone, rv, rwb, rneed, stres, dsl, 
+                                 atomic, strong, ppPending, ppClosed, ppNotify, 
+                                 ppNC, ppBP, ppDepth, ppAlive, ppHeld, inItems, 
                                  inClosed, inWaker, pollFn, chuteFn, pwTaken, 
                                  nextPoll, ppItem, pjLive, ppStage, h, dead, 
                                  sti, smax, sq, sj, ww, rsq, bown, bwk, bi, 
@@ -4426,17 +4474,17 @@ z_si_ret(self) == /\ pc[self] = "z_si_ret"
                                   gthreads, gwhist, dwSt, dwW, dblTaken, dblW1, 
                                   dblW2, nextDW, ready, cwait, cnotif, cvHeld, 
                                   sdres, jpanic, sfst, slotSt, qrSent, qrWaker, 
-                                  dnState, dnWaker, parkTok, barGen, myBar, 
-                                  cdone, rwb, rneed, stres, dsl, atomic, 
-                                  strong, ppPending, ppClosed, ppNotify, ppNC, 
-                                  ppBP, ppDepth, ppAlive, ppHeld, inItems, 
-                                  inClosed, inWaker, pollFn, chuteFn, pwTaken, 
-                                  nextPoll, ppItem, pjLive, ppStage, h, dead, 
-                                  sti, smax, rq, sq, sj, ww, rsq, bown, bwk, 
-                                  bi, bcur, bw, bsp, jq, jj, jwk, fj, dq, dj, 
-                                  oq, oop, omode, oj, tq, top, af, wf, wop, sf, 
-                                  sctx, xf, cop, kj, pp, pwk, np, nbp, nres, 
-                                  dp, pf, pctx, pq, pj, pd, nq >>
+                                  dnState, susDropped, dnWaker, parkTok, 
+                                  barGen, myBar, cdone, rwb, rneed, stres, dsl, 
+                                  atomic, strong, ppPending, ppClosed, 
+                                  ppNotify, ppNC, ppBP, ppDepth, ppAlive, 
+                                  ppHeld, inItems, inClosed, inWaker, pollFn, 
+                                  chuteFn, pwTaken, nextPoll, ppItem, pjLive, 
+                                  ppStage, h, dead, sti, smax, rq, sq, sj, ww, 
+                                  rsq, bown, bwk, bi, bcur, bw, bsp, jq, jj, 
+                                  jwk, fj, dq, dj, oq, oop, omode, oj, tq, top, 
+                                  af, wf, wop, sf, sctx, xf, cop, kj, pp, pwk, 
+                                  np, nbp, nres, dp, pf, pctx, pq, pj, pd, nq >>
 
 sy_unw(self) == /\ pc[self] = "sy_unw"
                 /\ qstate' = [qstate EXCEPT ![yq[self]] = "Panicked"]
@@ -4453,17 +4501,17 @@ sy_unw(self) == /\ pc[self] = "sy_unw"
                                 gwhist, dwSt, dwW, dblTaken, dblW1, dblW2, 
                                 nextDW, ready, cwait, cnotif, cvHeld, sdres, 
                                 jpanic, sfst, slotSt, qrSent, qrWaker, dnState, 
-                                dnWaker, parkTok, barGen, myBar, cdone, rwb, 
-                                rneed, stres, dsl, atomic, strong, ppPending, 
-                                ppClosed, ppNotify, ppNC, ppBP, ppDepth, 
-                                ppAlive, ppHeld, inItems, inClosed, inWaker, 
-                                pollFn, chuteFn, pwTaken, nextPoll, ppItem, 
-                                pjLive, ppStage, h, dead, sti, smax, rq, sq, 
-                                sj, ww, rsq, bown, bwk, bi, bcur, bw, bsp, jq, 
-                                jj, jwk, fj, dq, dj, oq, oop, omode, oj, tq, 
-                                top, af, wf, wop, sf, sctx, xf, cop, kj, pp, 
-                                pwk, np, nbp, nres, dp, pf, pctx, pq, pj, pd, 
-                                nq >>
+                                susDropped, dnWaker, parkTok, barGen, myBar, 
+                                cdone, rwb, rneed, stres, dsl, atomic, strong, 
+                                ppPending, ppClosed, ppNotify, ppNC, ppBP, 
+                                ppDepth, ppAlive, ppHeld, inItems, inClosed, 
+                                inWaker, pollFn, chuteFn, pwTaken, nextPoll, 
+                                ppItem, pjLive, ppStage, h, dead, sti, smax, 
+                                rq, sq, sj, ww, rsq, bown, bwk, bi, bcur, bw, 
+                                bsp, jq, jj, jwk, fj, dq, dj, oq, oop, omode, 
+                                oj, tq, top, af, wf, wop, sf, sctx, xf, cop, 
+                                kj, pp, pwk, np, nbp, nres, dp, pf, pctx, pq, 
+                                pj, pd, nq >>
 
 sd_push(self) == /\ pc[self] = "sd_push"
                  /\ jkind' = [jkind EXCEPT ![yop[self]] = "syncdrain"]
@@ -4487,10 +4535,10 @@ sd_push(self) == /\ pc[self] = "sd_push"
                                  gwhist, dwSt, dwW, dblTaken, dblW1, dblW2, 
                                  nextDW, ready, cwait, cnotif, cvHeld, sdres, 
                                  jpanic, sfst, slotSt, qrSent, qrWaker, 
-                                 dnState, dnWaker, parkTok, barGen, myBar, 
-                                 cdone, rv, rwb, rneed, stres, dsl, atomic, 
-                                 strong, ppPending, ppClosed, ppNotify, ppNC, 
-                                 ppBP, ppDepth, ppAlive, ppHeld, inItems, 
+                                 dnState, susDropped, dnWaker, parkTok, barGen, 
+                                 myBar, cdone, rv, rwb, rneed, stres, dsl, 
+                                 atomic, strong, ppPending, ppClosed, ppNotify, 
+                                 ppNC, ppBP, ppDepth, ppAlive, ppHeld, inItems, 
                                  inClosed, inWaker, pollFn, chuteFn, pwTaken, 
                                  nextPoll, ppItem, pjLive, ppStage, h, dead, 
                                  sti, smax, rq, sq, sj, ww, rsq, bown, bwk, bi, 
@@ -4510,18 +4558,18 @@ z_sd_chk(self) == /\ pc[self] = "z_sd_chk"
                                   gthreads, gwhist, dwSt, dwW, dblTaken, dblW1, 
                                   dblW2, nextDW, ready, cwait, cnotif, cvHeld, 
                                   sdres, jpanic, sfst, slotSt, qrSent, qrWaker, 
-                                  dnState, dnWaker, parkTok, barGen, myBar, 
-                                  cdone, rv, rwb, rneed, stres, dsl, atomic, 
-                                  strong, ppPending, ppClosed, ppNotify, ppNC, 
-                                  ppBP, ppDepth, ppAlive, ppHeld, inItems, 
-                                  inClosed, inWaker, pollFn, chuteFn, pwTaken, 
-                                  nextPoll, ppItem, pjLive, ppStage, h, stack, 
-                                  dead, sti, smax, rq, sq, sj, ww, rsq, bown, 
-                                  bwk, bi, bcur, bw, bsp, jq, jj, jwk, fj, dq, 
-                                  dj, oq, oop, omode, oj, yq, yop, yclaimed, 
-                                  tq, top, af, wf, wop, sf, sctx, xf, cop, kj, 
-                                  pp, pwk, np, nbp, nres, dp, pf, pctx, pq, pj, 
-                                  pd, nq >>
+                                  dnState, susDropped, dnWaker, parkTok, 
+                                  barGen, myBar, cdone, rv, rwb, rneed, stres, 
+                                  dsl, atomic, strong, ppPending, ppClosed, 
+                                  ppNotify, ppNC, ppBP, ppDepth, ppAlive, 
+                                  ppHeld, inItems, inClosed, inWaker, pollFn, 
+                                  chuteFn, pwTaken, nextPoll, ppItem, pjLive, 
+                                  ppStage, h, stack, dead, sti, smax, rq, sq, 
+                                  sj, ww, rsq, bown, bwk, bi, bcur, bw, bsp, 
+                                  jq, jj, jwk, fj, dq, dj, oq, oop, omode, oj, 
+                                  yq, yop, yclaimed, tq, top, af, wf, wop, sf, 
+                                  sctx, xf, cop, kj, pp, pwk, np, nbp, nres, 
+                                  dp, pf, pctx, pq, pj, pd, nq >>
 
 sd_idle(self) == /\ pc[self] = "sd_idle"
                  /\ qstate' = [qstate EXCEPT ![yq[self]] = "Idle"]
@@ -4538,10 +4586,10 @@ sd_idle(self) == /\ pc[self] = "sd_idle"
                                  gwhist, dwSt, dwW, dblTaken, dblW1, dblW2, 
                                  nextDW, ready, cwait, cnotif, cvHeld, sdres, 
                                  jpanic, sfst, slotSt, qrSent, qrWaker, 
-                                 dnState, dnWaker, parkTok, barGen, myBar, 
-                                 cdone, rv, rwb, rneed, stres, dsl, atomic, 
-                                 strong, ppPending, ppClosed, ppNotify, ppNC, 
-                                 ppBP, ppDepth, ppAlive, ppHeld, inItems, 
+                                 dnState, susDropped, dnWaker, parkTok, barGen, 
+                                 myBar, cdone, rv, rwb, rneed, stres, dsl, 
+                                 atomic, strong, ppPending, ppClosed, ppNotify, 
+                                 ppNC, ppBP, ppDepth, ppAlive, ppHeld, inItems, 
                                  inClosed, inWaker, pollFn, chuteFn, pwTaken, 
                                  nextPoll, ppItem, pjLive, ppStage, h, dead, 
                                  sti, smax, sq, sj, ww, rsq, bown, bwk, bi, 
@@ -4561,17 +4609,18 @@ sb_reg(self) == /\ pc[self] = "sb_reg"
                                 gwhist, dwSt, dwW, dblTaken, dblW1, dblW2, 
                                 nextDW, ready, cwait, cnotif, sdres, jpanic, 
                                 sfst, slotSt, qrSent, qrWaker, dnState, 
-                                dnWaker, parkTok, barGen, myBar, cdone, rv, 
-                                rwb, rneed, stres, dsl, atomic, strong, 
-                                ppPending, ppClosed, ppNotify, ppNC, ppBP, 
-                                ppDepth, ppAlive, ppHeld, inItems, inClosed, 
-                                inWaker, pollFn, chuteFn, pwTaken, nextPoll, 
-                                ppItem, pjLive, ppStage, h, stack, dead, sti, 
-                                smax, rq, sq, sj, ww, rsq, bown, bwk, bi, bcur, 
-                                bw, bsp, jq, jj, jwk, fj, dq, dj, oq, oop, 
-                                omode, oj, yq, yop, yclaimed, tq, top, af, wf, 
-                                wop, sf, sctx, xf, cop, kj, pp, pwk, np, nbp, 
-                                nres, dp, pf, pctx, pq, pj, pd, nq >>
+                                susDropped, dnWaker, parkTok, barGen, myBar, 
+                                cdone, rv, rwb, rneed, stres, dsl, atomic, 
+                                strong, ppPending, ppClosed, ppNotify, ppNC, 
+                                ppBP, ppDepth, ppAlive, ppHeld, inItems, 
+                                inClosed, inWaker, pollFn, chuteFn, pwTaken, 
+                                nextPoll, ppItem, pjLive, ppStage, h, stack, 
+                                dead, sti, smax, rq, sq, sj, ww, rsq, bown, 
+                                bwk, bi, bcur, bw, bsp, jq, jj, jwk, fj, dq, 
+                                dj, oq, oop, omode, oj, yq, yop, yclaimed, tq, 
+                                top, af, wf, wop, sf, sctx, xf, cop, kj, pp, 
+                                pwk, np, nbp, nres, dp, pf, pctx, pq, pj, pd, 
+                                nq >>
 
 sb_push(self) == /\ pc[self] = "sb_push"
                  /\ jkind' = [jkind EXCEPT ![yop[self]] = "syncbg"]
@@ -4592,10 +4641,10 @@ sb_push(self) == /\ pc[self] = "sb_push"
                                  gwhist, dwSt, dwW, dblTaken, dblW1, dblW2, 
                                  nextDW, ready, cwait, cnotif, cvHeld, sdres, 
                                  jpanic, sfst, slotSt, qrSent, qrWaker, 
-                                 dnState, dnWaker, parkTok, barGen, myBar, 
-                                 cdone, rv, rwb, rneed, stres, dsl, atomic, 
-                                 strong, ppPending, ppClosed, ppNotify, ppNC, 
-                                 ppBP, ppDepth, ppAlive, ppHeld, inItems, 
+                                 dnState, susDropped, dnWaker, parkTok, barGen, 
+                                 myBar, cdone, rv, rwb, rneed, stres, dsl, 
+                                 atomic, strong, ppPending, ppClosed, ppNotify, 
+                                 ppNC, ppBP, ppDepth, ppAlive, ppHeld, inItems, 
                                  inClosed, inWaker, pollFn, chuteFn, pwTaken, 
                                  nextPoll, ppItem, pjLive, ppStage, h, dead, 
                                  sti, smax, sq, sj, ww, rsq, bown, bwk, bi, 
@@ -4618,10 +4667,10 @@ sb_lock(self) == /\ pc[self] = "sb_lock"
                                  gwhist, dwSt, dwW, dblTaken, dblW1, dblW2, 
                                  nextDW, ready, cwait, cnotif, cvHeld, sdres, 
                                  jpanic, sfst, slotSt, qrSent, qrWaker, 
-                                 dnState, dnWaker, parkTok, barGen, myBar, 
-                                 cdone, rv, rwb, rneed, stres, dsl, atomic, 
-                                 strong, ppPending, ppClosed, ppNotify, ppNC, 
-                                 ppBP, ppDepth, ppAlive, ppHeld, inItems, 
+                                 dnState, susDropped, dnWaker, parkTok, barGen, 
+                                 myBar, cdone, rv, rwb, rneed, stres, dsl, 
+                                 atomic, strong, ppPending, ppClosed, ppNotify, 
+                                 ppNC, ppBP, ppDepth, ppAlive, ppHeld, inItems, 
                                  inClosed, inWaker, pollFn, chuteFn, pwTaken, 
                                  nextPoll, ppItem, pjLive, ppStage, h, stack, 
                                  dead, sti, smax, rq, sq, sj, ww, rsq, bown, 
@@ -4655,18 +4704,18 @@ z_sb_lock2(self) == /\ pc[self] = "z_sb_lock2"
                                     gthreads, gwhist, dwSt, dwW, dblTaken, 
                                     dblW1, dblW2, nextDW, ready, sdres, jpanic, 
                                     sfst, slotSt, qrSent, qrWaker, dnState, 
-                                    dnWaker, parkTok, barGen, myBar, cdone, rv, 
-                                    rwb, rneed, stres, dsl, atomic, strong, 
-                                    ppPending, ppClosed, ppNotify, ppNC, ppBP, 
-                                    ppDepth, ppAlive, ppHeld, inItems, 
-                                    inClosed, inWaker, pollFn, chuteFn, 
-                                    pwTaken, nextPoll, ppItem, pjLive, ppStage, 
-                                    h, stack, dead, sti, smax, rq, sq, sj, ww, 
-                                    rsq, bown, bwk, bi, bcur, bw, bsp, jq, jj, 
-                                    jwk, fj, dq, dj, oq, oop, omode, oj, yq, 
-                                    yop, tq, top, af, wf, wop, sf, sctx, xf, 
-                                    cop, kj, pp, pwk, np, nbp, nres, dp, pf, 
-                                    pctx, pq, pj, pd, nq >>
+                                    susDropped, dnWaker, parkTok, barGen, 
+                                    myBar, cdone, rv, rwb, rneed, stres, dsl, 
+                                    atomic, strong, ppPending, ppClosed, 
+                                    ppNotify, ppNC, ppBP, ppDepth, ppAlive, 
+                                    ppHeld, inItems, inClosed, inWaker, pollFn, 
+                                    chuteFn, pwTaken, nextPoll, ppItem, pjLive, 
+                                    ppStage, h, stack, dead, sti, smax, rq, sq, 
+                                    sj, ww, rsq, bown, bwk, bi, bcur, bw, bsp, 
+                                    jq, jj, jwk, fj, dq, dj, oq, oop, omode, 
+                                    oj, yq, yop, tq, top, af, wf, wop, sf, 
+                                    sctx, xf, cop, kj, pp, pwk, np, nbp, nres, 
+                                    dp, pf, pctx, pq, pj, pd, nq >>
 
 sb_claim(self) == /\ pc[self] = "sb_claim"
                   /\ IF qstate[yq[self]] \in {"Pending", "Idle"}
@@ -4683,17 +4732,17 @@ sb_claim(self) == /\ pc[self] = "sb_claim"
                                   dwSt, dwW, dblTaken, dblW1, dblW2, nextDW, 
                                   ready, cwait, cnotif, cvHeld, sdres, jpanic, 
                                   sfst, slotSt, qrSent, qrWaker, dnState, 
-                                  dnWaker, parkTok, barGen, myBar, cdone, rv, 
-                                  rwb, rneed, stres, dsl, atomic, strong, 
-                                  ppPending, ppClosed, ppNotify, ppNC, ppBP, 
-                                  ppDepth, ppAlive, ppHeld, inItems, inClosed, 
-                                  inWaker, pollFn, chuteFn, pwTaken, nextPoll, 
-                                  ppItem, pjLive, ppStage, h, stack, dead, sti, 
-                                  smax, rq, sq, sj, ww, rsq, bown, bwk, bi, 
-                                  bcur, bw, bsp, jq, jj, jwk, fj, dq, dj, oq, 
-                                  oop, omode, oj, yq, yop, tq, top, af, wf, 
-                                  wop, sf, sctx, xf, cop, kj, pp, pwk, np, nbp, 
-                                  nres, dp, pf, pctx, pq, pj, pd, nq >>
+                                  susDropped, dnWaker, parkTok, barGen, myBar, 
+                                  cdone, rv, rwb, rneed, stres, dsl, atomic, 
+                                  strong, ppPending, ppClosed, ppNotify, ppNC, 
+                                  ppBP, ppDepth, ppAlive, ppHeld, inItems, 
+                                  inClosed, inWaker, pollFn, chuteFn, pwTaken, 
+                                  nextPoll, ppItem, pjLive, ppStage, h, stack, 
+                                  dead, sti, smax, rq, sq, sj, ww, rsq, bown, 
+                                  bwk, bi, bcur, bw, bsp, jq, jj, jwk, fj, dq, 
+                                  dj, oq, oop, omode, oj, yq, yop, tq, top, af, 
+                                  wf, wop, sf, sctx, xf, cop, kj, pp, pwk, np, 
+                                  nbp, nres, dp, pf, pctx, pq, pj, pd, nq >>
 
 sb_chk(self) == /\ pc[self] = "sb_chk"
                 /\ IF ~ready[yop[self]]
@@ -4718,10 +4767,10 @@ sb_chk(self) == /\ pc[self] = "sb_chk"
                                 gthreads, gwhist, dwSt, dwW, dblTaken, dblW1, 
                                 dblW2, nextDW, ready, cwait, cnotif, cvHeld, 
                                 sdres, jpanic, sfst, slotSt, qrSent, qrWaker, 
-                                dnState, dnWaker, parkTok, barGen, myBar, 
-                                cdone, rv, rwb, rneed, stres, dsl, atomic, 
-                                strong, ppPending, ppClosed, ppNotify, ppNC, 
-                                ppBP, ppDepth, ppAlive, ppHeld, inItems, 
+                                dnState, susDropped, dnWaker, parkTok, barGen, 
+                                myBar, cdone, rv, rwb, rneed, stres, dsl, 
+                                atomic, strong, ppPending, ppClosed, ppNotify, 
+                                ppNC, ppBP, ppDepth, ppAlive, ppHeld, inItems, 
                                 inClosed, inWaker, pollFn, chuteFn, pwTaken, 
                                 nextPoll, ppItem, pjLive, ppStage, h, dead, 
                                 sti, smax, rq, sq, sj, ww, rsq, bown, bwk, bi, 
@@ -4745,10 +4794,10 @@ sb_idle(self) == /\ pc[self] = "sb_idle"
                                  gwhist, dwSt, dwW, dblTaken, dblW1, dblW2, 
                                  nextDW, ready, cwait, cnotif, cvHeld, sdres, 
                                  jpanic, sfst, slotSt, qrSent, qrWaker, 
-                                 dnState, dnWaker, parkTok, barGen, myBar, 
-                                 cdone, rv, rwb, rneed, stres, dsl, atomic, 
-                                 strong, ppPending, ppClosed, ppNotify, ppNC, 
-                                 ppBP, ppDepth, ppAlive, ppHeld, inItems, 
+                                 dnState, susDropped, dnWaker, parkTok, barGen, 
+                                 myBar, cdone, rv, rwb, rneed, stres, dsl, 
+                                 atomic, strong, ppPending, ppClosed, ppNotify, 
+                                 ppNC, ppBP, ppDepth, ppAlive, ppHeld, inItems, 
                                  inClosed, inWaker, pollFn, chuteFn, pwTaken, 
                                  nextPoll, ppItem, pjLive, ppStage, h, dead, 
                                  sti, smax, sq, sj, ww, rsq, bown, bwk, bi, 
@@ -4780,17 +4829,17 @@ z_sb_chk(self) == /\ pc[self] = "z_sb_chk"
                                   gthreads, gwhist, dwSt, dwW, dblTaken, dblW1, 
                                   dblW2, nextDW, ready, cwait, cnotif, sdres, 
                                   jpanic, sfst, slotSt, qrSent, qrWaker, 
-                                  dnState, dnWaker, parkTok, barGen, myBar, 
-                                  cdone, rwb, rneed, stres, dsl, atomic, 
-                                  strong, ppPending, ppClosed, ppNotify, ppNC, 
-                                  ppBP, ppDepth, ppAlive, ppHeld, inItems, 
-                                  inClosed, inWaker, pollFn, chuteFn, pwTaken, 
-                                  nextPoll, ppItem, pjLive, ppStage, h, dead, 
-                                  sti, smax, rq, sq, sj, ww, rsq, bown, bwk, 
-                                  bi, bcur, bw, bsp, jq, jj, jwk, fj, dq, dj, 
-                                  oq, oop, omode, oj, tq, top, af, wf, wop, sf, 
-                                  sctx, xf, cop, kj, pp, pwk, np, nbp, nres, 
-                                  dp, pf, pctx, pq, pj, pd, nq >>
+                                  dnState, susDropped, dnWaker, parkTok, 
+                                  barGen, myBar, cdone, rwb, rneed, stres, dsl, 
+                                  atomic, strong, ppPending, ppClosed, 
+                                  ppNotify, ppNC, ppBP, ppDepth, ppAlive, 
+                                  ppHeld, inItems, inClosed, inWaker, pollFn, 
+                                  chuteFn, pwTaken, nextPoll, ppItem, pjLive, 
+                                  ppStage, h, dead, sti, smax, rq, sq, sj, ww, 
+                                  rsq, bown, bwk, bi, bcur, bw, bsp, jq, jj, 
+                                  jwk, fj, dq, dj, oq, oop, omode, oj, tq, top, 
+                                  af, wf, wop, sf, sctx, xf, cop, kj, pp, pwk, 
+                                  np, nbp, nres, dp, pf, pctx, pq, pj, pd, nq >>
 
 sb_wait(self) == /\ pc[self] = "sb_wait"
                  /\ cnotif[yop[self]]
@@ -4827,17 +4876,18 @@ sb_wait(self) == /\ pc[self] = "sb_wait"
                                  fwaker, gfired, gwaker, gthreads, gwhist, 
                                  dwSt, dwW, dblTaken, dblW1, dblW2, nextDW, 
                                  ready, sdres, jpanic, sfst, slotSt, qrSent, 
-                                 qrWaker, dnState, dnWaker, parkTok, barGen, 
-                                 myBar, cdone, rv, rwb, rneed, stres, dsl, 
-                                 atomic, strong, ppPending, ppClosed, ppNotify, 
-                                 ppNC, ppBP, ppDepth, ppAlive, ppHeld, inItems, 
-                                 inClosed, inWaker, pollFn, chuteFn, pwTaken, 
-                                 nextPoll, ppItem, pjLive, ppStage, stack, 
-                                 dead, sti, smax, rq, sq, sj, ww, rsq, bown, 
-                                 bwk, bi, bcur, bw, bsp, jq, jj, jwk, fj, dq, 
-                                 dj, oq, oop, omode, oj, yq, yop, tq, top, af, 
-                                 wf, wop, sf, sctx, xf, cop, kj, pp, pwk, np, 
-                                 nbp, nres, dp, pf, pctx, pq, pj, pd, nq >>
+                                 qrWaker, dnState, susDropped, dnWaker, 
+                                 parkTok, barGen, myBar, cdone, rv, rwb, rneed, 
+                                 stres, dsl, atomic, strong, ppPending, 
+                                 ppClosed, ppNotify, ppNC, ppBP, ppDepth, 
+                                 ppAlive, ppHeld, inItems, inClosed, inWaker, 
+                                 pollFn, chuteFn, pwTaken, nextPoll, ppItem, 
+                                 pjLive, ppStage, stack, dead, sti, smax, rq, 
+                                 sq, sj, ww, rsq, bown, bwk, bi, bcur, bw, bsp, 
+                                 jq, jj, jwk, fj, dq, dj, oq, oop, omode, oj, 
+                                 yq, yop, tq, top, af, wf, wop, sf, sctx, xf, 
+                                 cop, kj, pp, pwk, np, nbp, nres, dp, pf, pctx, 
+                                 pq, pj, pd, nq >>
 
 sb_fin(self) == /\ pc[self] = "sb_fin"
                 /\ wakeBlocked' = [wakeBlocked EXCEPT ![yq[self]] = SelectSeq(wakeBlocked[yq[self]], LAMBDA x : (x # yop[self] /\ CvAlive(x)) \/ (x = yop[self] /\ \E t \in Procs : yop[self] \in SeqSet(rwb[t])))]
@@ -4854,17 +4904,17 @@ sb_fin(self) == /\ pc[self] = "sb_fin"
                                 gwhist, dwSt, dwW, dblTaken, dblW1, dblW2, 
                                 nextDW, ready, cwait, cnotif, cvHeld, sdres, 
                                 jpanic, sfst, slotSt, qrSent, qrWaker, dnState, 
-                                dnWaker, parkTok, barGen, myBar, cdone, rwb, 
-                                rneed, stres, dsl, atomic, strong, ppPending, 
-                                ppClosed, ppNotify, ppNC, ppBP, ppDepth, 
-                                ppAlive, ppHeld, inItems, inClosed, inWaker, 
-                                pollFn, chuteFn, pwTaken, nextPoll, ppItem, 
-                                pjLive, ppStage, h, dead, sti, smax, rq, sq, 
-                                sj, ww, rsq, bown, bwk, bi, bcur, bw, bsp, jq, 
-                                jj, jwk, fj, dq, dj, oq, oop, omode, oj, tq, 
-                                top, af, wf, wop, sf, sctx, xf, cop, kj, pp, 
-                                pwk, np, nbp, nres, dp, pf, pctx, pq, pj, pd, 
-                                nq >>
+                                susDropped, dnWaker, parkTok, barGen, myBar, 
+                                cdone, rwb, rneed, stres, dsl, atomic, strong, 
+                                ppPending, ppClosed, ppNotify, ppNC, ppBP, 
+                                ppDepth, ppAlive, ppHeld, inItems, inClosed, 
+                                inWaker, pollFn, chuteFn, pwTaken, nextPoll, 
+                                ppItem, pjLive, ppStage, h, dead, sti, smax, 
+                                rq, sq, sj, ww, rsq, bown, bwk, bi, bcur, bw, 
+                                bsp, jq, jj, jwk, fj, dq, dj, oq, oop, omode, 
+                                oj, tq, top, af, wf, wop, sf, sctx, xf, cop, 
+                                kj, pp, pwk, np, nbp, nres, dp, pf, pctx, pq, 
+                                pj, pd, nq >>
 
 sy_panic(self) == /\ pc[self] = "sy_panic"
                   /\ qstate' = [qstate EXCEPT ![yq[self]] = "Panicked"]
@@ -4881,17 +4931,17 @@ sy_panic(self) == /\ pc[self] = "sy_panic"
                                   gwhist, dwSt, dwW, dblTaken, dblW1, dblW2, 
                                   nextDW, ready, cwait, cnotif, cvHeld, sdres, 
                                   jpanic, sfst, slotSt, qrSent, qrWaker, 
-                                  dnState, dnWaker, parkTok, barGen, myBar, 
-                                  cdone, rwb, rneed, stres, dsl, atomic, 
-                                  strong, ppPending, ppClosed, ppNotify, ppNC, 
-                                  ppBP, ppDepth, ppAlive, ppHeld, inItems, 
-                                  inClosed, inWaker, pollFn, chuteFn, pwTaken, 
-                                  nextPoll, ppItem, pjLive, ppStage, h, dead, 
-                                  sti, smax, rq, sq, sj, ww, rsq, bown, bwk, 
-                                  bi, bcur, bw, bsp, jq, jj, jwk, fj, dq, dj, 
-                                  oq, oop, omode, oj, tq, top, af, wf, wop, sf, 
-                                  sctx, xf, cop, kj, pp, pwk, np, nbp, nres, 
-                                  dp, pf, pctx, pq, pj, pd, nq >>
+                                  dnState, susDropped, dnWaker, parkTok, 
+                                  barGen, myBar, cdone, rwb, rneed, stres, dsl, 
+                                  atomic, strong, ppPending, ppClosed, 
+                                  ppNotify, ppNC, ppBP, ppDepth, ppAlive, 
+                                  ppHeld, inItems, inClosed, inWaker, pollFn, 
+                                  chuteFn, pwTaken, nextPoll, ppItem, pjLive, 
+                                  ppStage, h, dead, sti, smax, rq, sq, sj, ww, 
+                                  rsq, bown, bwk, bi, bcur, bw, bsp, jq, jj, 
+                                  jwk, fj, dq, dj, oq, oop, omode, oj, tq, top, 
+                                  af, wf, wop, sf, sctx, xf, cop, kj, pp, pwk, 
+                                  np, nbp, nres, dp, pf, pctx, pq, pj, pd, nq >>
 
 Sync(self) == sy_decide(self) \/ z_si_chk(self) \/ si_idle(self)
                  \/ z_si_ret(self) \/ sy_unw(self) \/ sd_push(self)
@@ -4946,18 +4996,18 @@ ts_decide(self) == /\ pc[self] = "ts_decide"
                                    gwaker, gthreads, gwhist, dwSt, dwW, 
                                    dblTaken, dblW1, dblW2, nextDW, ready, 
                                    cwait, cnotif, cvHeld, sdres, jpanic, sfst, 
-                                   slotSt, qrSent, qrWaker, dnState, dnWaker, 
-                                   parkTok, barGen, myBar, cdone, rwb, rneed, 
-                                   stres, dsl, atomic, strong, ppPending, 
-                                   ppClosed, ppNotify, ppNC, ppBP, ppDepth, 
-                                   ppAlive, ppHeld, inItems, inClosed, inWaker, 
-                                   pollFn, chuteFn, pwTaken, nextPoll, ppItem, 
-                                   pjLive, ppStage, h, dead, sti, smax, rq, sq, 
-                                   sj, ww, rsq, bown, bwk, bi, bcur, bw, bsp, 
-                                   fj, dq, dj, oq, oop, omode, oj, yq, yop, 
-                                   yclaimed, af, wf, wop, sf, sctx, xf, cop, 
-                                   kj, pp, pwk, np, nbp, nres, dp, pf, pctx, 
-                                   pq, pj, pd, nq >>
+                                   slotSt, qrSent, qrWaker, dnState, 
+                                   susDropped, dnWaker, parkTok, barGen, myBar, 
+                                   cdone, rwb, rneed, stres, dsl, atomic, 
+                                   strong, ppPending, ppClosed, ppNotify, ppNC, 
+                                   ppBP, ppDepth, ppAlive, ppHeld, inItems, 
+                                   inClosed, inWaker, pollFn, chuteFn, pwTaken, 
+                                   nextPoll, ppItem, pjLive, ppStage, h, dead, 
+                                   sti, smax, rq, sq, sj, ww, rsq, bown, bwk, 
+                                   bi, bcur, bw, bsp, fj, dq, dj, oq, oop, 
+                                   omode, oj, yq, yop, yclaimed, af, wf, wop, 
+                                   sf, sctx, xf, cop, kj, pp, pwk, np, nbp, 
+                                   nres, dp, pf, pctx, pq, pj, pd, nq >>
 
 z_ts_chk(self) == /\ pc[self] = "z_ts_chk"
                   /\ IF rv[self] = 9
@@ -4970,18 +5020,18 @@ z_ts_chk(self) == /\ pc[self] = "z_ts_chk"
                                   gthreads, gwhist, dwSt, dwW, dblTaken, dblW1, 
                                   dblW2, nextDW, ready, cwait, cnotif, cvHeld, 
                                   sdres, jpanic, sfst, slotSt, qrSent, qrWaker, 
-                                  dnState, dnWaker, parkTok, barGen, myBar, 
-                                  cdone, rv, rwb, rneed, stres, dsl, atomic, 
-                                  strong, ppPending, ppClosed, ppNotify, ppNC, 
-                                  ppBP, ppDepth, ppAlive, ppHeld, inItems, 
-                                  inClosed, inWaker, pollFn, chuteFn, pwTaken, 
-                                  nextPoll, ppItem, pjLive, ppStage, h, stack, 
-                                  dead, sti, smax, rq, sq, sj, ww, rsq, bown, 
-                                  bwk, bi, bcur, bw, bsp, jq, jj, jwk, fj, dq, 
-                                  dj, oq, oop, omode, oj, yq, yop, yclaimed, 
-                                  tq, top, af, wf, wop, sf, sctx, xf, cop, kj, 
-                                  pp, pwk, np, nbp, nres, dp, pf, pctx, pq, pj, 
-                                  pd, nq >>
+                                  dnState, susDropped, dnWaker, parkTok, 
+                                  barGen, myBar, cdone, rv, rwb, rneed, stres, 
+                                  dsl, atomic, strong, ppPending, ppClosed, 
+                                  ppNotify, ppNC, ppBP, ppDepth, ppAlive, 
+                                  ppHeld, inItems, inClosed, inWaker, pollFn, 
+                                  chuteFn, pwTaken, nextPoll, ppItem, pjLive, 
+                                  ppStage, h, stack, dead, sti, smax, rq, sq, 
+                                  sj, ww, rsq, bown, bwk, bi, bcur, bw, bsp, 
+                                  jq, jj, jwk, fj, dq, dj, oq, oop, omode, oj, 
+                                  yq, yop, yclaimed, tq, top, af, wf, wop, sf, 
+                                  sctx, xf, cop, kj, pp, pwk, np, nbp, nres, 
+                                  dp, pf, pctx, pq, pj, pd, nq >>
 
 ts_idle(self) == /\ pc[self] = "ts_idle"
                  /\ qstate' = [qstate EXCEPT ![tq[self]] = "Idle"]
@@ -4998,10 +5048,10 @@ ts_idle(self) == /\ pc[self] = "ts_idle"
                                  gwhist, dwSt, dwW, dblTaken, dblW1, dblW2, 
                                  nextDW, ready, cwait, cnotif, cvHeld, sdres, 
                                  jpanic, sfst, slotSt, qrSent, qrWaker, 
-                                 dnState, dnWaker, parkTok, barGen, myBar, 
-                                 cdone, rv, rwb, rneed, stres, dsl, atomic, 
-                                 strong, ppPending, ppClosed, ppNotify, ppNC, 
-                                 ppBP, ppDepth, ppAlive, ppHeld, inItems, 
+                                 dnState, susDropped, dnWaker, parkTok, barGen, 
+                                 myBar, cdone, rv, rwb, rneed, stres, dsl, 
+                                 atomic, strong, ppPending, ppClosed, ppNotify, 
+                                 ppNC, ppBP, ppDepth, ppAlive, ppHeld, inItems, 
                                  inClosed, inWaker, pollFn, chuteFn, pwTaken, 
                                  nextPoll, ppItem, pjLive, ppStage, h, dead, 
                                  sti, smax, sq, sj, ww, rsq, bown, bwk, bi, 
@@ -5023,17 +5073,18 @@ z_ts_ret(self) == /\ pc[self] = "z_ts_ret"
                                   gthreads, gwhist, dwSt, dwW, dblTaken, dblW1, 
                                   dblW2, nextDW, ready, cwait, cnotif, cvHeld, 
                                   sdres, jpanic, sfst, slotSt, qrSent, qrWaker, 
-                                  dnState, dnWaker, parkTok, barGen, myBar, 
-                                  cdone, rwb, rneed, stres, dsl, atomic, 
-                                  strong, ppPending, ppClosed, ppNotify, ppNC, 
-                                  ppBP, ppDepth, ppAlive, ppHeld, inItems, 
-                                  inClosed, inWaker, pollFn, chuteFn, pwTaken, 
-                                  nextPoll, ppItem, pjLive, ppStage, h, dead, 
-                                  sti, smax, rq, sq, sj, ww, rsq, bown, bwk, 
-                                  bi, bcur, bw, bsp, jq, jj, jwk, fj, dq, dj, 
-                                  oq, oop, omode, oj, yq, yop, yclaimed, af, 
-                                  wf, wop, sf, sctx, xf, cop, kj, pp, pwk, np, 
-                                  nbp, nres, dp, pf, pctx, pq, pj, pd, nq >>
+                                  dnState, susDropped, dnWaker, parkTok, 
+                                  barGen, myBar, cdone, rwb, rneed, stres, dsl, 
+                                  atomic, strong, ppPending, ppClosed, 
+                                  ppNotify, ppNC, ppBP, ppDepth, ppAlive, 
+                                  ppHeld, inItems, inClosed, inWaker, pollFn, 
+                                  chuteFn, pwTaken, nextPoll, ppItem, pjLive, 
+                                  ppStage, h, dead, sti, smax, rq, sq, sj, ww, 
+                                  rsq, bown, bwk, bi, bcur, bw, bsp, jq, jj, 
+                                  jwk, fj, dq, dj, oq, oop, omode, oj, yq, yop, 
+                                  yclaimed, af, wf, wop, sf, sctx, xf, cop, kj, 
+                                  pp, pwk, np, nbp, nres, dp, pf, pctx, pq, pj, 
+                                  pd, nq >>
 
 ts_panic(self) == /\ pc[self] = "ts_panic"
                   /\ qstate' = [qstate EXCEPT ![tq[self]] = "Panicked"]
@@ -5049,17 +5100,18 @@ ts_panic(self) == /\ pc[self] = "ts_panic"
                                   gwhist, dwSt, dwW, dblTaken, dblW1, dblW2, 
                                   nextDW, ready, cwait, cnotif, cvHeld, sdres, 
                                   jpanic, sfst, slotSt, qrSent, qrWaker, 
-                                  dnState, dnWaker, parkTok, barGen, myBar, 
-                                  cdone, rwb, rneed, stres, dsl, atomic, 
-                                  strong, ppPending, ppClosed, ppNotify, ppNC, 
-                                  ppBP, ppDepth, ppAlive, ppHeld, inItems, 
-                                  inClosed, inWaker, pollFn, chuteFn, pwTaken, 
-                                  nextPoll, ppItem, pjLive, ppStage, h, dead, 
-                                  sti, smax, rq, sq, sj, ww, rsq, bown, bwk, 
-                                  bi, bcur, bw, bsp, jq, jj, jwk, fj, dq, dj, 
-                                  oq, oop, omode, oj, yq, yop, yclaimed, af, 
-                                  wf, wop, sf, sctx, xf, cop, kj, pp, pwk, np, 
-                                  nbp, nres, dp, pf, pctx, pq, pj, pd, nq >>
+                                  dnState, susDropped, dnWaker, parkTok, 
+                                  barGen, myBar, cdone, rwb, rneed, stres, dsl, 
+                                  atomic, strong, ppPending, ppClosed, 
+                                  ppNotify, ppNC, ppBP, ppDepth, ppAlive, 
+                                  ppHeld, inItems, inClosed, inWaker, pollFn, 
+                                  chuteFn, pwTaken, nextPoll, ppItem, pjLive, 
+                                  ppStage, h, dead, sti, smax, rq, sq, sj, ww, 
+                                  rsq, bown, bwk, bi, bcur, bw, bsp, jq, jj, 
+                                  jwk, fj, dq, dj, oq, oop, omode, oj, yq, yop, 
+                                  yclaimed, af, wf, wop, sf, sctx, xf, cop, kj, 
+                                  pp, pwk, np, nbp, nres, dp, pf, pctx, pq, pj, 
+                                  pd, nq >>
 
 TrySync(self) == ts_decide(self) \/ z_ts_chk(self) \/ ts_idle(self)
                     \/ z_ts_ret(self) \/ ts_panic(self)
@@ -5097,18 +5149,18 @@ z_aw_poll(self) == /\ pc[self] = "z_aw_poll"
                                    gfired, gwaker, gthreads, gwhist, dwSt, dwW, 
                                    dblTaken, dblW1, dblW2, nextDW, ready, 
                                    cwait, cnotif, cvHeld, sdres, jpanic, sfst, 
-                                   slotSt, qrSent, qrWaker, dnState, dnWaker, 
-                                   parkTok, barGen, myBar, cdone, rv, rwb, 
-                                   rneed, stres, dsl, atomic, strong, 
-                                   ppPending, ppClosed, ppNotify, ppNC, ppBP, 
-                                   ppDepth, ppAlive, ppHeld, inItems, inClosed, 
-                                   inWaker, pollFn, chuteFn, pwTaken, nextPoll, 
-                                   ppItem, pjLive, ppStage, h, dead, sti, smax, 
-                                   rq, sq, sj, ww, rsq, bown, bwk, bi, bcur, 
-                                   bw, bsp, jq, jj, jwk, fj, dq, dj, oq, oop, 
-                                   omode, oj, yq, yop, yclaimed, tq, top, af, 
-                                   wf, wop, xf, cop, kj, pp, pwk, np, nbp, 
-                                   nres, dp, nq >>
+                                   slotSt, qrSent, qrWaker, dnState, 
+                                   susDropped, dnWaker, parkTok, barGen, myBar, 
+                                   cdone, rv, rwb, rneed, stres, dsl, atomic, 
+                                   strong, ppPending, ppClosed, ppNotify, ppNC, 
+                                   ppBP, ppDepth, ppAlive, ppHeld, inItems, 
+                                   inClosed, inWaker, pollFn, chuteFn, pwTaken, 
+                                   nextPoll, ppItem, pjLive, ppStage, h, dead, 
+                                   sti, smax, rq, sq, sj, ww, rsq, bown, bwk, 
+                                   bi, bcur, bw, bsp, jq, jj, jwk, fj, dq, dj, 
+                                   oq, oop, omode, oj, yq, yop, yclaimed, tq, 
+                                   top, af, wf, wop, xf, cop, kj, pp, pwk, np, 
+                                   nbp, nres, dp, nq >>
 
 z_aw_after(self) == /\ pc[self] = "z_aw_after"
                     /\ IF rv[self] = 5
@@ -5128,19 +5180,19 @@ z_aw_after(self) == /\ pc[self] = "z_aw_after"
                                     gfired, gwaker, gthreads, gwhist, dwSt, 
                                     dwW, dblTaken, dblW1, dblW2, nextDW, ready, 
                                     cwait, cnotif, cvHeld, sdres, jpanic, sfst, 
-                                    slotSt, qrSent, qrWaker, dnState, dnWaker, 
-                                    parkTok, barGen, myBar, cdone, rv, rwb, 
-                                    rneed, stres, dsl, atomic, strong, 
-                                    ppPending, ppClosed, ppNotify, ppNC, ppBP, 
-                                    ppDepth, ppAlive, ppHeld, inItems, 
-                                    inClosed, inWaker, pollFn, chuteFn, 
-                                    pwTaken, nextPoll, ppItem, pjLive, ppStage, 
-                                    dead, sti, smax, rq, sq, sj, ww, rsq, bown, 
-                                    bwk, bi, bcur, bw, bsp, jq, jj, jwk, fj, 
-                                    dq, dj, oq, oop, omode, oj, yq, yop, 
-                                    yclaimed, tq, top, wf, wop, sf, sctx, xf, 
-                                    cop, kj, pp, pwk, np, nbp, nres, dp, pf, 
-                                    pctx, pq, pj, pd, nq >>
+                                    slotSt, qrSent, qrWaker, dnState, 
+                                    susDropped, dnWaker, parkTok, barGen, 
+                                    myBar, cdone, rv, rwb, rneed, stres, dsl, 
+                                    atomic, strong, ppPending, ppClosed, 
+                                    ppNotify, ppNC, ppBP, ppDepth, ppAlive, 
+                                    ppHeld, inItems, inClosed, inWaker, pollFn, 
+                                    chuteFn, pwTaken, nextPoll, ppItem, pjLive, 
+                                    ppStage, dead, sti, smax, rq, sq, sj, ww, 
+                                    rsq, bown, bwk, bi, bcur, bw, bsp, jq, jj, 
+                                    jwk, fj, dq, dj, oq, oop, omode, oj, yq, 
+                                    yop, yclaimed, tq, top, wf, wop, sf, sctx, 
+                                    xf, cop, kj, pp, pwk, np, nbp, nres, dp, 
+                                    pf, pctx, pq, pj, pd, nq >>
 
 aw_park(self) == /\ pc[self] = "aw_park"
                  /\ parkTok[self]
@@ -5153,17 +5205,18 @@ aw_park(self) == /\ pc[self] = "aw_park"
                                  gthreads, gwhist, dwSt, dwW, dblTaken, dblW1, 
                                  dblW2, nextDW, ready, cwait, cnotif, cvHeld, 
                                  sdres, jpanic, sfst, slotSt, qrSent, qrWaker, 
-                                 dnState, dnWaker, barGen, myBar, cdone, rv, 
-                                 rwb, rneed, stres, dsl, atomic, strong, 
-                                 ppPending, ppClosed, ppNotify, ppNC, ppBP, 
-                                 ppDepth, ppAlive, ppHeld, inItems, inClosed, 
-                                 inWaker, pollFn, chuteFn, pwTaken, nextPoll, 
-                                 ppItem, pjLive, ppStage, h, stack, dead, sti, 
-                                 smax, rq, sq, sj, ww, rsq, bown, bwk, bi, 
-                                 bcur, bw, bsp, jq, jj, jwk, fj, dq, dj, oq, 
-                                 oop, omode, oj, yq, yop, yclaimed, tq, top, 
-                                 af, wf, wop, sf, sctx, xf, cop, kj, pp, pwk, 
-                                 np, nbp, nres, dp, pf, pctx, pq, pj, pd, nq >>
+                                 dnState, susDropped, dnWaker, barGen, myBar, 
+                                 cdone, rv, rwb, rneed, stres, dsl, atomic, 
+                                 strong, ppPending, ppClosed, ppNotify, ppNC, 
+                                 ppBP, ppDepth, ppAlive, ppHeld, inItems, 
+                                 inClosed, inWaker, pollFn, chuteFn, pwTaken, 
+                                 nextPoll, ppItem, pjLive, ppStage, h, stack, 
+                                 dead, sti, smax, rq, sq, sj, ww, rsq, bown, 
+                                 bwk, bi, bcur, bw, bsp, jq, jj, jwk, fj, dq, 
+                                 dj, oq, oop, omode, oj, yq, yop, yclaimed, tq, 
+                                 top, af, wf, wop, sf, sctx, xf, cop, kj, pp, 
+                                 pwk, np, nbp, nres, dp, pf, pctx, pq, pj, pd, 
+                                 nq >>
 
 Await(self) == z_aw_poll(self) \/ z_aw_after(self) \/ aw_park(self)
 
@@ -5204,16 +5257,17 @@ fs_take(self) == /\ pc[self] = "fs_take"
                                  gwhist, dwSt, dwW, dblTaken, dblW1, dblW2, 
                                  nextDW, ready, cwait, cnotif, cvHeld, sdres, 
                                  jpanic, sfst, slotSt, qrSent, qrWaker, 
-                                 dnState, dnWaker, parkTok, barGen, myBar, 
-                                 cdone, rwb, rneed, stres, dsl, atomic, strong, 
-                                 ppPending, ppClosed, ppNotify, ppNC, ppBP, 
-                                 ppDepth, ppAlive, ppHeld, inItems, inClosed, 
-                                 inWaker, pollFn, chuteFn, pwTaken, nextPoll, 
-                                 ppItem, pjLive, ppStage, dead, sti, smax, rq, 
-                                 sq, sj, ww, rsq, bown, bwk, bi, bcur, bw, bsp, 
-                                 jq, jj, jwk, fj, dq, dj, oq, oop, omode, oj, 
-                                 tq, top, af, sf, sctx, xf, cop, kj, pp, pwk, 
-                                 np, nbp, nres, dp, pf, pctx, pq, pj, pd, nq >>
+                                 dnState, susDropped, dnWaker, parkTok, barGen, 
+                                 myBar, cdone, rwb, rneed, stres, dsl, atomic, 
+                                 strong, ppPending, ppClosed, ppNotify, ppNC, 
+                                 ppBP, ppDepth, ppAlive, ppHeld, inItems, 
+                                 inClosed, inWaker, pollFn, chuteFn, pwTaken, 
+                                 nextPoll, ppItem, pjLive, ppStage, dead, sti, 
+                                 smax, rq, sq, sj, ww, rsq, bown, bwk, bi, 
+                                 bcur, bw, bsp, jq, jj, jwk, fj, dq, dj, oq, 
+                                 oop, omode, oj, tq, top, af, sf, sctx, xf, 
+                                 cop, kj, pp, pwk, np, nbp, nres, dp, pf, pctx, 
+                                 pq, pj, pd, nq >>
 
 z_fs_after(self) == /\ pc[self] = "z_fs_after"
                     /\ IF rv[self] = 0
@@ -5231,19 +5285,19 @@ z_fs_after(self) == /\ pc[self] = "z_fs_after"
                                     gfired, gwaker, gthreads, gwhist, dwSt, 
                                     dwW, dblTaken, dblW1, dblW2, nextDW, ready, 
                                     cwait, cnotif, cvHeld, sdres, jpanic, sfst, 
-                                    slotSt, qrSent, qrWaker, dnState, dnWaker, 
-                                    parkTok, barGen, myBar, cdone, rv, rwb, 
-                                    rneed, stres, dsl, atomic, strong, 
-                                    ppPending, ppClosed, ppNotify, ppNC, ppBP, 
-                                    ppDepth, ppAlive, ppHeld, inItems, 
-                                    inClosed, inWaker, pollFn, chuteFn, 
-                                    pwTaken, nextPoll, ppItem, pjLive, ppStage, 
-                                    dead, sti, smax, rq, sq, sj, ww, rsq, bown, 
-                                    bwk, bi, bcur, bw, bsp, jq, jj, jwk, fj, 
-                                    dq, dj, oq, oop, omode, oj, yq, yop, 
-                                    yclaimed, tq, top, af, sf, sctx, xf, cop, 
-                                    kj, pp, pwk, np, nbp, nres, dp, pf, pctx, 
-                                    pq, pj, pd, nq >>
+                                    slotSt, qrSent, qrWaker, dnState, 
+                                    susDropped, dnWaker, parkTok, barGen, 
+                                    myBar, cdone, rv, rwb, rneed, stres, dsl, 
+                                    atomic, strong, ppPending, ppClosed, 
+                                    ppNotify, ppNC, ppBP, ppDepth, ppAlive, 
+                                    ppHeld, inItems, inClosed, inWaker, pollFn, 
+                                    chuteFn, pwTaken, nextPoll, ppItem, pjLive, 
+                                    ppStage, dead, sti, smax, rq, sq, sj, ww, 
+                                    rsq, bown, bwk, bi, bcur, bw, bsp, jq, jj, 
+                                    jwk, fj, dq, dj, oq, oop, omode, oj, yq, 
+                                    yop, yclaimed, tq, top, af, sf, sctx, xf, 
+                                    cop, kj, pp, pwk, np, nbp, nres, dp, pf, 
+                                    pctx, pq, pj, pd, nq >>
 
 WaitSync(self) == fs_take(self) \/ z_fs_after(self)
 
@@ -5315,16 +5369,16 @@ z_ps(self) == /\ pc[self] = "z_ps"
                               jkind, jaw, fres, fwaker, gfired, gthreads, dwSt, 
                               dwW, dblTaken, dblW1, dblW2, nextDW, ready, 
                               cwait, cnotif, cvHeld, sdres, jpanic, sfst, 
-                              slotSt, qrSent, qrWaker, dnState, dnWaker, 
-                              parkTok, barGen, myBar, cdone, rwb, rneed, stres, 
-                              dsl, atomic, strong, ppPending, ppClosed, 
-                              ppNotify, ppNC, ppBP, ppDepth, ppAlive, ppHeld, 
-                              inItems, inClosed, inWaker, pollFn, chuteFn, 
-                              pwTaken, nextPoll, ppItem, pjLive, ppStage, h, 
-                              dead, sti, smax, rq, sq, sj, ww, jq, jj, jwk, fj, 
-                              dq, dj, oq, oop, omode, oj, yq, yop, yclaimed, 
-                              tq, top, af, wf, wop, xf, cop, kj, pp, pwk, np, 
-                              nbp, nres, dp, nq >>
+                              slotSt, qrSent, qrWaker, dnState, susDropped, 
+                              dnWaker, parkTok, barGen, myBar, cdone, rwb, 
+                              rneed, stres, dsl, atomic, strong, ppPending, 
+                              ppClosed, ppNotify, ppNC, ppBP, ppDepth, ppAlive, 
+                              ppHeld, inItems, inClosed, inWaker, pollFn, 
+                              chuteFn, pwTaken, nextPoll, ppItem, pjLive, 
+                              ppStage, h, dead, sti, smax, rq, sq, sj, ww, jq, 
+                              jj, jwk, fj, dq, dj, oq, oop, omode, oj, yq, yop, 
+                              yclaimed, tq, top, af, wf, wop, xf, cop, kj, pp, 
+                              pwk, np, nbp, nres, dp, nq >>
 
 z_ps_q(self) == /\ pc[self] = "z_ps_q"
                 /\ IF rv[self] \in {2, 4}
@@ -5373,9 +5427,9 @@ z_ps_q(self) == /\ pc[self] = "z_ps_q"
                                 jkind, jaw, fres, fwaker, gfired, gwaker, 
                                 gthreads, gwhist, dwSt, dwW, dblTaken, dblW1, 
                                 dblW2, nextDW, ready, cwait, cnotif, cvHeld, 
-                                sdres, jpanic, slotSt, qrSent, dnWaker, 
-                                parkTok, barGen, myBar, cdone, rwb, rneed, 
-                                stres, dsl, atomic, strong, ppPending, 
+                                sdres, jpanic, slotSt, qrSent, susDropped, 
+                                dnWaker, parkTok, barGen, myBar, cdone, rwb, 
+                                rneed, stres, dsl, atomic, strong, ppPending, 
                                 ppClosed, ppNotify, ppNC, ppBP, ppDepth, 
                                 ppAlive, ppHeld, inItems, inClosed, inWaker, 
                                 pollFn, chuteFn, pwTaken, nextPoll, ppItem, 
@@ -5427,17 +5481,17 @@ z_ps_f(self) == /\ pc[self] = "z_ps_f"
                                 gthreads, gwhist, dwSt, dwW, dblTaken, dblW1, 
                                 dblW2, nextDW, ready, cwait, cnotif, cvHeld, 
                                 sdres, jpanic, slotSt, qrSent, qrWaker, 
-                                dnWaker, barGen, myBar, cdone, rv, rwb, rneed, 
-                                stres, dsl, atomic, strong, ppPending, 
-                                ppClosed, ppNotify, ppNC, ppBP, ppDepth, 
-                                ppAlive, ppHeld, inItems, inClosed, inWaker, 
-                                pollFn, chuteFn, pwTaken, nextPoll, ppItem, 
-                                pjLive, ppStage, h, dead, sti, smax, rq, sq, 
-                                sj, rsq, bown, bwk, bi, bcur, bw, bsp, jq, jj, 
-                                jwk, fj, dq, dj, oq, oop, omode, oj, yq, yop, 
-                                yclaimed, tq, top, af, wf, wop, xf, cop, kj, 
-                                pp, pwk, np, nbp, nres, dp, pf, pctx, pq, pj, 
-                                pd, nq >>
+                                susDropped, dnWaker, barGen, myBar, cdone, rv, 
+                                rwb, rneed, stres, dsl, atomic, strong, 
+                                ppPending, ppClosed, ppNotify, ppNC, ppBP, 
+                                ppDepth, ppAlive, ppHeld, inItems, inClosed, 
+                                inWaker, pollFn, chuteFn, pwTaken, nextPoll, 
+                                ppItem, pjLive, ppStage, h, dead, sti, smax, 
+                                rq, sq, sj, rsq, bown, bwk, bi, bcur, bw, bsp, 
+                                jq, jj, jwk, fj, dq, dj, oq, oop, omode, oj, 
+                                yq, yop, yclaimed, tq, top, af, wf, wop, xf, 
+                                cop, kj, pp, pwk, np, nbp, nres, dp, pf, pctx, 
+                                pq, pj, pd, nq >>
 
 z_ps_s(self) == /\ pc[self] = "z_ps_s"
                 /\ /\ pctx' = [pctx EXCEPT ![self] = sctx[self]]
@@ -5461,10 +5515,10 @@ z_ps_s(self) == /\ pc[self] = "z_ps_s"
                                 gthreads, gwhist, dwSt, dwW, dblTaken, dblW1, 
                                 dblW2, nextDW, ready, cwait, cnotif, cvHeld, 
                                 sdres, jpanic, sfst, slotSt, qrSent, qrWaker, 
-                                dnState, dnWaker, parkTok, barGen, myBar, 
-                                cdone, rv, rwb, rneed, stres, dsl, atomic, 
-                                strong, ppPending, ppClosed, ppNotify, ppNC, 
-                                ppBP, ppDepth, ppAlive, ppHeld, inItems, 
+                                dnState, susDropped, dnWaker, parkTok, barGen, 
+                                myBar, cdone, rv, rwb, rneed, stres, dsl, 
+                                atomic, strong, ppPending, ppClosed, ppNotify, 
+                                ppNC, ppBP, ppDepth, ppAlive, ppHeld, inItems, 
                                 inClosed, inWaker, pollFn, chuteFn, pwTaken, 
                                 nextPoll, ppItem, pjLive, ppStage, h, dead, 
                                 sti, smax, rq, sq, sj, ww, rsq, bown, bwk, bi, 
@@ -5493,17 +5547,17 @@ z_ps_s2(self) == /\ pc[self] = "z_ps_s2"
                                  gthreads, gwhist, dwSt, dwW, dblTaken, dblW1, 
                                  dblW2, nextDW, ready, cwait, cnotif, cvHeld, 
                                  sdres, jpanic, slotSt, qrSent, qrWaker, 
-                                 dnState, dnWaker, parkTok, barGen, myBar, 
-                                 cdone, rwb, rneed, stres, dsl, atomic, strong, 
-                                 ppPending, ppClosed, ppNotify, ppNC, ppBP, 
-                                 ppDepth, ppAlive, ppHeld, inItems, inClosed, 
-                                 inWaker, pollFn, chuteFn, pwTaken, nextPoll, 
-                                 ppItem, pjLive, ppStage, h, dead, sti, smax, 
-                                 rq, sq, sj, ww, rsq, bown, bwk, bi, bcur, bw, 
-                                 bsp, jq, jj, jwk, fj, dq, dj, oq, oop, omode, 
-                                 oj, yq, yop, yclaimed, tq, top, af, wf, wop, 
-                                 xf, cop, kj, pp, pwk, np, nbp, nres, dp, pf, 
-                                 pctx, pq, pj, pd, nq >>
+                                 dnState, susDropped, dnWaker, parkTok, barGen, 
+                                 myBar, cdone, rwb, rneed, stres, dsl, atomic, 
+                                 strong, ppPending, ppClosed, ppNotify, ppNC, 
+                                 ppBP, ppDepth, ppAlive, ppHeld, inItems, 
+                                 inClosed, inWaker, pollFn, chuteFn, pwTaken, 
+                                 nextPoll, ppItem, pjLive, ppStage, h, dead, 
+                                 sti, smax, rq, sq, sj, ww, rsq, bown, bwk, bi, 
+                                 bcur, bw, bsp, jq, jj, jwk, fj, dq, dj, oq, 
+                                 oop, omode, oj, yq, yop, yclaimed, tq, top, 
+                                 af, wf, wop, xf, cop, kj, pp, pwk, np, nbp, 
+                                 nres, dp, pf, pctx, pq, pj, pd, nq >>
 
 z_ps_panic(self) == /\ pc[self] = "z_ps_panic"
                     /\ rv' = [rv EXCEPT ![self] = 2]
@@ -5518,63 +5572,90 @@ z_ps_panic(self) == /\ pc[self] = "z_ps_panic"
                                     gfired, gwaker, gthreads, gwhist, dwSt, 
                                     dwW, dblTaken, dblW1, dblW2, nextDW, ready, 
                                     cwait, cnotif, cvHeld, sdres, jpanic, sfst, 
-                                    slotSt, qrSent, qrWaker, dnState, dnWaker, 
-                                    parkTok, barGen, myBar, cdone, rwb, rneed, 
-                                    stres, dsl, atomic, strong, ppPending, 
-                                    ppClosed, ppNotify, ppNC, ppBP, ppDepth, 
-                                    ppAlive, ppHeld, inItems, inClosed, 
-                                    inWaker, pollFn, chuteFn, pwTaken, 
-                                    nextPoll, ppItem, pjLive, ppStage, h, dead, 
-                                    sti, smax, rq, sq, sj, ww, rsq, bown, bwk, 
-                                    bi, bcur, bw, bsp, jq, jj, jwk, fj, dq, dj, 
-                                    oq, oop, omode, oj, yq, yop, yclaimed, tq, 
-                                    top, af, wf, wop, xf, cop, kj, pp, pwk, np, 
-                                    nbp, nres, dp, pf, pctx, pq, pj, pd, nq >>
+                                    slotSt, qrSent, qrWaker, dnState, 
+                                    susDropped, dnWaker, parkTok, barGen, 
+                                    myBar, cdone, rwb, rneed, stres, dsl, 
+                                    atomic, strong, ppPending, ppClosed, 
+                                    ppNotify, ppNC, ppBP, ppDepth, ppAlive, 
+                                    ppHeld, inItems, inClosed, inWaker, pollFn, 
+                                    chuteFn, pwTaken, nextPoll, ppItem, pjLive, 
+                                    ppStage, h, dead, sti, smax, rq, sq, sj, 
+                                    ww, rsq, bown, bwk, bi, bcur, bw, bsp, jq, 
+                                    jj, jwk, fj, dq, dj, oq, oop, omode, oj, 
+                                    yq, yop, yclaimed, tq, top, af, wf, wop, 
+                                    xf, cop, kj, pp, pwk, np, nbp, nres, dp, 
+                                    pf, pctx, pq, pj, pd, nq >>
 
 PollSync(self) == z_ps(self) \/ z_ps_q(self) \/ z_ps_f(self)
                      \/ z_ps_s(self) \/ z_ps_s2(self) \/ z_ps_panic(self)
 
 z_df(self) == /\ pc[self] = "z_df"
-              /\ IF K(xf[self]) # "fsync" \/ sfst[xf[self]] = "Done"
-                    THEN /\ h' = ObsDropped(h, self, xf[self])
-                         /\ rv' = [rv EXCEPT ![self] = 0]
-                         /\ pc' = [pc EXCEPT ![self] = Head(stack[self]).pc]
-                         /\ xf' = [xf EXCEPT ![self] = Head(stack[self]).xf]
-                         /\ stack' = [stack EXCEPT ![self] = Tail(stack[self])]
-                         /\ UNCHANGED << sfst, dnState, ww >>
-                    ELSE /\ h' = (IF sfst[xf[self]] = "WFF" THEN ObsEnd(ObsDropped(h, self, xf[self]), self, xf[self]) ELSE ObsDropped(h, self, xf[self]))
-                         /\ sfst' = [sfst EXCEPT ![xf[self]] = "Done"]
-                         /\ IF dnState[xf[self]] = "open"
-                               THEN /\ dnState' = [dnState EXCEPT ![xf[self]] = "dropped"]
-                                    /\ IF IsLocking(dnWaker[xf[self]])
+              /\ IF K(xf[self]) = "suspend"
+                    THEN /\ h' = (IF fres[xf[self]] = "taken" THEN ObsResume(h, self, xf[self]) ELSE ObsDropped(h, self, xf[self]))
+                         /\ susDropped' = [susDropped EXCEPT ![xf[self]] = TRUE]
+                         /\ IF fres[xf[self]] \in {"some", "taken"}
+                               THEN /\ fres' = [fres EXCEPT ![xf[self]] = "taken"]
+                                    /\ gfired' = (gfired \cup {OpTab[xf[self]].g})
+                                    /\ parkTok' = Unpark(parkTok, TaskOf(gwaker[OpTab[xf[self]].g]))
+                                    /\ IF IsLocking(gwaker[OpTab[xf[self]].g])
                                           THEN /\ /\ stack' = [stack EXCEPT ![self] = << [ procedure |->  "Wake",
-                                                                                           pc        |->  "z_df2",
+                                                                                           pc        |->  "z_df_sus",
                                                                                            ww        |->  ww[self] ] >>
                                                                                        \o stack[self]]
-                                                  /\ ww' = [ww EXCEPT ![self] = dnWaker[xf[self]]]
+                                                  /\ ww' = [ww EXCEPT ![self] = gwaker[OpTab[xf[self]].g]]
                                                /\ pc' = [pc EXCEPT ![self] = "wk_lock"]
-                                          ELSE /\ pc' = [pc EXCEPT ![self] = "z_df2"]
+                                          ELSE /\ pc' = [pc EXCEPT ![self] = "z_df_sus"]
                                                /\ UNCHANGED << stack, ww >>
-                               ELSE /\ pc' = [pc EXCEPT ![self] = "z_df2"]
-                                    /\ UNCHANGED << dnState, stack, ww >>
-                         /\ UNCHANGED << rv, xf >>
+                                    /\ UNCHANGED << rv, xf >>
+                               ELSE /\ rv' = [rv EXCEPT ![self] = 0]
+                                    /\ pc' = [pc EXCEPT ![self] = Head(stack[self]).pc]
+                                    /\ xf' = [xf EXCEPT ![self] = Head(stack[self]).xf]
+                                    /\ stack' = [stack EXCEPT ![self] = Tail(stack[self])]
+                                    /\ UNCHANGED << fres, gfired, parkTok, ww >>
+                         /\ UNCHANGED << sfst, dnState >>
+                    ELSE /\ IF K(xf[self]) # "fsync" \/ sfst[xf[self]] = "Done"
+                               THEN /\ h' = ObsDropped(h, self, xf[self])
+                                    /\ rv' = [rv EXCEPT ![self] = 0]
+                                    /\ pc' = [pc EXCEPT ![self] = Head(stack[self]).pc]
+                                    /\ xf' = [xf EXCEPT ![self] = Head(stack[self]).xf]
+                                    /\ stack' = [stack EXCEPT ![self] = Tail(stack[self])]
+                                    /\ UNCHANGED << sfst, dnState, ww >>
+                               ELSE /\ h' = (IF sfst[xf[self]] = "WFF" THEN ObsEnd(ObsDropped(h, self, xf[self]), self, xf[self]) ELSE ObsDropped(h, self, xf[self]))
+                                    /\ sfst' = [sfst EXCEPT ![xf[self]] = "Done"]
+                                    /\ IF dnState[xf[self]] = "open"
+                                          THEN /\ dnState' = [dnState EXCEPT ![xf[self]] = "dropped"]
+                                               /\ IF IsLocking(dnWaker[xf[self]])
+                                                     THEN /\ /\ stack' = [stack EXCEPT ![self] = << [ procedure |->  "Wake",
+                                                                                                      pc        |->  "z_df2",
+                                                                                                      ww        |->  ww[self] ] >>
+                                                                                                  \o stack[self]]
+                                                             /\ ww' = [ww EXCEPT ![self] = dnWaker[xf[self]]]
+                                                          /\ pc' = [pc EXCEPT ![self] = "wk_lock"]
+                                                     ELSE /\ pc' = [pc EXCEPT ![self] = "z_df2"]
+                                                          /\ UNCHANGED << stack, 
+                                                                          ww >>
+                                          ELSE /\ pc' = [pc EXCEPT ![self] = "z_df2"]
+                                               /\ UNCHANGED << dnState, stack, 
+                                                               ww >>
+                                    /\ UNCHANGED << rv, xf >>
+                         /\ UNCHANGED << fres, gfired, susDropped, parkTok >>
               /\ UNCHANGED << qstate, qpoll, jobs, wakeBlocked, schedule, 
                               pthreads, nspawned, palive, busy, busyLocked, 
                               inbox, chanOpen, pfin, thrHeld, maxThreads, 
-                              jkind, jaw, fres, fwaker, gfired, gwaker, 
-                              gthreads, gwhist, dwSt, dwW, dblTaken, dblW1, 
-                              dblW2, nextDW, ready, cwait, cnotif, cvHeld, 
-                              sdres, jpanic, slotSt, qrSent, qrWaker, dnWaker, 
-                              parkTok, barGen, myBar, cdone, rwb, rneed, stres, 
-                              dsl, atomic, strong, ppPending, ppClosed, 
-                              ppNotify, ppNC, ppBP, ppDepth, ppAlive, ppHeld, 
-                              inItems, inClosed, inWaker, pollFn, chuteFn, 
-                              pwTaken, nextPoll, ppItem, pjLive, ppStage, dead, 
-                              sti, smax, rq, sq, sj, rsq, bown, bwk, bi, bcur, 
-                              bw, bsp, jq, jj, jwk, fj, dq, dj, oq, oop, omode, 
-                              oj, yq, yop, yclaimed, tq, top, af, wf, wop, sf, 
-                              sctx, cop, kj, pp, pwk, np, nbp, nres, dp, pf, 
-                              pctx, pq, pj, pd, nq >>
+                              jkind, jaw, fwaker, gwaker, gthreads, gwhist, 
+                              dwSt, dwW, dblTaken, dblW1, dblW2, nextDW, ready, 
+                              cwait, cnotif, cvHeld, sdres, jpanic, slotSt, 
+                              qrSent, qrWaker, dnWaker, barGen, myBar, cdone, 
+                              rwb, rneed, stres, dsl, atomic, strong, 
+                              ppPending, ppClosed, ppNotify, ppNC, ppBP, 
+                              ppDepth, ppAlive, ppHeld, inItems, inClosed, 
+                              inWaker, pollFn, chuteFn, pwTaken, nextPoll, 
+                              ppItem, pjLive, ppStage, dead, sti, smax, rq, sq, 
+                              sj, rsq, bown, bwk, bi, bcur, bw, bsp, jq, jj, 
+                              jwk, fj, dq, dj, oq, oop, omode, oj, yq, yop, 
+                              yclaimed, tq, top, af, wf, wop, sf, sctx, cop, 
+                              kj, pp, pwk, np, nbp, nres, dp, pf, pctx, pq, pj, 
+                              pd, nq >>
 
 z_df2(self) == /\ pc[self] = "z_df2"
                /\ rv' = [rv EXCEPT ![self] = 0]
@@ -5588,19 +5669,45 @@ z_df2(self) == /\ pc[self] = "z_df2"
                                gthreads, gwhist, dwSt, dwW, dblTaken, dblW1, 
                                dblW2, nextDW, ready, cwait, cnotif, cvHeld, 
                                sdres, jpanic, sfst, slotSt, qrSent, qrWaker, 
-                               dnState, dnWaker, parkTok, barGen, myBar, cdone, 
-                               rwb, rneed, stres, dsl, atomic, strong, 
-                               ppPending, ppClosed, ppNotify, ppNC, ppBP, 
-                               ppDepth, ppAlive, ppHeld, inItems, inClosed, 
-                               inWaker, pollFn, chuteFn, pwTaken, nextPoll, 
-                               ppItem, pjLive, ppStage, h, dead, sti, smax, rq, 
-                               sq, sj, ww, rsq, bown, bwk, bi, bcur, bw, bsp, 
-                               jq, jj, jwk, fj, dq, dj, oq, oop, omode, oj, yq, 
-                               yop, yclaimed, tq, top, af, wf, wop, sf, sctx, 
-                               cop, kj, pp, pwk, np, nbp, nres, dp, pf, pctx, 
-                               pq, pj, pd, nq >>
+                               dnState, susDropped, dnWaker, parkTok, barGen, 
+                               myBar, cdone, rwb, rneed, stres, dsl, atomic, 
+                               strong, ppPending, ppClosed, ppNotify, ppNC, 
+                               ppBP, ppDepth, ppAlive, ppHeld, inItems, 
+                               inClosed, inWaker, pollFn, chuteFn, pwTaken, 
+                               nextPoll, ppItem, pjLive, ppStage, h, dead, sti, 
+                               smax, rq, sq, sj, ww, rsq, bown, bwk, bi, bcur, 
+                               bw, bsp, jq, jj, jwk, fj, dq, dj, oq, oop, 
+                               omode, oj, yq, yop, yclaimed, tq, top, af, wf, 
+                               wop, sf, sctx, cop, kj, pp, pwk, np, nbp, nres, 
+                               dp, pf, pctx, pq, pj, pd, nq >>
 
-DropFuture(self) == z_df(self) \/ z_df2(self)
+z_df_sus(self) == /\ pc[self] = "z_df_sus"
+                  /\ gwaker' = [gwaker EXCEPT ![OpTab[xf[self]].g] = NoW]
+                  /\ rv' = [rv EXCEPT ![self] = 0]
+                  /\ pc' = [pc EXCEPT ![self] = Head(stack[self]).pc]
+                  /\ xf' = [xf EXCEPT ![self] = Head(stack[self]).xf]
+                  /\ stack' = [stack EXCEPT ![self] = Tail(stack[self])]
+                  /\ UNCHANGED << qstate, qpoll, jobs, wakeBlocked, schedule, 
+                                  pthreads, nspawned, palive, busy, busyLocked, 
+                                  inbox, chanOpen, pfin, thrHeld, maxThreads, 
+                                  jkind, jaw, fres, fwaker, gfired, gthreads, 
+                                  gwhist, dwSt, dwW, dblTaken, dblW1, dblW2, 
+                                  nextDW, ready, cwait, cnotif, cvHeld, sdres, 
+                                  jpanic, sfst, slotSt, qrSent, qrWaker, 
+                                  dnState, susDropped, dnWaker, parkTok, 
+                                  barGen, myBar, cdone, rwb, rneed, stres, dsl, 
+                                  atomic, strong, ppPending, ppClosed, 
+                                  ppNotify, ppNC, ppBP, ppDepth, ppAlive, 
+                                  ppHeld, inItems, inClosed, inWaker, pollFn, 
+                                  chuteFn, pwTaken, nextPoll, ppItem, pjLive, 
+                                  ppStage, h, dead, sti, smax, rq, sq, sj, ww, 
+                                  rsq, bown, bwk, bi, bcur, bw, bsp, jq, jj, 
+                                  jwk, fj, dq, dj, oq, oop, omode, oj, yq, yop, 
+                                  yclaimed, tq, top, af, wf, wop, sf, sctx, 
+                                  cop, kj, pp, pwk, np, nbp, nres, dp, pf, 
+                                  pctx, pq, pj, pd, nq >>
+
+DropFuture(self) == z_df(self) \/ z_df2(self) \/ z_df_sus(self)
 
 z_pcr1(self) == /\ pc[self] = "z_pcr1"
                 /\ pollFn' = [pollFn EXCEPT ![OpTab[cop[self]].p] = TRUE]
@@ -5624,16 +5731,16 @@ z_pcr1(self) == /\ pc[self] = "z_pcr1"
                                 gwhist, dwSt, dwW, dblTaken, dblW1, dblW2, 
                                 nextDW, ready, cwait, cnotif, cvHeld, sdres, 
                                 jpanic, sfst, slotSt, qrSent, qrWaker, dnState, 
-                                dnWaker, parkTok, barGen, myBar, cdone, rv, 
-                                rwb, rneed, stres, dsl, atomic, ppPending, 
-                                ppClosed, ppNotify, ppNC, ppBP, ppDepth, 
-                                ppHeld, inItems, inClosed, inWaker, chuteFn, 
-                                pwTaken, ppItem, ppStage, h, dead, sti, smax, 
-                                rq, ww, rsq, bown, bwk, bi, bcur, bw, bsp, jq, 
-                                jj, jwk, fj, dq, dj, oq, oop, omode, oj, yq, 
-                                yop, yclaimed, tq, top, af, wf, wop, sf, sctx, 
-                                xf, cop, kj, pp, pwk, np, nbp, nres, dp, pf, 
-                                pctx, pq, pj, pd, nq >>
+                                susDropped, dnWaker, parkTok, barGen, myBar, 
+                                cdone, rv, rwb, rneed, stres, dsl, atomic, 
+                                ppPending, ppClosed, ppNotify, ppNC, ppBP, 
+                                ppDepth, ppHeld, inItems, inClosed, inWaker, 
+                                chuteFn, pwTaken, ppItem, ppStage, h, dead, 
+                                sti, smax, rq, ww, rsq, bown, bwk, bi, bcur, 
+                                bw, bsp, jq, jj, jwk, fj, dq, dj, oq, oop, 
+                                omode, oj, yq, yop, yclaimed, tq, top, af, wf, 
+                                wop, sf, sctx, xf, cop, kj, pp, pwk, np, nbp, 
+                                nres, dp, pf, pctx, pq, pj, pd, nq >>
 
 z_pcr2(self) == /\ pc[self] = "z_pcr2"
                 /\ strong' = [strong EXCEPT ![O(cop[self])] = strong[O(cop[self])] - 1]
@@ -5654,17 +5761,17 @@ z_pcr2(self) == /\ pc[self] = "z_pcr2"
                                 gthreads, gwhist, dwSt, dwW, dblTaken, dblW1, 
                                 dblW2, nextDW, ready, cwait, cnotif, cvHeld, 
                                 sdres, jpanic, sfst, slotSt, qrSent, qrWaker, 
-                                dnState, dnWaker, parkTok, barGen, myBar, 
-                                cdone, rv, rwb, rneed, stres, dsl, atomic, 
-                                ppPending, ppClosed, ppNotify, ppNC, ppBP, 
-                                ppDepth, ppAlive, ppHeld, inItems, inClosed, 
-                                inWaker, pollFn, chuteFn, pwTaken, nextPoll, 
-                                ppItem, pjLive, ppStage, h, dead, sti, smax, 
-                                rq, sq, sj, ww, rsq, bown, bwk, bi, bcur, bw, 
-                                bsp, jq, jj, jwk, fj, dq, dj, oq, oop, omode, 
-                                oj, tq, top, af, wf, wop, sf, sctx, xf, cop, 
-                                kj, pp, pwk, np, nbp, nres, dp, pf, pctx, pq, 
-                                pj, pd, nq >>
+                                dnState, susDropped, dnWaker, parkTok, barGen, 
+                                myBar, cdone, rv, rwb, rneed, stres, dsl, 
+                                atomic, ppPending, ppClosed, ppNotify, ppNC, 
+                                ppBP, ppDepth, ppAlive, ppHeld, inItems, 
+                                inClosed, inWaker, pollFn, chuteFn, pwTaken, 
+                                nextPoll, ppItem, pjLive, ppStage, h, dead, 
+                                sti, smax, rq, sq, sj, ww, rsq, bown, bwk, bi, 
+                                bcur, bw, bsp, jq, jj, jwk, fj, dq, dj, oq, 
+                                oop, omode, oj, tq, top, af, wf, wop, sf, sctx, 
+                                xf, cop, kj, pp, pwk, np, nbp, nres, dp, pf, 
+                                pctx, pq, pj, pd, nq >>
 
 z_pcr3(self) == /\ pc[self] = "z_pcr3"
                 /\ pc' = [pc EXCEPT ![self] = Head(stack[self]).pc]
@@ -5677,10 +5784,10 @@ z_pcr3(self) == /\ pc[self] = "z_pcr3"
                                 gthreads, gwhist, dwSt, dwW, dblTaken, dblW1, 
                                 dblW2, nextDW, ready, cwait, cnotif, cvHeld, 
                                 sdres, jpanic, sfst, slotSt, qrSent, qrWaker, 
-                                dnState, dnWaker, parkTok, barGen, myBar, 
-                                cdone, rv, rwb, rneed, stres, dsl, atomic, 
-                                strong, ppPending, ppClosed, ppNotify, ppNC, 
-                                ppBP, ppDepth, ppAlive, ppHeld, inItems, 
+                                dnState, susDropped, dnWaker, parkTok, barGen, 
+                                myBar, cdone, rv, rwb, rneed, stres, dsl, 
+                                atomic, strong, ppPending, ppClosed, ppNotify, 
+                                ppNC, ppBP, ppDepth, ppAlive, ppHeld, inItems, 
                                 inClosed, inWaker, pollFn, chuteFn, pwTaken, 
                                 nextPoll, ppItem, pjLive, ppStage, h, dead, 
                                 sti, smax, rq, sq, sj, ww, rsq, bown, bwk, bi, 
@@ -5702,19 +5809,19 @@ z_pp_entry(self) == /\ pc[self] = "z_pp_entry"
                                     gfired, gwaker, gthreads, gwhist, dwSt, 
                                     dwW, dblTaken, dblW1, dblW2, nextDW, ready, 
                                     cwait, cnotif, cvHeld, sdres, jpanic, sfst, 
-                                    slotSt, qrSent, qrWaker, dnState, dnWaker, 
-                                    parkTok, barGen, myBar, cdone, rv, rwb, 
-                                    rneed, stres, dsl, atomic, strong, 
-                                    ppPending, ppClosed, ppNotify, ppNC, ppBP, 
-                                    ppDepth, ppAlive, ppHeld, inItems, 
-                                    inClosed, inWaker, pollFn, chuteFn, 
-                                    pwTaken, nextPoll, ppItem, pjLive, ppStage, 
-                                    h, stack, dead, sti, smax, rq, sq, sj, ww, 
-                                    rsq, bown, bwk, bi, bcur, bw, bsp, jq, jj, 
-                                    jwk, fj, dq, dj, oq, oop, omode, oj, yq, 
-                                    yop, yclaimed, tq, top, af, wf, wop, sf, 
-                                    sctx, xf, cop, kj, pp, pwk, np, nbp, nres, 
-                                    dp, pf, pctx, pq, pj, pd, nq >>
+                                    slotSt, qrSent, qrWaker, dnState, 
+                                    susDropped, dnWaker, parkTok, barGen, 
+                                    myBar, cdone, rv, rwb, rneed, stres, dsl, 
+                                    atomic, strong, ppPending, ppClosed, 
+                                    ppNotify, ppNC, ppBP, ppDepth, ppAlive, 
+                                    ppHeld, inItems, inClosed, inWaker, pollFn, 
+                                    chuteFn, pwTaken, nextPoll, ppItem, pjLive, 
+                                    ppStage, h, stack, dead, sti, smax, rq, sq, 
+                                    sj, ww, rsq, bown, bwk, bi, bcur, bw, bsp, 
+                                    jq, jj, jwk, fj, dq, dj, oq, oop, omode, 
+                                    oj, yq, yop, yclaimed, tq, top, af, wf, 
+                                    wop, sf, sctx, xf, cop, kj, pp, pwk, np, 
+                                    nbp, nres, dp, pf, pctx, pq, pj, pd, nq >>
 
 pp_fn(self) == /\ pc[self] = "pp_fn"
                /\ IF ~pollFn[pp[self]]
@@ -5741,17 +5848,17 @@ pp_fn(self) == /\ pc[self] = "pp_fn"
                                gthreads, gwhist, dwSt, dwW, dblTaken, dblW1, 
                                dblW2, nextDW, ready, cwait, cnotif, cvHeld, 
                                sdres, jpanic, sfst, slotSt, qrSent, qrWaker, 
-                               dnState, dnWaker, parkTok, barGen, myBar, cdone, 
-                               rwb, rneed, stres, dsl, atomic, strong, 
-                               ppPending, ppClosed, ppNotify, ppNC, ppBP, 
-                               ppDepth, ppAlive, inItems, inClosed, inWaker, 
-                               pollFn, chuteFn, pwTaken, nextPoll, ppItem, 
-                               pjLive, ppStage, h, dead, sti, smax, rq, sq, sj, 
-                               ww, rsq, bown, bwk, bi, bcur, bw, bsp, jq, jj, 
-                               jwk, fj, dq, dj, oq, oop, omode, oj, yq, yop, 
-                               yclaimed, tq, top, af, wf, wop, sf, sctx, xf, 
-                               cop, np, nbp, nres, dp, pf, pctx, pq, pj, pd, 
-                               nq >>
+                               dnState, susDropped, dnWaker, parkTok, barGen, 
+                               myBar, cdone, rwb, rneed, stres, dsl, atomic, 
+                               strong, ppPending, ppClosed, ppNotify, ppNC, 
+                               ppBP, ppDepth, ppAlive, inItems, inClosed, 
+                               inWaker, pollFn, chuteFn, pwTaken, nextPoll, 
+                               ppItem, pjLive, ppStage, h, dead, sti, smax, rq, 
+                               sq, sj, ww, rsq, bown, bwk, bi, bcur, bw, bsp, 
+                               jq, jj, jwk, fj, dq, dj, oq, oop, omode, oj, yq, 
+                               yop, yclaimed, tq, top, af, wf, wop, sf, sctx, 
+                               xf, cop, np, nbp, nres, dp, pf, pctx, pq, pj, 
+                               pd, nq >>
 
 pp_bp(self) == /\ pc[self] = "pp_bp"
                /\ IF Len(ppPending[pp[self]]) >= ppDepth[pp[self]]
@@ -5774,14 +5881,14 @@ pp_bp(self) == /\ pc[self] = "pp_bp"
                                gthreads, gwhist, dwSt, dwW, dblTaken, dblW1, 
                                dblW2, nextDW, ready, cwait, cnotif, cvHeld, 
                                sdres, jpanic, sfst, slotSt, qrSent, qrWaker, 
-                               dnState, dnWaker, parkTok, barGen, myBar, cdone, 
-                               rwb, rneed, stres, dsl, atomic, strong, 
-                               ppPending, ppClosed, ppNotify, ppNC, ppDepth, 
-                               ppAlive, inItems, inClosed, inWaker, pollFn, 
-                               chuteFn, pwTaken, nextPoll, ppItem, pjLive, 
-                               ppStage, h, dead, sti, smax, rq, sq, sj, ww, 
-                               rsq, bown, bwk, bi, bcur, bw, bsp, jq, jj, jwk, 
-                               fj, dq, dj, oq, oop, omode, oj, yq, yop, 
+                               dnState, susDropped, dnWaker, parkTok, barGen, 
+                               myBar, cdone, rwb, rneed, stres, dsl, atomic, 
+                               strong, ppPending, ppClosed, ppNotify, ppNC, 
+                               ppDepth, ppAlive, inItems, inClosed, inWaker, 
+                               pollFn, chuteFn, pwTaken, nextPoll, ppItem, 
+                               pjLive, ppStage, h, dead, sti, smax, rq, sq, sj, 
+                               ww, rsq, bown, bwk, bi, bcur, bw, bsp, jq, jj, 
+                               jwk, fj, dq, dj, oq, oop, omode, oj, yq, yop, 
                                yclaimed, tq, top, af, wf, wop, sf, sctx, xf, 
                                cop, np, nbp, nres, dp, pf, pctx, pq, pj, pd, 
                                nq >>
@@ -5801,17 +5908,18 @@ pp_clear(self) == /\ pc[self] = "pp_clear"
                                   gthreads, gwhist, dwSt, dwW, dblTaken, dblW1, 
                                   dblW2, nextDW, ready, cwait, cnotif, cvHeld, 
                                   sdres, jpanic, sfst, slotSt, qrSent, qrWaker, 
-                                  dnState, dnWaker, parkTok, barGen, myBar, 
-                                  cdone, rv, rwb, rneed, stres, dsl, atomic, 
-                                  strong, ppPending, ppClosed, ppNotify, ppBP, 
-                                  ppDepth, ppAlive, inItems, inClosed, inWaker, 
-                                  pollFn, chuteFn, pwTaken, nextPoll, ppItem, 
-                                  pjLive, ppStage, h, stack, dead, sti, smax, 
-                                  rq, sq, sj, ww, rsq, bown, bwk, bi, bcur, bw, 
-                                  bsp, jq, jj, jwk, fj, dq, dj, oq, oop, omode, 
-                                  oj, yq, yop, yclaimed, tq, top, af, wf, wop, 
-                                  sf, sctx, xf, cop, kj, pp, pwk, np, nbp, 
-                                  nres, dp, pf, pctx, pq, pj, pd, nq >>
+                                  dnState, susDropped, dnWaker, parkTok, 
+                                  barGen, myBar, cdone, rv, rwb, rneed, stres, 
+                                  dsl, atomic, strong, ppPending, ppClosed, 
+                                  ppNotify, ppBP, ppDepth, ppAlive, inItems, 
+                                  inClosed, inWaker, pollFn, chuteFn, pwTaken, 
+                                  nextPoll, ppItem, pjLive, ppStage, h, stack, 
+                                  dead, sti, smax, rq, sq, sj, ww, rsq, bown, 
+                                  bwk, bi, bcur, bw, bsp, jq, jj, jwk, fj, dq, 
+                                  dj, oq, oop, omode, oj, yq, yop, yclaimed, 
+                                  tq, top, af, wf, wop, sf, sctx, xf, cop, kj, 
+                                  pp, pwk, np, nbp, nres, dp, pf, pctx, pq, pj, 
+                                  pd, nq >>
 
 pp_in(self) == /\ pc[self] = "pp_in"
                /\ IF inItems[pp[self]] # << >>
@@ -5832,17 +5940,17 @@ pp_in(self) == /\ pc[self] = "pp_in"
                                gthreads, gwhist, dwSt, dwW, dblTaken, dblW1, 
                                dblW2, nextDW, ready, cwait, cnotif, cvHeld, 
                                sdres, jpanic, sfst, slotSt, qrSent, qrWaker, 
-                               dnState, dnWaker, parkTok, barGen, myBar, cdone, 
-                               rv, rwb, rneed, stres, dsl, atomic, strong, 
-                               ppPending, ppClosed, ppNotify, ppNC, ppBP, 
-                               ppDepth, ppAlive, ppHeld, inClosed, inWaker, 
-                               pollFn, chuteFn, pwTaken, nextPoll, pjLive, 
-                               ppStage, stack, dead, sti, smax, rq, sq, sj, ww, 
-                               rsq, bown, bwk, bi, bcur, bw, bsp, jq, jj, jwk, 
-                               fj, dq, dj, oq, oop, omode, oj, yq, yop, 
-                               yclaimed, tq, top, af, wf, wop, sf, sctx, xf, 
-                               cop, kj, pp, pwk, np, nbp, nres, dp, pf, pctx, 
-                               pq, pj, pd, nq >>
+                               dnState, susDropped, dnWaker, parkTok, barGen, 
+                               myBar, cdone, rv, rwb, rneed, stres, dsl, 
+                               atomic, strong, ppPending, ppClosed, ppNotify, 
+                               ppNC, ppBP, ppDepth, ppAlive, ppHeld, inClosed, 
+                               inWaker, pollFn, chuteFn, pwTaken, nextPoll, 
+                               pjLive, ppStage, stack, dead, sti, smax, rq, sq, 
+                               sj, ww, rsq, bown, bwk, bi, bcur, bw, bsp, jq, 
+                               jj, jwk, fj, dq, dj, oq, oop, omode, oj, yq, 
+                               yop, yclaimed, tq, top, af, wf, wop, sf, sctx, 
+                               xf, cop, kj, pp, pwk, np, nbp, nres, dp, pf, 
+                               pctx, pq, pj, pd, nq >>
 
 pp_in2(self) == /\ pc[self] = "pp_in2"
                 /\ inWaker' = [inWaker EXCEPT ![pp[self]] = PW(kj[self])]
@@ -5864,10 +5972,10 @@ pp_in2(self) == /\ pc[self] = "pp_in2"
                                 gthreads, gwhist, dwSt, dwW, dblTaken, dblW1, 
                                 dblW2, nextDW, ready, cwait, cnotif, cvHeld, 
                                 sdres, jpanic, sfst, slotSt, qrSent, qrWaker, 
-                                dnState, dnWaker, parkTok, barGen, myBar, 
-                                cdone, rv, rwb, rneed, stres, dsl, atomic, 
-                                strong, ppPending, ppClosed, ppNotify, ppNC, 
-                                ppBP, ppDepth, ppAlive, ppHeld, inClosed, 
+                                dnState, susDropped, dnWaker, parkTok, barGen, 
+                                myBar, cdone, rv, rwb, rneed, stres, dsl, 
+                                atomic, strong, ppPending, ppClosed, ppNotify, 
+                                ppNC, ppBP, ppDepth, ppAlive, ppHeld, inClosed, 
                                 pollFn, chuteFn, pwTaken, nextPoll, pjLive, 
                                 ppStage, stack, dead, sti, smax, rq, sq, sj, 
                                 ww, rsq, bown, bwk, bi, bcur, bw, bsp, jq, jj, 
@@ -5896,17 +6004,17 @@ pp_reg(self) == /\ pc[self] = "pp_reg"
                                 gthreads, gwhist, dwSt, dwW, dblTaken, dblW1, 
                                 dblW2, nextDW, ready, cwait, cnotif, cvHeld, 
                                 sdres, jpanic, sfst, slotSt, qrSent, qrWaker, 
-                                dnState, dnWaker, parkTok, barGen, myBar, 
-                                cdone, rwb, rneed, stres, dsl, atomic, strong, 
-                                ppPending, ppClosed, ppNotify, ppBP, ppDepth, 
-                                ppAlive, inItems, inClosed, inWaker, pollFn, 
-                                chuteFn, pwTaken, nextPoll, ppItem, pjLive, 
-                                ppStage, h, dead, sti, smax, rq, sq, sj, ww, 
-                                rsq, bown, bwk, bi, bcur, bw, bsp, jq, jj, jwk, 
-                                fj, dq, dj, oq, oop, omode, oj, yq, yop, 
-                                yclaimed, tq, top, af, wf, wop, sf, sctx, xf, 
-                                cop, np, nbp, nres, dp, pf, pctx, pq, pj, pd, 
-                                nq >>
+                                dnState, susDropped, dnWaker, parkTok, barGen, 
+                                myBar, cdone, rwb, rneed, stres, dsl, atomic, 
+                                strong, ppPending, ppClosed, ppNotify, ppBP, 
+                                ppDepth, ppAlive, inItems, inClosed, inWaker, 
+                                pollFn, chuteFn, pwTaken, nextPoll, ppItem, 
+                                pjLive, ppStage, h, dead, sti, smax, rq, sq, 
+                                sj, ww, rsq, bown, bwk, bi, bcur, bw, bsp, jq, 
+                                jj, jwk, fj, dq, dj, oq, oop, omode, oj, yq, 
+                                yop, yclaimed, tq, top, af, wf, wop, sf, sctx, 
+                                xf, cop, np, nbp, nres, dp, pf, pctx, pq, pj, 
+                                pd, nq >>
 
 pp_end(self) == /\ pc[self] = "pp_end"
                 /\ ppClosed' = [ppClosed EXCEPT ![pp[self]] = TRUE]
@@ -5921,17 +6029,17 @@ pp_end(self) == /\ pc[self] = "pp_end"
                                 gthreads, gwhist, dwSt, dwW, dblTaken, dblW1, 
                                 dblW2, nextDW, ready, cwait, cnotif, cvHeld, 
                                 sdres, jpanic, sfst, slotSt, qrSent, qrWaker, 
-                                dnState, dnWaker, barGen, myBar, cdone, rv, 
-                                rwb, rneed, stres, dsl, atomic, strong, 
-                                ppPending, ppNC, ppBP, ppDepth, ppAlive, 
-                                inItems, inClosed, inWaker, pollFn, chuteFn, 
-                                pwTaken, nextPoll, ppItem, pjLive, ppStage, h, 
-                                stack, dead, sti, smax, rq, sq, sj, ww, rsq, 
-                                bown, bwk, bi, bcur, bw, bsp, jq, jj, jwk, fj, 
-                                dq, dj, oq, oop, omode, oj, yq, yop, yclaimed, 
-                                tq, top, af, wf, wop, sf, sctx, xf, cop, kj, 
-                                pp, pwk, np, nbp, nres, dp, pf, pctx, pq, pj, 
-                                pd, nq >>
+                                dnState, susDropped, dnWaker, barGen, myBar, 
+                                cdone, rv, rwb, rneed, stres, dsl, atomic, 
+                                strong, ppPending, ppNC, ppBP, ppDepth, 
+                                ppAlive, inItems, inClosed, inWaker, pollFn, 
+                                chuteFn, pwTaken, nextPoll, ppItem, pjLive, 
+                                ppStage, h, stack, dead, sti, smax, rq, sq, sj, 
+                                ww, rsq, bown, bwk, bi, bcur, bw, bsp, jq, jj, 
+                                jwk, fj, dq, dj, oq, oop, omode, oj, yq, yop, 
+                                yclaimed, tq, top, af, wf, wop, sf, sctx, xf, 
+                                cop, kj, pp, pwk, np, nbp, nres, dp, pf, pctx, 
+                                pq, pj, pd, nq >>
 
 pp_closed(self) == /\ pc[self] = "pp_closed"
                    /\ parkTok' = Unpark(parkTok, TaskOf(ppNotify[pp[self]]))
@@ -5945,18 +6053,18 @@ pp_closed(self) == /\ pc[self] = "pp_closed"
                                    gfired, gwaker, gthreads, gwhist, dwSt, dwW, 
                                    dblTaken, dblW1, dblW2, nextDW, ready, 
                                    cwait, cnotif, cvHeld, sdres, jpanic, sfst, 
-                                   slotSt, qrSent, qrWaker, dnState, dnWaker, 
-                                   barGen, myBar, cdone, rv, rwb, rneed, stres, 
-                                   dsl, atomic, strong, ppPending, ppClosed, 
-                                   ppNC, ppBP, ppDepth, ppAlive, inItems, 
-                                   inClosed, inWaker, pollFn, chuteFn, pwTaken, 
-                                   nextPoll, ppItem, pjLive, ppStage, h, stack, 
-                                   dead, sti, smax, rq, sq, sj, ww, rsq, bown, 
-                                   bwk, bi, bcur, bw, bsp, jq, jj, jwk, fj, dq, 
-                                   dj, oq, oop, omode, oj, yq, yop, yclaimed, 
-                                   tq, top, af, wf, wop, sf, sctx, xf, cop, kj, 
-                                   pp, pwk, np, nbp, nres, dp, pf, pctx, pq, 
-                                   pj, pd, nq >>
+                                   slotSt, qrSent, qrWaker, dnState, 
+                                   susDropped, dnWaker, barGen, myBar, cdone, 
+                                   rv, rwb, rneed, stres, dsl, atomic, strong, 
+                                   ppPending, ppClosed, ppNC, ppBP, ppDepth, 
+                                   ppAlive, inItems, inClosed, inWaker, pollFn, 
+                                   chuteFn, pwTaken, nextPoll, ppItem, pjLive, 
+                                   ppStage, h, stack, dead, sti, smax, rq, sq, 
+                                   sj, ww, rsq, bown, bwk, bi, bcur, bw, bsp, 
+                                   jq, jj, jwk, fj, dq, dj, oq, oop, omode, oj, 
+                                   yq, yop, yclaimed, tq, top, af, wf, wop, sf, 
+                                   sctx, xf, cop, kj, pp, pwk, np, nbp, nres, 
+                                   dp, pf, pctx, pq, pj, pd, nq >>
 
 pp_proc(self) == /\ pc[self] = "pp_proc"
                  /\ h' = ObsProcStart(h, self, pp[self], ppItem[kj[self]])
@@ -5968,10 +6076,10 @@ pp_proc(self) == /\ pc[self] = "pp_proc"
                                  gthreads, gwhist, dwSt, dwW, dblTaken, dblW1, 
                                  dblW2, nextDW, ready, cwait, cnotif, cvHeld, 
                                  sdres, jpanic, sfst, slotSt, qrSent, qrWaker, 
-                                 dnState, dnWaker, parkTok, barGen, myBar, 
-                                 cdone, rv, rwb, rneed, stres, dsl, atomic, 
-                                 strong, ppPending, ppClosed, ppNotify, ppNC, 
-                                 ppBP, ppDepth, ppAlive, ppHeld, inItems, 
+                                 dnState, susDropped, dnWaker, parkTok, barGen, 
+                                 myBar, cdone, rv, rwb, rneed, stres, dsl, 
+                                 atomic, strong, ppPending, ppClosed, ppNotify, 
+                                 ppNC, ppBP, ppDepth, ppAlive, ppHeld, inItems, 
                                  inClosed, inWaker, pollFn, chuteFn, pwTaken, 
                                  nextPoll, ppItem, pjLive, ppStage, stack, 
                                  dead, sti, smax, rq, sq, sj, ww, rsq, bown, 
@@ -6011,16 +6119,17 @@ pp_body(self) == /\ pc[self] = "pp_body"
                                  dwSt, dwW, dblTaken, dblW1, dblW2, nextDW, 
                                  ready, cwait, cnotif, cvHeld, sdres, jpanic, 
                                  sfst, slotSt, qrSent, qrWaker, dnState, 
-                                 dnWaker, parkTok, barGen, myBar, cdone, rwb, 
-                                 rneed, stres, dsl, atomic, strong, ppPending, 
-                                 ppClosed, ppNotify, ppNC, ppBP, ppDepth, 
-                                 ppAlive, ppHeld, inItems, inClosed, inWaker, 
-                                 pollFn, chuteFn, pwTaken, nextPoll, ppItem, 
-                                 pjLive, dead, sti, smax, rq, sq, sj, ww, rsq, 
-                                 bown, bwk, bi, bcur, bw, bsp, jq, jj, jwk, fj, 
-                                 dq, dj, oq, oop, omode, oj, yq, yop, yclaimed, 
-                                 tq, top, af, wf, wop, sf, sctx, xf, cop, np, 
-                                 nbp, nres, dp, pf, pctx, pq, pj, pd, nq >>
+                                 susDropped, dnWaker, parkTok, barGen, myBar, 
+                                 cdone, rwb, rneed, stres, dsl, atomic, strong, 
+                                 ppPending, ppClosed, ppNotify, ppNC, ppBP, 
+                                 ppDepth, ppAlive, ppHeld, inItems, inClosed, 
+                                 inWaker, pollFn, chuteFn, pwTaken, nextPoll, 
+                                 ppItem, pjLive, dead, sti, smax, rq, sq, sj, 
+                                 ww, rsq, bown, bwk, bi, bcur, bw, bsp, jq, jj, 
+                                 jwk, fj, dq, dj, oq, oop, omode, oj, yq, yop, 
+                                 yclaimed, tq, top, af, wf, wop, sf, sctx, xf, 
+                                 cop, np, nbp, nres, dp, pf, pctx, pq, pj, pd, 
+                                 nq >>
 
 pp_resumed(self) == /\ pc[self] = "pp_resumed"
                     /\ ppStage' = [ppStage EXCEPT ![kj[self]] = 0]
@@ -6035,19 +6144,19 @@ pp_resumed(self) == /\ pc[self] = "pp_resumed"
                                     gfired, gwaker, gthreads, gwhist, dwSt, 
                                     dwW, dblTaken, dblW1, dblW2, nextDW, ready, 
                                     cwait, cnotif, cvHeld, sdres, jpanic, sfst, 
-                                    slotSt, qrSent, qrWaker, dnState, dnWaker, 
-                                    parkTok, barGen, myBar, cdone, rv, rwb, 
-                                    rneed, stres, dsl, atomic, strong, 
-                                    ppPending, ppClosed, ppNotify, ppNC, ppBP, 
-                                    ppDepth, ppAlive, ppHeld, inItems, 
-                                    inClosed, inWaker, pollFn, chuteFn, 
-                                    pwTaken, nextPoll, ppItem, pjLive, stack, 
-                                    dead, sti, smax, rq, sq, sj, ww, rsq, bown, 
-                                    bwk, bi, bcur, bw, bsp, jq, jj, jwk, fj, 
-                                    dq, dj, oq, oop, omode, oj, yq, yop, 
-                                    yclaimed, tq, top, af, wf, wop, sf, sctx, 
-                                    xf, cop, kj, pp, pwk, np, nbp, nres, dp, 
-                                    pf, pctx, pq, pj, pd, nq >>
+                                    slotSt, qrSent, qrWaker, dnState, 
+                                    susDropped, dnWaker, parkTok, barGen, 
+                                    myBar, cdone, rv, rwb, rneed, stres, dsl, 
+                                    atomic, strong, ppPending, ppClosed, 
+                                    ppNotify, ppNC, ppBP, ppDepth, ppAlive, 
+                                    ppHeld, inItems, inClosed, inWaker, pollFn, 
+                                    chuteFn, pwTaken, nextPoll, ppItem, pjLive, 
+                                    stack, dead, sti, smax, rq, sq, sj, ww, 
+                                    rsq, bown, bwk, bi, bcur, bw, bsp, jq, jj, 
+                                    jwk, fj, dq, dj, oq, oop, omode, oj, yq, 
+                                    yop, yclaimed, tq, top, af, wf, wop, sf, 
+                                    sctx, xf, cop, kj, pp, pwk, np, nbp, nres, 
+                                    dp, pf, pctx, pq, pj, pd, nq >>
 
 pp_push(self) == /\ pc[self] = "pp_push"
                  /\ ppPending' = [ppPending EXCEPT ![pp[self]] = Append(ppPending[pp[self]], 10 * ppItem[kj[self]])]
@@ -6061,17 +6170,17 @@ pp_push(self) == /\ pc[self] = "pp_push"
                                  gthreads, gwhist, dwSt, dwW, dblTaken, dblW1, 
                                  dblW2, nextDW, ready, cwait, cnotif, cvHeld, 
                                  sdres, jpanic, sfst, slotSt, qrSent, qrWaker, 
-                                 dnState, dnWaker, barGen, myBar, cdone, rv, 
-                                 rwb, rneed, stres, dsl, atomic, strong, 
-                                 ppClosed, ppNC, ppBP, ppDepth, ppAlive, 
-                                 ppHeld, inItems, inClosed, inWaker, pollFn, 
-                                 chuteFn, pwTaken, nextPoll, ppItem, pjLive, 
-                                 ppStage, h, stack, dead, sti, smax, rq, sq, 
-                                 sj, ww, rsq, bown, bwk, bi, bcur, bw, bsp, jq, 
-                                 jj, jwk, fj, dq, dj, oq, oop, omode, oj, yq, 
-                                 yop, yclaimed, tq, top, af, wf, wop, sf, sctx, 
-                                 xf, cop, kj, pp, pwk, np, nbp, nres, dp, pf, 
-                                 pctx, pq, pj, pd, nq >>
+                                 dnState, susDropped, dnWaker, barGen, myBar, 
+                                 cdone, rv, rwb, rneed, stres, dsl, atomic, 
+                                 strong, ppClosed, ppNC, ppBP, ppDepth, 
+                                 ppAlive, ppHeld, inItems, inClosed, inWaker, 
+                                 pollFn, chuteFn, pwTaken, nextPoll, ppItem, 
+                                 pjLive, ppStage, h, stack, dead, sti, smax, 
+                                 rq, sq, sj, ww, rsq, bown, bwk, bi, bcur, bw, 
+                                 bsp, jq, jj, jwk, fj, dq, dj, oq, oop, omode, 
+                                 oj, yq, yop, yclaimed, tq, top, af, wf, wop, 
+                                 sf, sctx, xf, cop, kj, pp, pwk, np, nbp, nres, 
+                                 dp, pf, pctx, pq, pj, pd, nq >>
 
 pi_in(self) == /\ pc[self] = "pi_in"
                /\ IF inItems[pp[self]] # << >>
@@ -6092,17 +6201,17 @@ pi_in(self) == /\ pc[self] = "pi_in"
                                gthreads, gwhist, dwSt, dwW, dblTaken, dblW1, 
                                dblW2, nextDW, ready, cwait, cnotif, cvHeld, 
                                sdres, jpanic, sfst, slotSt, qrSent, qrWaker, 
-                               dnState, dnWaker, parkTok, barGen, myBar, cdone, 
-                               rv, rwb, rneed, stres, dsl, atomic, strong, 
-                               ppPending, ppClosed, ppNotify, ppNC, ppBP, 
-                               ppDepth, ppAlive, ppHeld, inClosed, inWaker, 
-                               pollFn, chuteFn, pwTaken, nextPoll, pjLive, 
-                               ppStage, stack, dead, sti, smax, rq, sq, sj, ww, 
-                               rsq, bown, bwk, bi, bcur, bw, bsp, jq, jj, jwk, 
-                               fj, dq, dj, oq, oop, omode, oj, yq, yop, 
-                               yclaimed, tq, top, af, wf, wop, sf, sctx, xf, 
-                               cop, kj, pp, pwk, np, nbp, nres, dp, pf, pctx, 
-                               pq, pj, pd, nq >>
+                               dnState, susDropped, dnWaker, parkTok, barGen, 
+                               myBar, cdone, rv, rwb, rneed, stres, dsl, 
+                               atomic, strong, ppPending, ppClosed, ppNotify, 
+                               ppNC, ppBP, ppDepth, ppAlive, ppHeld, inClosed, 
+                               inWaker, pollFn, chuteFn, pwTaken, nextPoll, 
+                               pjLive, ppStage, stack, dead, sti, smax, rq, sq, 
+                               sj, ww, rsq, bown, bwk, bi, bcur, bw, bsp, jq, 
+                               jj, jwk, fj, dq, dj, oq, oop, omode, oj, yq, 
+                               yop, yclaimed, tq, top, af, wf, wop, sf, sctx, 
+                               xf, cop, kj, pp, pwk, np, nbp, nres, dp, pf, 
+                               pctx, pq, pj, pd, nq >>
 
 pi_in2(self) == /\ pc[self] = "pi_in2"
                 /\ inWaker' = [inWaker EXCEPT ![pp[self]] = PW(kj[self])]
@@ -6130,16 +6239,16 @@ pi_in2(self) == /\ pc[self] = "pi_in2"
                                 gthreads, gwhist, dwSt, dwW, dblTaken, dblW1, 
                                 dblW2, nextDW, ready, cwait, cnotif, cvHeld, 
                                 sdres, jpanic, sfst, slotSt, qrSent, qrWaker, 
-                                dnState, dnWaker, parkTok, barGen, myBar, 
-                                cdone, rwb, rneed, stres, dsl, atomic, strong, 
-                                ppPending, ppClosed, ppNotify, ppNC, ppBP, 
-                                ppDepth, ppAlive, ppHeld, inClosed, pollFn, 
-                                chuteFn, pwTaken, nextPoll, pjLive, ppStage, 
-                                dead, sti, smax, rq, sq, sj, ww, rsq, bown, 
-                                bwk, bi, bcur, bw, bsp, jq, jj, jwk, fj, dq, 
-                                dj, oq, oop, omode, oj, yq, yop, yclaimed, tq, 
-                                top, af, wf, wop, sf, sctx, xf, cop, np, nbp, 
-                                nres, dp, pf, pctx, pq, pj, pd, nq >>
+                                dnState, susDropped, dnWaker, parkTok, barGen, 
+                                myBar, cdone, rwb, rneed, stres, dsl, atomic, 
+                                strong, ppPending, ppClosed, ppNotify, ppNC, 
+                                ppBP, ppDepth, ppAlive, ppHeld, inClosed, 
+                                pollFn, chuteFn, pwTaken, nextPoll, pjLive, 
+                                ppStage, dead, sti, smax, rq, sq, sj, ww, rsq, 
+                                bown, bwk, bi, bcur, bw, bsp, jq, jj, jwk, fj, 
+                                dq, dj, oq, oop, omode, oj, yq, yop, yclaimed, 
+                                tq, top, af, wf, wop, sf, sctx, xf, cop, np, 
+                                nbp, nres, dp, pf, pctx, pq, pj, pd, nq >>
 
 pp_dealloc(self) == /\ pc[self] = "pp_dealloc"
                     /\ IF pollFn[pp[self]]
@@ -6160,18 +6269,19 @@ pp_dealloc(self) == /\ pc[self] = "pp_dealloc"
                                     gfired, gwaker, gthreads, gwhist, dwSt, 
                                     dwW, dblTaken, dblW1, dblW2, nextDW, ready, 
                                     cwait, cnotif, cvHeld, sdres, jpanic, sfst, 
-                                    slotSt, qrSent, qrWaker, dnState, dnWaker, 
-                                    parkTok, barGen, myBar, cdone, rwb, rneed, 
-                                    stres, dsl, atomic, strong, ppPending, 
-                                    ppClosed, ppNotify, ppNC, ppBP, ppDepth, 
-                                    ppAlive, ppHeld, inItems, inClosed, 
-                                    inWaker, chuteFn, pwTaken, nextPoll, 
-                                    ppItem, pjLive, ppStage, dead, sti, smax, 
-                                    rq, sq, sj, ww, rsq, bown, bwk, bi, bcur, 
-                                    bw, bsp, jq, jj, jwk, fj, dq, dj, oq, oop, 
-                                    omode, oj, yq, yop, yclaimed, tq, top, af, 
-                                    wf, wop, sf, sctx, xf, cop, np, nbp, nres, 
-                                    dp, pf, pctx, pq, pj, pd, nq >>
+                                    slotSt, qrSent, qrWaker, dnState, 
+                                    susDropped, dnWaker, parkTok, barGen, 
+                                    myBar, cdone, rwb, rneed, stres, dsl, 
+                                    atomic, strong, ppPending, ppClosed, 
+                                    ppNotify, ppNC, ppBP, ppDepth, ppAlive, 
+                                    ppHeld, inItems, inClosed, inWaker, 
+                                    chuteFn, pwTaken, nextPoll, ppItem, pjLive, 
+                                    ppStage, dead, sti, smax, rq, sq, sj, ww, 
+                                    rsq, bown, bwk, bi, bcur, bw, bsp, jq, jj, 
+                                    jwk, fj, dq, dj, oq, oop, omode, oj, yq, 
+                                    yop, yclaimed, tq, top, af, wf, wop, sf, 
+                                    sctx, xf, cop, np, nbp, nres, dp, pf, pctx, 
+                                    pq, pj, pd, nq >>
 
 PipePoll(self) == z_pp_entry(self) \/ pp_fn(self) \/ pp_bp(self)
                      \/ pp_clear(self) \/ pp_in(self) \/ pp_in2(self)
@@ -6212,16 +6322,16 @@ cn_poll(self) == /\ pc[self] = "cn_poll"
                                  gthreads, gwhist, dwSt, dwW, dblTaken, dblW1, 
                                  dblW2, nextDW, ready, cwait, cnotif, cvHeld, 
                                  sdres, jpanic, sfst, slotSt, qrSent, qrWaker, 
-                                 dnState, dnWaker, parkTok, barGen, myBar, 
-                                 cdone, rwb, rneed, stres, dsl, atomic, strong, 
-                                 ppClosed, ppNC, ppDepth, ppAlive, ppHeld, 
-                                 inItems, inClosed, inWaker, pollFn, chuteFn, 
-                                 pwTaken, nextPoll, ppItem, pjLive, ppStage, h, 
-                                 dead, sti, smax, rq, sq, sj, rsq, bown, bwk, 
-                                 bi, bcur, bw, bsp, jq, jj, jwk, fj, dq, dj, 
-                                 oq, oop, omode, oj, yq, yop, yclaimed, tq, 
-                                 top, af, wf, wop, sf, sctx, xf, cop, kj, pp, 
-                                 pwk, np, dp, pf, pctx, pq, pj, pd, nq >>
+                                 dnState, susDropped, dnWaker, parkTok, barGen, 
+                                 myBar, cdone, rwb, rneed, stres, dsl, atomic, 
+                                 strong, ppClosed, ppNC, ppDepth, ppAlive, 
+                                 ppHeld, inItems, inClosed, inWaker, pollFn, 
+                                 chuteFn, pwTaken, nextPoll, ppItem, pjLive, 
+                                 ppStage, h, dead, sti, smax, rq, sq, sj, rsq, 
+                                 bown, bwk, bi, bcur, bw, bsp, jq, jj, jwk, fj, 
+                                 dq, dj, oq, oop, omode, oj, yq, yop, yclaimed, 
+                                 tq, top, af, wf, wop, sf, sctx, xf, cop, kj, 
+                                 pp, pwk, np, dp, pf, pctx, pq, pj, pd, nq >>
 
 z_cn_after(self) == /\ pc[self] = "z_cn_after"
                     /\ IF rv[self] = 5
@@ -6240,19 +6350,19 @@ z_cn_after(self) == /\ pc[self] = "z_cn_after"
                                     gfired, gwaker, gthreads, gwhist, dwSt, 
                                     dwW, dblTaken, dblW1, dblW2, nextDW, ready, 
                                     cwait, cnotif, cvHeld, sdres, jpanic, sfst, 
-                                    slotSt, qrSent, qrWaker, dnState, dnWaker, 
-                                    parkTok, barGen, myBar, cdone, rv, rwb, 
-                                    rneed, stres, dsl, atomic, strong, 
-                                    ppPending, ppClosed, ppNotify, ppNC, ppBP, 
-                                    ppDepth, ppAlive, ppHeld, inItems, 
-                                    inClosed, inWaker, pollFn, chuteFn, 
-                                    pwTaken, nextPoll, ppItem, pjLive, ppStage, 
-                                    dead, sti, smax, rq, sq, sj, ww, rsq, bown, 
-                                    bwk, bi, bcur, bw, bsp, jq, jj, jwk, fj, 
-                                    dq, dj, oq, oop, omode, oj, yq, yop, 
-                                    yclaimed, tq, top, af, wf, wop, sf, sctx, 
-                                    xf, cop, kj, pp, pwk, dp, pf, pctx, pq, pj, 
-                                    pd, nq >>
+                                    slotSt, qrSent, qrWaker, dnState, 
+                                    susDropped, dnWaker, parkTok, barGen, 
+                                    myBar, cdone, rv, rwb, rneed, stres, dsl, 
+                                    atomic, strong, ppPending, ppClosed, 
+                                    ppNotify, ppNC, ppBP, ppDepth, ppAlive, 
+                                    ppHeld, inItems, inClosed, inWaker, pollFn, 
+                                    chuteFn, pwTaken, nextPoll, ppItem, pjLive, 
+                                    ppStage, dead, sti, smax, rq, sq, sj, ww, 
+                                    rsq, bown, bwk, bi, bcur, bw, bsp, jq, jj, 
+                                    jwk, fj, dq, dj, oq, oop, omode, oj, yq, 
+                                    yop, yclaimed, tq, top, af, wf, wop, sf, 
+                                    sctx, xf, cop, kj, pp, pwk, dp, pf, pctx, 
+                                    pq, pj, pd, nq >>
 
 cn_park(self) == /\ pc[self] = "cn_park"
                  /\ parkTok[self]
@@ -6265,17 +6375,18 @@ cn_park(self) == /\ pc[self] = "cn_park"
                                  gthreads, gwhist, dwSt, dwW, dblTaken, dblW1, 
                                  dblW2, nextDW, ready, cwait, cnotif, cvHeld, 
                                  sdres, jpanic, sfst, slotSt, qrSent, qrWaker, 
-                                 dnState, dnWaker, barGen, myBar, cdone, rv, 
-                                 rwb, rneed, stres, dsl, atomic, strong, 
-                                 ppPending, ppClosed, ppNotify, ppNC, ppBP, 
-                                 ppDepth, ppAlive, ppHeld, inItems, inClosed, 
-                                 inWaker, pollFn, chuteFn, pwTaken, nextPoll, 
-                                 ppItem, pjLive, ppStage, h, stack, dead, sti, 
-                                 smax, rq, sq, sj, ww, rsq, bown, bwk, bi, 
-                                 bcur, bw, bsp, jq, jj, jwk, fj, dq, dj, oq, 
-                                 oop, omode, oj, yq, yop, yclaimed, tq, top, 
-                                 af, wf, wop, sf, sctx, xf, cop, kj, pp, pwk, 
-                                 np, nbp, nres, dp, pf, pctx, pq, pj, pd, nq >>
+                                 dnState, susDropped, dnWaker, barGen, myBar, 
+                                 cdone, rv, rwb, rneed, stres, dsl, atomic, 
+                                 strong, ppPending, ppClosed, ppNotify, ppNC, 
+                                 ppBP, ppDepth, ppAlive, ppHeld, inItems, 
+                                 inClosed, inWaker, pollFn, chuteFn, pwTaken, 
+                                 nextPoll, ppItem, pjLive, ppStage, h, stack, 
+                                 dead, sti, smax, rq, sq, sj, ww, rsq, bown, 
+                                 bwk, bi, bcur, bw, bsp, jq, jj, jwk, fj, dq, 
+                                 dj, oq, oop, omode, oj, yq, yop, yclaimed, tq, 
+                                 top, af, wf, wop, sf, sctx, xf, cop, kj, pp, 
+                                 pwk, np, nbp, nres, dp, pf, pctx, pq, pj, pd, 
+                                 nq >>
 
 PipeNext(self) == cn_poll(self) \/ z_cn_after(self) \/ cn_park(self)
 
@@ -6299,17 +6410,17 @@ ps_drop(self) == /\ pc[self] = "ps_drop"
                                  gthreads, gwhist, dwSt, dwW, dblTaken, dblW1, 
                                  dblW2, nextDW, ready, cwait, cnotif, cvHeld, 
                                  sdres, jpanic, sfst, slotSt, qrSent, qrWaker, 
-                                 dnState, dnWaker, parkTok, barGen, myBar, 
-                                 cdone, rv, rwb, rneed, stres, dsl, strong, 
-                                 ppNotify, ppNC, ppBP, ppDepth, ppAlive, 
-                                 ppHeld, inItems, inClosed, inWaker, pollFn, 
-                                 chuteFn, pwTaken, nextPoll, ppItem, pjLive, 
-                                 ppStage, h, dead, sti, smax, rq, sq, sj, rsq, 
-                                 bown, bwk, bi, bcur, bw, bsp, jq, jj, jwk, fj, 
-                                 dq, dj, oq, oop, omode, oj, yq, yop, yclaimed, 
-                                 tq, top, af, wf, wop, sf, sctx, xf, cop, kj, 
-                                 pp, pwk, np, nbp, nres, dp, pf, pctx, pq, pj, 
-                                 pd, nq >>
+                                 dnState, susDropped, dnWaker, parkTok, barGen, 
+                                 myBar, cdone, rv, rwb, rneed, stres, dsl, 
+                                 strong, ppNotify, ppNC, ppBP, ppDepth, 
+                                 ppAlive, ppHeld, inItems, inClosed, inWaker, 
+                                 pollFn, chuteFn, pwTaken, nextPoll, ppItem, 
+                                 pjLive, ppStage, h, dead, sti, smax, rq, sq, 
+                                 sj, rsq, bown, bwk, bi, bcur, bw, bsp, jq, jj, 
+                                 jwk, fj, dq, dj, oq, oop, omode, oj, yq, yop, 
+                                 yclaimed, tq, top, af, wf, wop, sf, sctx, xf, 
+                                 cop, kj, pp, pwk, np, nbp, nres, dp, pf, pctx, 
+                                 pq, pj, pd, nq >>
 
 z_ps2(self) == /\ pc[self] = "z_ps2"
                /\ ppNC' = [ppNC EXCEPT ![dp[self]] = NoW]
@@ -6328,17 +6439,18 @@ z_ps2(self) == /\ pc[self] = "z_ps2"
                                fres, fwaker, gfired, gwaker, gthreads, gwhist, 
                                dwSt, dwW, dblTaken, dblW1, dblW2, nextDW, 
                                ready, cwait, cnotif, cvHeld, sdres, jpanic, 
-                               sfst, slotSt, qrSent, qrWaker, dnState, dnWaker, 
-                               parkTok, barGen, myBar, cdone, rv, rwb, rneed, 
-                               stres, dsl, atomic, strong, ppPending, ppClosed, 
-                               ppNotify, ppBP, ppDepth, ppAlive, ppHeld, 
-                               inItems, inClosed, inWaker, pollFn, chuteFn, 
-                               pwTaken, nextPoll, ppItem, pjLive, ppStage, h, 
-                               dead, sti, smax, rq, ww, rsq, bown, bwk, bi, 
-                               bcur, bw, bsp, jq, jj, jwk, fj, dq, dj, oq, oop, 
-                               omode, oj, yq, yop, yclaimed, tq, top, af, wf, 
-                               wop, sf, sctx, xf, cop, kj, pp, pwk, np, nbp, 
-                               nres, dp, pf, pctx, pq, pj, pd, nq >>
+                               sfst, slotSt, qrSent, qrWaker, dnState, 
+                               susDropped, dnWaker, parkTok, barGen, myBar, 
+                               cdone, rv, rwb, rneed, stres, dsl, atomic, 
+                               strong, ppPending, ppClosed, ppNotify, ppBP, 
+                               ppDepth, ppAlive, ppHeld, inItems, inClosed, 
+                               inWaker, pollFn, chuteFn, pwTaken, nextPoll, 
+                               ppItem, pjLive, ppStage, h, dead, sti, smax, rq, 
+                               ww, rsq, bown, bwk, bi, bcur, bw, bsp, jq, jj, 
+                               jwk, fj, dq, dj, oq, oop, omode, oj, yq, yop, 
+                               yclaimed, tq, top, af, wf, wop, sf, sctx, xf, 
+                               cop, kj, pp, pwk, np, nbp, nres, dp, pf, pctx, 
+                               pq, pj, pd, nq >>
 
 z_ps3(self) == /\ pc[self] = "z_ps3"
                /\ atomic' = [atomic EXCEPT ![self] = FALSE]
@@ -6352,17 +6464,17 @@ z_ps3(self) == /\ pc[self] = "z_ps3"
                                gthreads, gwhist, dwSt, dwW, dblTaken, dblW1, 
                                dblW2, nextDW, ready, cwait, cnotif, cvHeld, 
                                sdres, jpanic, sfst, slotSt, qrSent, qrWaker, 
-                               dnState, dnWaker, parkTok, barGen, myBar, cdone, 
-                               rwb, rneed, stres, dsl, strong, ppPending, 
-                               ppClosed, ppNotify, ppNC, ppBP, ppDepth, ppHeld, 
-                               inItems, inClosed, inWaker, pollFn, chuteFn, 
-                               pwTaken, nextPoll, ppItem, pjLive, ppStage, h, 
-                               stack, dead, sti, smax, rq, sq, sj, ww, rsq, 
-                               bown, bwk, bi, bcur, bw, bsp, jq, jj, jwk, fj, 
-                               dq, dj, oq, oop, omode, oj, yq, yop, yclaimed, 
-                               tq, top, af, wf, wop, sf, sctx, xf, cop, kj, pp, 
-                               pwk, np, nbp, nres, dp, pf, pctx, pq, pj, pd, 
-                               nq >>
+                               dnState, susDropped, dnWaker, parkTok, barGen, 
+                               myBar, cdone, rwb, rneed, stres, dsl, strong, 
+                               ppPending, ppClosed, ppNotify, ppNC, ppBP, 
+                               ppDepth, ppHeld, inItems, inClosed, inWaker, 
+                               pollFn, chuteFn, pwTaken, nextPoll, ppItem, 
+                               pjLive, ppStage, h, stack, dead, sti, smax, rq, 
+                               sq, sj, ww, rsq, bown, bwk, bi, bcur, bw, bsp, 
+                               jq, jj, jwk, fj, dq, dj, oq, oop, omode, oj, yq, 
+                               yop, yclaimed, tq, top, af, wf, wop, sf, sctx, 
+                               xf, cop, kj, pp, pwk, np, nbp, nres, dp, pf, 
+                               pctx, pq, pj, pd, nq >>
 
 z_ps_gc(self) == /\ pc[self] = "z_ps_gc"
                  /\ IF pollFn[dp[self]] /\ ~CtxAlive(dp[self])
@@ -6380,10 +6492,10 @@ z_ps_gc(self) == /\ pc[self] = "z_ps_gc"
                                  gthreads, gwhist, dwSt, dwW, dblTaken, dblW1, 
                                  dblW2, nextDW, ready, cwait, cnotif, cvHeld, 
                                  sdres, jpanic, sfst, slotSt, qrSent, qrWaker, 
-                                 dnState, dnWaker, parkTok, barGen, myBar, 
-                                 cdone, rv, rwb, rneed, stres, dsl, atomic, 
-                                 strong, ppPending, ppClosed, ppNotify, ppNC, 
-                                 ppBP, ppDepth, ppAlive, ppHeld, inItems, 
+                                 dnState, susDropped, dnWaker, parkTok, barGen, 
+                                 myBar, cdone, rv, rwb, rneed, stres, dsl, 
+                                 atomic, strong, ppPending, ppClosed, ppNotify, 
+                                 ppNC, ppBP, ppDepth, ppAlive, ppHeld, inItems, 
                                  inClosed, inWaker, chuteFn, pwTaken, nextPoll, 
                                  ppItem, pjLive, ppStage, dead, sti, smax, rq, 
                                  sq, sj, ww, rsq, bown, bwk, bi, bcur, bw, bsp, 
@@ -6405,10 +6517,10 @@ ds_max(self) == /\ pc[self] = "ds_max"
                                 gthreads, gwhist, dwSt, dwW, dblTaken, dblW1, 
                                 dblW2, nextDW, ready, cwait, cnotif, cvHeld, 
                                 sdres, jpanic, sfst, slotSt, qrSent, qrWaker, 
-                                dnState, dnWaker, parkTok, barGen, myBar, 
-                                cdone, rv, rwb, rneed, stres, dsl, atomic, 
-                                strong, ppPending, ppClosed, ppNotify, ppNC, 
-                                ppBP, ppDepth, ppAlive, ppHeld, inItems, 
+                                dnState, susDropped, dnWaker, parkTok, barGen, 
+                                myBar, cdone, rv, rwb, rneed, stres, dsl, 
+                                atomic, strong, ppPending, ppClosed, ppNotify, 
+                                ppNC, ppBP, ppDepth, ppAlive, ppHeld, inItems, 
                                 inClosed, inWaker, pollFn, chuteFn, pwTaken, 
                                 nextPoll, ppItem, pjLive, ppStage, h, stack, 
                                 dead, sti, smax, rq, sq, sj, ww, rsq, bown, 
@@ -6435,18 +6547,18 @@ ds_pop(self) == /\ pc[self] = "ds_pop"
                                 fwaker, gfired, gwaker, gthreads, gwhist, dwSt, 
                                 dwW, dblTaken, dblW1, dblW2, nextDW, ready, 
                                 cwait, cnotif, cvHeld, sdres, jpanic, sfst, 
-                                slotSt, qrSent, qrWaker, dnState, dnWaker, 
-                                parkTok, barGen, myBar, cdone, rwb, rneed, 
-                                stres, atomic, strong, ppPending, ppClosed, 
-                                ppNotify, ppNC, ppBP, ppDepth, ppAlive, ppHeld, 
-                                inItems, inClosed, inWaker, pollFn, chuteFn, 
-                                pwTaken, nextPoll, ppItem, pjLive, ppStage, h, 
-                                dead, sti, smax, rq, sq, sj, ww, rsq, bown, 
-                                bwk, bi, bcur, bw, bsp, jq, jj, jwk, fj, dq, 
-                                dj, oq, oop, omode, oj, yq, yop, yclaimed, tq, 
-                                top, af, wf, wop, sf, sctx, xf, cop, kj, pp, 
-                                pwk, np, nbp, nres, dp, pf, pctx, pq, pj, pd, 
-                                nq >>
+                                slotSt, qrSent, qrWaker, dnState, susDropped, 
+                                dnWaker, parkTok, barGen, myBar, cdone, rwb, 
+                                rneed, stres, atomic, strong, ppPending, 
+                                ppClosed, ppNotify, ppNC, ppBP, ppDepth, 
+                                ppAlive, ppHeld, inItems, inClosed, inWaker, 
+                                pollFn, chuteFn, pwTaken, nextPoll, ppItem, 
+                                pjLive, ppStage, h, dead, sti, smax, rq, sq, 
+                                sj, ww, rsq, bown, bwk, bi, bcur, bw, bsp, jq, 
+                                jj, jwk, fj, dq, dj, oq, oop, omode, oj, yq, 
+                                yop, yclaimed, tq, top, af, wf, wop, sf, sctx, 
+                                xf, cop, kj, pp, pwk, np, nbp, nres, dp, pf, 
+                                pctx, pq, pj, pd, nq >>
 
 ds_join(self) == /\ pc[self] = "ds_join"
                  /\ pfin[Head(dsl[self])]
@@ -6465,17 +6577,17 @@ ds_join(self) == /\ pc[self] = "ds_join"
                                  gthreads, gwhist, dwSt, dwW, dblTaken, dblW1, 
                                  dblW2, nextDW, ready, cwait, cnotif, cvHeld, 
                                  sdres, jpanic, sfst, slotSt, qrSent, qrWaker, 
-                                 dnState, dnWaker, parkTok, barGen, myBar, 
-                                 cdone, rwb, rneed, stres, atomic, strong, 
-                                 ppPending, ppClosed, ppNotify, ppNC, ppBP, 
-                                 ppDepth, ppAlive, ppHeld, inItems, inClosed, 
-                                 inWaker, pollFn, chuteFn, pwTaken, nextPoll, 
-                                 ppItem, pjLive, ppStage, dead, sti, smax, rq, 
-                                 sq, sj, ww, rsq, bown, bwk, bi, bcur, bw, bsp, 
-                                 jq, jj, jwk, fj, dq, dj, oq, oop, omode, oj, 
-                                 yq, yop, yclaimed, tq, top, af, wf, wop, sf, 
-                                 sctx, xf, cop, kj, pp, pwk, np, nbp, nres, dp, 
-                                 pf, pctx, pq, pj, pd, nq >>
+                                 dnState, susDropped, dnWaker, parkTok, barGen, 
+                                 myBar, cdone, rwb, rneed, stres, atomic, 
+                                 strong, ppPending, ppClosed, ppNotify, ppNC, 
+                                 ppBP, ppDepth, ppAlive, ppHeld, inItems, 
+                                 inClosed, inWaker, pollFn, chuteFn, pwTaken, 
+                                 nextPoll, ppItem, pjLive, ppStage, dead, sti, 
+                                 smax, rq, sq, sj, ww, rsq, bown, bwk, bi, 
+                                 bcur, bw, bsp, jq, jj, jwk, fj, dq, dj, oq, 
+                                 oop, omode, oj, yq, yop, yclaimed, tq, top, 
+                                 af, wf, wop, sf, sctx, xf, cop, kj, pp, pwk, 
+                                 np, nbp, nres, dp, pf, pctx, pq, pj, pd, nq >>
 
 Despawn(self) == ds_max(self) \/ ds_pop(self) \/ ds_join(self)
 
@@ -6545,18 +6657,18 @@ pf_decide(self) == /\ pc[self] = "pf_decide"
                                    jaw, gfired, gwaker, gthreads, gwhist, dwSt, 
                                    dwW, dblTaken, dblW1, dblW2, nextDW, ready, 
                                    cwait, cnotif, cvHeld, sdres, jpanic, sfst, 
-                                   slotSt, qrSent, qrWaker, dnState, dnWaker, 
-                                   parkTok, barGen, myBar, cdone, rwb, rneed, 
-                                   stres, dsl, atomic, strong, ppPending, 
-                                   ppClosed, ppNotify, ppNC, ppBP, ppDepth, 
-                                   ppAlive, ppHeld, inItems, inClosed, inWaker, 
-                                   pollFn, chuteFn, pwTaken, nextPoll, ppItem, 
-                                   pjLive, ppStage, h, dead, sti, smax, rq, sq, 
-                                   sj, ww, rsq, bown, bwk, bi, bcur, bw, bsp, 
-                                   jq, jj, jwk, fj, dq, dj, oq, oop, omode, oj, 
-                                   yq, yop, yclaimed, tq, top, af, wf, wop, sf, 
-                                   sctx, xf, cop, kj, pp, pwk, np, nbp, nres, 
-                                   dp, nq >>
+                                   slotSt, qrSent, qrWaker, dnState, 
+                                   susDropped, dnWaker, parkTok, barGen, myBar, 
+                                   cdone, rwb, rneed, stres, dsl, atomic, 
+                                   strong, ppPending, ppClosed, ppNotify, ppNC, 
+                                   ppBP, ppDepth, ppAlive, ppHeld, inItems, 
+                                   inClosed, inWaker, pollFn, chuteFn, pwTaken, 
+                                   nextPoll, ppItem, pjLive, ppStage, h, dead, 
+                                   sti, smax, rq, sq, sj, ww, rsq, bown, bwk, 
+                                   bi, bcur, bw, bsp, jq, jj, jwk, fj, dq, dj, 
+                                   oq, oop, omode, oj, yq, yop, yclaimed, tq, 
+                                   top, af, wf, wop, sf, sctx, xf, cop, kj, pp, 
+                                   pwk, np, nbp, nres, dp, nq >>
 
 dq_res(self) == /\ pc[self] = "dq_res"
                 /\ IF fres[pf[self]] = "some"
@@ -6576,17 +6688,17 @@ dq_res(self) == /\ pc[self] = "dq_res"
                                 gwhist, dwSt, dwW, dblTaken, dblW1, dblW2, 
                                 nextDW, ready, cwait, cnotif, cvHeld, sdres, 
                                 jpanic, sfst, slotSt, qrSent, qrWaker, dnState, 
-                                dnWaker, parkTok, barGen, myBar, cdone, rwb, 
-                                rneed, stres, dsl, atomic, strong, ppPending, 
-                                ppClosed, ppNotify, ppNC, ppBP, ppDepth, 
-                                ppAlive, ppHeld, inItems, inClosed, inWaker, 
-                                pollFn, chuteFn, pwTaken, nextPoll, ppItem, 
-                                pjLive, ppStage, h, stack, dead, sti, smax, rq, 
-                                sq, sj, ww, rsq, bown, bwk, bi, bcur, bw, bsp, 
-                                jq, jj, jwk, fj, dq, dj, oq, oop, omode, oj, 
-                                yq, yop, yclaimed, tq, top, af, wf, wop, sf, 
-                                sctx, xf, cop, kj, pp, pwk, np, nbp, nres, dp, 
-                                pf, pctx, pq, pj, pd, nq >>
+                                susDropped, dnWaker, parkTok, barGen, myBar, 
+                                cdone, rwb, rneed, stres, dsl, atomic, strong, 
+                                ppPending, ppClosed, ppNotify, ppNC, ppBP, 
+                                ppDepth, ppAlive, ppHeld, inItems, inClosed, 
+                                inWaker, pollFn, chuteFn, pwTaken, nextPoll, 
+                                ppItem, pjLive, ppStage, h, stack, dead, sti, 
+                                smax, rq, sq, sj, ww, rsq, bown, bwk, bi, bcur, 
+                                bw, bsp, jq, jj, jwk, fj, dq, dj, oq, oop, 
+                                omode, oj, yq, yop, yclaimed, tq, top, af, wf, 
+                                wop, sf, sctx, xf, cop, kj, pp, pwk, np, nbp, 
+                                nres, dp, pf, pctx, pq, pj, pd, nq >>
 
 dq_deq(self) == /\ pc[self] = "dq_deq"
                 /\ IF qstate[pq[self]] \in Waiting \/ jobs[pq[self]] = << >>
@@ -6614,17 +6726,17 @@ dq_deq(self) == /\ pc[self] = "dq_deq"
                                 gwhist, dwSt, dwW, dblTaken, dblW1, dblW2, 
                                 ready, cwait, cnotif, cvHeld, sdres, jpanic, 
                                 sfst, slotSt, qrSent, qrWaker, dnState, 
-                                dnWaker, parkTok, barGen, myBar, cdone, rv, 
-                                rwb, rneed, stres, dsl, atomic, strong, 
-                                ppPending, ppClosed, ppNotify, ppNC, ppBP, 
-                                ppDepth, ppAlive, ppHeld, inItems, inClosed, 
-                                inWaker, pollFn, chuteFn, pwTaken, nextPoll, 
-                                ppItem, pjLive, ppStage, h, dead, sti, smax, 
-                                rq, sq, sj, ww, rsq, bown, bwk, bi, bcur, bw, 
-                                bsp, fj, dq, dj, oq, oop, omode, oj, yq, yop, 
-                                yclaimed, tq, top, af, wf, wop, sf, sctx, xf, 
-                                cop, kj, pp, pwk, np, nbp, nres, dp, pf, pctx, 
-                                pq, nq >>
+                                susDropped, dnWaker, parkTok, barGen, myBar, 
+                                cdone, rv, rwb, rneed, stres, dsl, atomic, 
+                                strong, ppPending, ppClosed, ppNotify, ppNC, 
+                                ppBP, ppDepth, ppAlive, ppHeld, inItems, 
+                                inClosed, inWaker, pollFn, chuteFn, pwTaken, 
+                                nextPoll, ppItem, pjLive, ppStage, h, dead, 
+                                sti, smax, rq, sq, sj, ww, rsq, bown, bwk, bi, 
+                                bcur, bw, bsp, fj, dq, dj, oq, oop, omode, oj, 
+                                yq, yop, yclaimed, tq, top, af, wf, wop, sf, 
+                                sctx, xf, cop, kj, pp, pwk, np, nbp, nres, dp, 
+                                pf, pctx, pq, nq >>
 
 z_dq_after(self) == /\ pc[self] = "z_dq_after"
                     /\ IF rv[self] = 5
@@ -6656,19 +6768,19 @@ z_dq_after(self) == /\ pc[self] = "z_dq_after"
                                     gfired, gwaker, gthreads, gwhist, dwSt, 
                                     dwW, dblTaken, dblW1, dblW2, nextDW, ready, 
                                     cwait, cnotif, cvHeld, sdres, jpanic, sfst, 
-                                    slotSt, qrSent, qrWaker, dnState, dnWaker, 
-                                    parkTok, barGen, myBar, cdone, rv, rwb, 
-                                    rneed, stres, dsl, atomic, strong, 
-                                    ppPending, ppClosed, ppNotify, ppNC, ppBP, 
-                                    ppDepth, ppAlive, ppHeld, inItems, 
-                                    inClosed, inWaker, pollFn, chuteFn, 
-                                    pwTaken, nextPoll, ppItem, pjLive, ppStage, 
-                                    h, dead, sti, smax, rq, sq, sj, ww, rsq, 
-                                    bown, bwk, bi, bcur, bw, bsp, jq, jj, jwk, 
-                                    dq, dj, oq, oop, omode, oj, yq, yop, 
-                                    yclaimed, tq, top, af, wf, wop, sf, sctx, 
-                                    xf, cop, kj, pp, pwk, np, nbp, nres, dp, 
-                                    pf, pctx, pq, pj, pd, nq >>
+                                    slotSt, qrSent, qrWaker, dnState, 
+                                    susDropped, dnWaker, parkTok, barGen, 
+                                    myBar, cdone, rv, rwb, rneed, stres, dsl, 
+                                    atomic, strong, ppPending, ppClosed, 
+                                    ppNotify, ppNC, ppBP, ppDepth, ppAlive, 
+                                    ppHeld, inItems, inClosed, inWaker, pollFn, 
+                                    chuteFn, pwTaken, nextPoll, ppItem, pjLive, 
+                                    ppStage, h, dead, sti, smax, rq, sq, sj, 
+                                    ww, rsq, bown, bwk, bi, bcur, bw, bsp, jq, 
+                                    jj, jwk, dq, dj, oq, oop, omode, oj, yq, 
+                                    yop, yclaimed, tq, top, af, wf, wop, sf, 
+                                    sctx, xf, cop, kj, pp, pwk, np, nbp, nres, 
+                                    dp, pf, pctx, pq, pj, pd, nq >>
 
 dq_requeue(self) == /\ pc[self] = "dq_requeue"
                     /\ jobs' = [jobs EXCEPT ![pq[self]] = << pj[self] >> \o jobs[pq[self]]]
@@ -6680,19 +6792,19 @@ dq_requeue(self) == /\ pc[self] = "dq_requeue"
                                     gfired, gwaker, gthreads, gwhist, dwSt, 
                                     dwW, dblTaken, dblW1, dblW2, nextDW, ready, 
                                     cwait, cnotif, cvHeld, sdres, jpanic, sfst, 
-                                    slotSt, qrSent, qrWaker, dnState, dnWaker, 
-                                    parkTok, barGen, myBar, cdone, rv, rwb, 
-                                    rneed, stres, dsl, atomic, strong, 
-                                    ppPending, ppClosed, ppNotify, ppNC, ppBP, 
-                                    ppDepth, ppAlive, ppHeld, inItems, 
-                                    inClosed, inWaker, pollFn, chuteFn, 
-                                    pwTaken, nextPoll, ppItem, pjLive, ppStage, 
-                                    h, stack, dead, sti, smax, rq, sq, sj, ww, 
-                                    rsq, bown, bwk, bi, bcur, bw, bsp, jq, jj, 
-                                    jwk, fj, dq, dj, oq, oop, omode, oj, yq, 
-                                    yop, yclaimed, tq, top, af, wf, wop, sf, 
-                                    sctx, xf, cop, kj, pp, pwk, np, nbp, nres, 
-                                    dp, pf, pctx, pq, pj, pd, nq >>
+                                    slotSt, qrSent, qrWaker, dnState, 
+                                    susDropped, dnWaker, parkTok, barGen, 
+                                    myBar, cdone, rv, rwb, rneed, stres, dsl, 
+                                    atomic, strong, ppPending, ppClosed, 
+                                    ppNotify, ppNC, ppBP, ppDepth, ppAlive, 
+                                    ppHeld, inItems, inClosed, inWaker, pollFn, 
+                                    chuteFn, pwTaken, nextPoll, ppItem, pjLive, 
+                                    ppStage, h, stack, dead, sti, smax, rq, sq, 
+                                    sj, ww, rsq, bown, bwk, bi, bcur, bw, bsp, 
+                                    jq, jj, jwk, fj, dq, dj, oq, oop, omode, 
+                                    oj, yq, yop, yclaimed, tq, top, af, wf, 
+                                    wop, sf, sctx, xf, cop, kj, pp, pwk, np, 
+                                    nbp, nres, dp, pf, pctx, pq, pj, pd, nq >>
 
 dq_res2(self) == /\ pc[self] = "dq_res2"
                  /\ IF fres[pf[self]] = "some"
@@ -6712,17 +6824,18 @@ dq_res2(self) == /\ pc[self] = "dq_res2"
                                  gwhist, dwSt, dwW, dblTaken, dblW1, dblW2, 
                                  nextDW, ready, cwait, cnotif, cvHeld, sdres, 
                                  jpanic, sfst, slotSt, qrSent, qrWaker, 
-                                 dnState, dnWaker, parkTok, barGen, myBar, 
-                                 cdone, rwb, rneed, stres, dsl, atomic, strong, 
-                                 ppPending, ppClosed, ppNotify, ppNC, ppBP, 
-                                 ppDepth, ppAlive, ppHeld, inItems, inClosed, 
-                                 inWaker, pollFn, chuteFn, pwTaken, nextPoll, 
-                                 ppItem, pjLive, ppStage, h, stack, dead, sti, 
-                                 smax, rq, sq, sj, ww, rsq, bown, bwk, bi, 
-                                 bcur, bw, bsp, jq, jj, jwk, fj, dq, dj, oq, 
-                                 oop, omode, oj, yq, yop, yclaimed, tq, top, 
-                                 af, wf, wop, sf, sctx, xf, cop, kj, pp, pwk, 
-                                 np, nbp, nres, dp, pf, pctx, pq, pj, pd, nq >>
+                                 dnState, susDropped, dnWaker, parkTok, barGen, 
+                                 myBar, cdone, rwb, rneed, stres, dsl, atomic, 
+                                 strong, ppPending, ppClosed, ppNotify, ppNC, 
+                                 ppBP, ppDepth, ppAlive, ppHeld, inItems, 
+                                 inClosed, inWaker, pollFn, chuteFn, pwTaken, 
+                                 nextPoll, ppItem, pjLive, ppStage, h, stack, 
+                                 dead, sti, smax, rq, sq, sj, ww, rsq, bown, 
+                                 bwk, bi, bcur, bw, bsp, jq, jj, jwk, fj, dq, 
+                                 dj, oq, oop, omode, oj, yq, yop, yclaimed, tq, 
+                                 top, af, wf, wop, sf, sctx, xf, cop, kj, pp, 
+                                 pwk, np, nbp, nres, dp, pf, pctx, pq, pj, pd, 
+                                 nq >>
 
 dq_waitwake(self) == /\ pc[self] = "dq_waitwake"
                      /\ qstate' = [qstate EXCEPT ![pq[self]] = "WaitingForWake"]
@@ -6735,19 +6848,19 @@ dq_waitwake(self) == /\ pc[self] = "dq_waitwake"
                                      dwSt, dwW, dblTaken, dblW1, dblW2, nextDW, 
                                      ready, cwait, cnotif, cvHeld, sdres, 
                                      jpanic, sfst, slotSt, qrSent, qrWaker, 
-                                     dnState, dnWaker, parkTok, barGen, myBar, 
-                                     cdone, rv, rwb, rneed, stres, dsl, atomic, 
-                                     strong, ppPending, ppClosed, ppNotify, 
-                                     ppNC, ppBP, ppDepth, ppAlive, ppHeld, 
-                                     inItems, inClosed, inWaker, pollFn, 
-                                     chuteFn, pwTaken, nextPoll, ppItem, 
-                                     pjLive, ppStage, h, stack, dead, sti, 
-                                     smax, rq, sq, sj, ww, rsq, bown, bwk, bi, 
-                                     bcur, bw, bsp, jq, jj, jwk, fj, dq, dj, 
-                                     oq, oop, omode, oj, yq, yop, yclaimed, tq, 
-                                     top, af, wf, wop, sf, sctx, xf, cop, kj, 
-                                     pp, pwk, np, nbp, nres, dp, pf, pctx, pq, 
-                                     pj, pd, nq >>
+                                     dnState, susDropped, dnWaker, parkTok, 
+                                     barGen, myBar, cdone, rv, rwb, rneed, 
+                                     stres, dsl, atomic, strong, ppPending, 
+                                     ppClosed, ppNotify, ppNC, ppBP, ppDepth, 
+                                     ppAlive, ppHeld, inItems, inClosed, 
+                                     inWaker, pollFn, chuteFn, pwTaken, 
+                                     nextPoll, ppItem, pjLive, ppStage, h, 
+                                     stack, dead, sti, smax, rq, sq, sj, ww, 
+                                     rsq, bown, bwk, bi, bcur, bw, bsp, jq, jj, 
+                                     jwk, fj, dq, dj, oq, oop, omode, oj, yq, 
+                                     yop, yclaimed, tq, top, af, wf, wop, sf, 
+                                     sctx, xf, cop, kj, pp, pwk, np, nbp, nres, 
+                                     dp, pf, pctx, pq, pj, pd, nq >>
 
 dq_ww1(self) == /\ pc[self] = "dq_ww1"
                 /\ IF dwSt[pd[self]] = "Woken"
@@ -6769,17 +6882,17 @@ dq_ww1(self) == /\ pc[self] = "dq_ww1"
                                 gthreads, gwhist, dblTaken, dblW1, dblW2, 
                                 nextDW, ready, cwait, cnotif, cvHeld, sdres, 
                                 jpanic, sfst, slotSt, qrSent, qrWaker, dnState, 
-                                dnWaker, parkTok, barGen, myBar, cdone, rv, 
-                                rwb, rneed, stres, dsl, atomic, strong, 
-                                ppPending, ppClosed, ppNotify, ppNC, ppBP, 
-                                ppDepth, ppAlive, ppHeld, inItems, inClosed, 
-                                inWaker, pollFn, chuteFn, pwTaken, nextPoll, 
-                                ppItem, pjLive, ppStage, h, dead, sti, smax, 
-                                rq, sq, sj, rsq, bown, bwk, bi, bcur, bw, bsp, 
-                                jq, jj, jwk, fj, dq, dj, oq, oop, omode, oj, 
-                                yq, yop, yclaimed, tq, top, af, wf, wop, sf, 
-                                sctx, xf, cop, kj, pp, pwk, np, nbp, nres, dp, 
-                                pf, pctx, pq, pj, pd, nq >>
+                                susDropped, dnWaker, parkTok, barGen, myBar, 
+                                cdone, rv, rwb, rneed, stres, dsl, atomic, 
+                                strong, ppPending, ppClosed, ppNotify, ppNC, 
+                                ppBP, ppDepth, ppAlive, ppHeld, inItems, 
+                                inClosed, inWaker, pollFn, chuteFn, pwTaken, 
+                                nextPoll, ppItem, pjLive, ppStage, h, dead, 
+                                sti, smax, rq, sq, sj, rsq, bown, bwk, bi, 
+                                bcur, bw, bsp, jq, jj, jwk, fj, dq, dj, oq, 
+                                oop, omode, oj, yq, yop, yclaimed, tq, top, af, 
+                                wf, wop, sf, sctx, xf, cop, kj, pp, pwk, np, 
+                                nbp, nres, dp, pf, pctx, pq, pj, pd, nq >>
 
 z_dq_ready(self) == /\ pc[self] = "z_dq_ready"
                     /\ pc' = [pc EXCEPT ![self] = Head(stack[self]).pc]
@@ -6796,19 +6909,19 @@ z_dq_ready(self) == /\ pc[self] = "z_dq_ready"
                                     gfired, gwaker, gthreads, gwhist, dwSt, 
                                     dwW, dblTaken, dblW1, dblW2, nextDW, ready, 
                                     cwait, cnotif, cvHeld, sdres, jpanic, sfst, 
-                                    slotSt, qrSent, qrWaker, dnState, dnWaker, 
-                                    parkTok, barGen, myBar, cdone, rv, rwb, 
-                                    rneed, stres, dsl, atomic, strong, 
-                                    ppPending, ppClosed, ppNotify, ppNC, ppBP, 
-                                    ppDepth, ppAlive, ppHeld, inItems, 
-                                    inClosed, inWaker, pollFn, chuteFn, 
-                                    pwTaken, nextPoll, ppItem, pjLive, ppStage, 
-                                    h, dead, sti, smax, rq, sq, sj, ww, rsq, 
-                                    bown, bwk, bi, bcur, bw, bsp, jq, jj, jwk, 
-                                    fj, dq, dj, oq, oop, omode, oj, yq, yop, 
-                                    yclaimed, tq, top, af, wf, wop, sf, sctx, 
-                                    xf, cop, kj, pp, pwk, np, nbp, nres, dp, 
-                                    nq >>
+                                    slotSt, qrSent, qrWaker, dnState, 
+                                    susDropped, dnWaker, parkTok, barGen, 
+                                    myBar, cdone, rv, rwb, rneed, stres, dsl, 
+                                    atomic, strong, ppPending, ppClosed, 
+                                    ppNotify, ppNC, ppBP, ppDepth, ppAlive, 
+                                    ppHeld, inItems, inClosed, inWaker, pollFn, 
+                                    chuteFn, pwTaken, nextPoll, ppItem, pjLive, 
+                                    ppStage, h, dead, sti, smax, rq, sq, sj, 
+                                    ww, rsq, bown, bwk, bi, bcur, bw, bsp, jq, 
+                                    jj, jwk, fj, dq, dj, oq, oop, omode, oj, 
+                                    yq, yop, yclaimed, tq, top, af, wf, wop, 
+                                    sf, sctx, xf, cop, kj, pp, pwk, np, nbp, 
+                                    nres, dp, nq >>
 
 dq_setwaker(self) == /\ pc[self] = "dq_setwaker"
                      /\ fwaker' = [fwaker EXCEPT ![pf[self]] = pctx[self]]
@@ -6821,19 +6934,19 @@ dq_setwaker(self) == /\ pc[self] = "dq_setwaker"
                                      dwW, dblTaken, dblW1, dblW2, nextDW, 
                                      ready, cwait, cnotif, cvHeld, sdres, 
                                      jpanic, sfst, slotSt, qrSent, qrWaker, 
-                                     dnState, dnWaker, parkTok, barGen, myBar, 
-                                     cdone, rv, rwb, rneed, stres, dsl, atomic, 
-                                     strong, ppPending, ppClosed, ppNotify, 
-                                     ppNC, ppBP, ppDepth, ppAlive, ppHeld, 
-                                     inItems, inClosed, inWaker, pollFn, 
-                                     chuteFn, pwTaken, nextPoll, ppItem, 
-                                     pjLive, ppStage, h, stack, dead, sti, 
-                                     smax, rq, sq, sj, ww, rsq, bown, bwk, bi, 
-                                     bcur, bw, bsp, jq, jj, jwk, fj, dq, dj, 
-                                     oq, oop, omode, oj, yq, yop, yclaimed, tq, 
-                                     top, af, wf, wop, sf, sctx, xf, cop, kj, 
-                                     pp, pwk, np, nbp, nres, dp, pf, pctx, pq, 
-                                     pj, pd, nq >>
+                                     dnState, susDropped, dnWaker, parkTok, 
+                                     barGen, myBar, cdone, rv, rwb, rneed, 
+                                     stres, dsl, atomic, strong, ppPending, 
+                                     ppClosed, ppNotify, ppNC, ppBP, ppDepth, 
+                                     ppAlive, ppHeld, inItems, inClosed, 
+                                     inWaker, pollFn, chuteFn, pwTaken, 
+                                     nextPoll, ppItem, pjLive, ppStage, h, 
+                                     stack, dead, sti, smax, rq, sq, sj, ww, 
+                                     rsq, bown, bwk, bi, bcur, bw, bsp, jq, jj, 
+                                     jwk, fj, dq, dj, oq, oop, omode, oj, yq, 
+                                     yop, yclaimed, tq, top, af, wf, wop, sf, 
+                                     sctx, xf, cop, kj, pp, pwk, np, nbp, nres, 
+                                     dp, pf, pctx, pq, pj, pd, nq >>
 
 dq_waitpoll(self) == /\ pc[self] = "dq_waitpoll"
                      /\ qstate' = [qstate EXCEPT ![pq[self]] = "WaitingForPoll"]
@@ -6846,20 +6959,20 @@ dq_waitpoll(self) == /\ pc[self] = "dq_waitpoll"
                                      gthreads, gwhist, dwSt, dwW, dblTaken, 
                                      dblW1, dblW2, nextDW, ready, cwait, 
                                      cnotif, cvHeld, sdres, jpanic, sfst, 
-                                     slotSt, qrSent, qrWaker, dnState, dnWaker, 
-                                     parkTok, barGen, myBar, cdone, rv, rwb, 
-                                     rneed, stres, dsl, atomic, strong, 
-                                     ppPending, ppClosed, ppNotify, ppNC, ppBP, 
-                                     ppDepth, ppAlive, ppHeld, inItems, 
-                                     inClosed, inWaker, pollFn, chuteFn, 
-                                     pwTaken, nextPoll, ppItem, pjLive, 
-                                     ppStage, h, stack, dead, sti, smax, rq, 
-                                     sq, sj, ww, rsq, bown, bwk, bi, bcur, bw, 
-                                     bsp, jq, jj, jwk, fj, dq, dj, oq, oop, 
-                                     omode, oj, yq, yop, yclaimed, tq, top, af, 
-                                     wf, wop, sf, sctx, xf, cop, kj, pp, pwk, 
-                                     np, nbp, nres, dp, pf, pctx, pq, pj, pd, 
-                                     nq >>
+                                     slotSt, qrSent, qrWaker, dnState, 
+                                     susDropped, dnWaker, parkTok, barGen, 
+                                     myBar, cdone, rv, rwb, rneed, stres, dsl, 
+                                     atomic, strong, ppPending, ppClosed, 
+                                     ppNotify, ppNC, ppBP, ppDepth, ppAlive, 
+                                     ppHeld, inItems, inClosed, inWaker, 
+                                     pollFn, chuteFn, pwTaken, nextPoll, 
+                                     ppItem, pjLive, ppStage, h, stack, dead, 
+                                     sti, smax, rq, sq, sj, ww, rsq, bown, bwk, 
+                                     bi, bcur, bw, bsp, jq, jj, jwk, fj, dq, 
+                                     dj, oq, oop, omode, oj, yq, yop, yclaimed, 
+                                     tq, top, af, wf, wop, sf, sctx, xf, cop, 
+                                     kj, pp, pwk, np, nbp, nres, dp, pf, pctx, 
+                                     pq, pj, pd, nq >>
 
 dq_ww2(self) == /\ pc[self] = "dq_ww2"
                 /\ dblW1' = [dblW1 EXCEPT ![pd[self]] = WQ(pq[self])]
@@ -6882,18 +6995,18 @@ dq_ww2(self) == /\ pc[self] = "dq_ww2"
                                 jkind, jaw, fres, fwaker, gfired, gwaker, 
                                 gthreads, gwhist, dblTaken, nextDW, ready, 
                                 cwait, cnotif, cvHeld, sdres, jpanic, sfst, 
-                                slotSt, qrSent, qrWaker, dnState, dnWaker, 
-                                parkTok, barGen, myBar, cdone, rv, rwb, rneed, 
-                                stres, dsl, atomic, strong, ppPending, 
-                                ppClosed, ppNotify, ppNC, ppBP, ppDepth, 
-                                ppAlive, ppHeld, inItems, inClosed, inWaker, 
-                                pollFn, chuteFn, pwTaken, nextPoll, ppItem, 
-                                pjLive, ppStage, h, dead, sti, smax, rq, sq, 
-                                sj, rsq, bown, bwk, bi, bcur, bw, bsp, jq, jj, 
-                                jwk, fj, dq, dj, oq, oop, omode, oj, yq, yop, 
-                                yclaimed, tq, top, af, wf, wop, sf, sctx, xf, 
-                                cop, kj, pp, pwk, np, nbp, nres, dp, pf, pctx, 
-                                pq, pj, pd, nq >>
+                                slotSt, qrSent, qrWaker, dnState, susDropped, 
+                                dnWaker, parkTok, barGen, myBar, cdone, rv, 
+                                rwb, rneed, stres, dsl, atomic, strong, 
+                                ppPending, ppClosed, ppNotify, ppNC, ppBP, 
+                                ppDepth, ppAlive, ppHeld, inItems, inClosed, 
+                                inWaker, pollFn, chuteFn, pwTaken, nextPoll, 
+                                ppItem, pjLive, ppStage, h, dead, sti, smax, 
+                                rq, sq, sj, rsq, bown, bwk, bi, bcur, bw, bsp, 
+                                jq, jj, jwk, fj, dq, dj, oq, oop, omode, oj, 
+                                yq, yop, yclaimed, tq, top, af, wf, wop, sf, 
+                                sctx, xf, cop, kj, pp, pwk, np, nbp, nres, dp, 
+                                pf, pctx, pq, pj, pd, nq >>
 
 z_dq_pending(self) == /\ pc[self] = "z_dq_pending"
                       /\ rv' = [rv EXCEPT ![self] = 5]
@@ -6912,18 +7025,19 @@ z_dq_pending(self) == /\ pc[self] = "z_dq_pending"
                                       dwSt, dwW, dblTaken, dblW1, dblW2, 
                                       nextDW, ready, cwait, cnotif, cvHeld, 
                                       sdres, jpanic, sfst, slotSt, qrSent, 
-                                      qrWaker, dnState, dnWaker, parkTok, 
-                                      barGen, myBar, cdone, rwb, rneed, stres, 
-                                      dsl, atomic, strong, ppPending, ppClosed, 
-                                      ppNotify, ppNC, ppBP, ppDepth, ppAlive, 
-                                      ppHeld, inItems, inClosed, inWaker, 
-                                      pollFn, chuteFn, pwTaken, nextPoll, 
-                                      ppItem, pjLive, ppStage, h, dead, sti, 
-                                      smax, rq, sq, sj, ww, rsq, bown, bwk, bi, 
-                                      bcur, bw, bsp, jq, jj, jwk, fj, dq, dj, 
-                                      oq, oop, omode, oj, yq, yop, yclaimed, 
-                                      tq, top, af, wf, wop, sf, sctx, xf, cop, 
-                                      kj, pp, pwk, np, nbp, nres, dp, nq >>
+                                      qrWaker, dnState, susDropped, dnWaker, 
+                                      parkTok, barGen, myBar, cdone, rwb, 
+                                      rneed, stres, dsl, atomic, strong, 
+                                      ppPending, ppClosed, ppNotify, ppNC, 
+                                      ppBP, ppDepth, ppAlive, ppHeld, inItems, 
+                                      inClosed, inWaker, pollFn, chuteFn, 
+                                      pwTaken, nextPoll, ppItem, pjLive, 
+                                      ppStage, h, dead, sti, smax, rq, sq, sj, 
+                                      ww, rsq, bown, bwk, bi, bcur, bw, bsp, 
+                                      jq, jj, jwk, fj, dq, dj, oq, oop, omode, 
+                                      oj, yq, yop, yclaimed, tq, top, af, wf, 
+                                      wop, sf, sctx, xf, cop, kj, pp, pwk, np, 
+                                      nbp, nres, dp, nq >>
 
 dq_empty_w(self) == /\ pc[self] = "dq_empty_w"
                     /\ fwaker' = [fwaker EXCEPT ![pf[self]] = pctx[self]]
@@ -6935,19 +7049,19 @@ dq_empty_w(self) == /\ pc[self] = "dq_empty_w"
                                     gwaker, gthreads, gwhist, dwSt, dwW, 
                                     dblTaken, dblW1, dblW2, nextDW, ready, 
                                     cwait, cnotif, cvHeld, sdres, jpanic, sfst, 
-                                    slotSt, qrSent, qrWaker, dnState, dnWaker, 
-                                    parkTok, barGen, myBar, cdone, rv, rwb, 
-                                    rneed, stres, dsl, atomic, strong, 
-                                    ppPending, ppClosed, ppNotify, ppNC, ppBP, 
-                                    ppDepth, ppAlive, ppHeld, inItems, 
-                                    inClosed, inWaker, pollFn, chuteFn, 
-                                    pwTaken, nextPoll, ppItem, pjLive, ppStage, 
-                                    h, stack, dead, sti, smax, rq, sq, sj, ww, 
-                                    rsq, bown, bwk, bi, bcur, bw, bsp, jq, jj, 
-                                    jwk, fj, dq, dj, oq, oop, omode, oj, yq, 
-                                    yop, yclaimed, tq, top, af, wf, wop, sf, 
-                                    sctx, xf, cop, kj, pp, pwk, np, nbp, nres, 
-                                    dp, pf, pctx, pq, pj, pd, nq >>
+                                    slotSt, qrSent, qrWaker, dnState, 
+                                    susDropped, dnWaker, parkTok, barGen, 
+                                    myBar, cdone, rv, rwb, rneed, stres, dsl, 
+                                    atomic, strong, ppPending, ppClosed, 
+                                    ppNotify, ppNC, ppBP, ppDepth, ppAlive, 
+                                    ppHeld, inItems, inClosed, inWaker, pollFn, 
+                                    chuteFn, pwTaken, nextPoll, ppItem, pjLive, 
+                                    ppStage, h, stack, dead, sti, smax, rq, sq, 
+                                    sj, ww, rsq, bown, bwk, bi, bcur, bw, bsp, 
+                                    jq, jj, jwk, fj, dq, dj, oq, oop, omode, 
+                                    oj, yq, yop, yclaimed, tq, top, af, wf, 
+                                    wop, sf, sctx, xf, cop, kj, pp, pwk, np, 
+                                    nbp, nres, dp, pf, pctx, pq, pj, pd, nq >>
 
 dq_empty_idle(self) == /\ pc[self] = "dq_empty_idle"
                        /\ qstate' = [qstate EXCEPT ![pq[self]] = "Idle"]
@@ -6965,19 +7079,20 @@ dq_empty_idle(self) == /\ pc[self] = "dq_empty_idle"
                                        gwhist, dwSt, dwW, dblTaken, dblW1, 
                                        dblW2, nextDW, ready, cwait, cnotif, 
                                        cvHeld, sdres, jpanic, sfst, slotSt, 
-                                       qrSent, qrWaker, dnState, dnWaker, 
-                                       parkTok, barGen, myBar, cdone, rv, rwb, 
-                                       rneed, stres, dsl, atomic, strong, 
-                                       ppPending, ppClosed, ppNotify, ppNC, 
-                                       ppBP, ppDepth, ppAlive, ppHeld, inItems, 
-                                       inClosed, inWaker, pollFn, chuteFn, 
-                                       pwTaken, nextPoll, ppItem, pjLive, 
-                                       ppStage, h, dead, sti, smax, sq, sj, ww, 
-                                       rsq, bown, bwk, bi, bcur, bw, bsp, jq, 
-                                       jj, jwk, fj, dq, dj, oq, oop, omode, oj, 
-                                       yq, yop, yclaimed, tq, top, af, wf, wop, 
-                                       sf, sctx, xf, cop, kj, pp, pwk, np, nbp, 
-                                       nres, dp, pf, pctx, pq, pj, pd, nq >>
+                                       qrSent, qrWaker, dnState, susDropped, 
+                                       dnWaker, parkTok, barGen, myBar, cdone, 
+                                       rv, rwb, rneed, stres, dsl, atomic, 
+                                       strong, ppPending, ppClosed, ppNotify, 
+                                       ppNC, ppBP, ppDepth, ppAlive, ppHeld, 
+                                       inItems, inClosed, inWaker, pollFn, 
+                                       chuteFn, pwTaken, nextPoll, ppItem, 
+                                       pjLive, ppStage, h, dead, sti, smax, sq, 
+                                       sj, ww, rsq, bown, bwk, bi, bcur, bw, 
+                                       bsp, jq, jj, jwk, fj, dq, dj, oq, oop, 
+                                       omode, oj, yq, yop, yclaimed, tq, top, 
+                                       af, wf, wop, sf, sctx, xf, cop, kj, pp, 
+                                       pwk, np, nbp, nres, dp, pf, pctx, pq, 
+                                       pj, pd, nq >>
 
 dq_idle(self) == /\ pc[self] = "dq_idle"
                  /\ qstate' = [qstate EXCEPT ![pq[self]] = "Idle"]
@@ -6994,10 +7109,10 @@ dq_idle(self) == /\ pc[self] = "dq_idle"
                                  gwhist, dwSt, dwW, dblTaken, dblW1, dblW2, 
                                  nextDW, ready, cwait, cnotif, cvHeld, sdres, 
                                  jpanic, sfst, slotSt, qrSent, qrWaker, 
-                                 dnState, dnWaker, parkTok, barGen, myBar, 
-                                 cdone, rv, rwb, rneed, stres, dsl, atomic, 
-                                 strong, ppPending, ppClosed, ppNotify, ppNC, 
-                                 ppBP, ppDepth, ppAlive, ppHeld, inItems, 
+                                 dnState, susDropped, dnWaker, parkTok, barGen, 
+                                 myBar, cdone, rv, rwb, rneed, stres, dsl, 
+                                 atomic, strong, ppPending, ppClosed, ppNotify, 
+                                 ppNC, ppBP, ppDepth, ppAlive, ppHeld, inItems, 
                                  inClosed, inWaker, pollFn, chuteFn, pwTaken, 
                                  nextPoll, ppItem, pjLive, ppStage, h, dead, 
                                  sti, smax, sq, sj, ww, rsq, bown, bwk, bi, 
@@ -7023,17 +7138,17 @@ dq_panic(self) == /\ pc[self] = "dq_panic"
                                   gwhist, dwSt, dwW, dblTaken, dblW1, dblW2, 
                                   nextDW, ready, cwait, cnotif, cvHeld, sdres, 
                                   jpanic, sfst, slotSt, qrSent, qrWaker, 
-                                  dnState, dnWaker, parkTok, barGen, myBar, 
-                                  cdone, rwb, rneed, stres, dsl, atomic, 
-                                  strong, ppPending, ppClosed, ppNotify, ppNC, 
-                                  ppBP, ppDepth, ppAlive, ppHeld, inItems, 
-                                  inClosed, inWaker, pollFn, chuteFn, pwTaken, 
-                                  nextPoll, ppItem, pjLive, ppStage, h, dead, 
-                                  sti, smax, rq, sq, sj, ww, rsq, bown, bwk, 
-                                  bi, bcur, bw, bsp, jq, jj, jwk, fj, dq, dj, 
-                                  oq, oop, omode, oj, yq, yop, yclaimed, tq, 
-                                  top, af, wf, wop, sf, sctx, xf, cop, kj, pp, 
-                                  pwk, np, nbp, nres, dp, nq >>
+                                  dnState, susDropped, dnWaker, parkTok, 
+                                  barGen, myBar, cdone, rwb, rneed, stres, dsl, 
+                                  atomic, strong, ppPending, ppClosed, 
+                                  ppNotify, ppNC, ppBP, ppDepth, ppAlive, 
+                                  ppHeld, inItems, inClosed, inWaker, pollFn, 
+                                  chuteFn, pwTaken, nextPoll, ppItem, pjLive, 
+                                  ppStage, h, dead, sti, smax, rq, sq, sj, ww, 
+                                  rsq, bown, bwk, bi, bcur, bw, bsp, jq, jj, 
+                                  jwk, fj, dq, dj, oq, oop, omode, oj, yq, yop, 
+                                  yclaimed, tq, top, af, wf, wop, sf, sctx, xf, 
+                                  cop, kj, pp, pwk, np, nbp, nres, dp, nq >>
 
 PollFuture(self) == pf_decide(self) \/ dq_res(self) \/ dq_deq(self)
                        \/ z_dq_after(self) \/ dq_requeue(self)
@@ -7070,10 +7185,10 @@ c_start(self) == /\ pc[self] = "c_start"
                                  gthreads, gwhist, dwSt, dwW, dblTaken, dblW1, 
                                  dblW2, nextDW, ready, cwait, cnotif, cvHeld, 
                                  sdres, jpanic, sfst, slotSt, qrSent, qrWaker, 
-                                 dnState, dnWaker, parkTok, barGen, myBar, 
-                                 cdone, rv, rwb, rneed, stres, dsl, atomic, 
-                                 strong, ppPending, ppClosed, ppNotify, ppNC, 
-                                 ppBP, ppDepth, ppAlive, ppHeld, inItems, 
+                                 dnState, susDropped, dnWaker, parkTok, barGen, 
+                                 myBar, cdone, rv, rwb, rneed, stres, dsl, 
+                                 atomic, strong, ppPending, ppClosed, ppNotify, 
+                                 ppNC, ppBP, ppDepth, ppAlive, ppHeld, inItems, 
                                  inClosed, inWaker, pollFn, chuteFn, pwTaken, 
                                  nextPoll, ppItem, pjLive, ppStage, h, dead, 
                                  sti, smax, rq, sq, sj, ww, jq, jj, jwk, fj, 
@@ -7093,17 +7208,18 @@ z_c_exit(self) == /\ pc[self] = "z_c_exit"
                                   gthreads, gwhist, dwSt, dwW, dblTaken, dblW1, 
                                   dblW2, nextDW, ready, cwait, cnotif, cvHeld, 
                                   sdres, jpanic, sfst, slotSt, qrSent, qrWaker, 
-                                  dnState, dnWaker, parkTok, barGen, myBar, rv, 
-                                  rwb, rneed, stres, dsl, atomic, strong, 
-                                  ppPending, ppClosed, ppNotify, ppNC, ppBP, 
-                                  ppDepth, ppAlive, ppHeld, inItems, inClosed, 
-                                  inWaker, pollFn, chuteFn, pwTaken, nextPoll, 
-                                  ppItem, pjLive, ppStage, stack, dead, sti, 
-                                  smax, rq, sq, sj, ww, rsq, bown, bwk, bi, 
-                                  bcur, bw, bsp, jq, jj, jwk, fj, dq, dj, oq, 
-                                  oop, omode, oj, yq, yop, yclaimed, tq, top, 
-                                  af, wf, wop, sf, sctx, xf, cop, kj, pp, pwk, 
-                                  np, nbp, nres, dp, pf, pctx, pq, pj, pd, nq >>
+                                  dnState, susDropped, dnWaker, parkTok, 
+                                  barGen, myBar, rv, rwb, rneed, stres, dsl, 
+                                  atomic, strong, ppPending, ppClosed, 
+                                  ppNotify, ppNC, ppBP, ppDepth, ppAlive, 
+                                  ppHeld, inItems, inClosed, inWaker, pollFn, 
+                                  chuteFn, pwTaken, nextPoll, ppItem, pjLive, 
+                                  ppStage, stack, dead, sti, smax, rq, sq, sj, 
+                                  ww, rsq, bown, bwk, bi, bcur, bw, bsp, jq, 
+                                  jj, jwk, fj, dq, dj, oq, oop, omode, oj, yq, 
+                                  yop, yclaimed, tq, top, af, wf, wop, sf, 
+                                  sctx, xf, cop, kj, pp, pwk, np, nbp, nres, 
+                                  dp, pf, pctx, pq, pj, pd, nq >>
 
 caller(self) == c_start(self) \/ z_c_exit(self)
 
@@ -7124,10 +7240,10 @@ pt_recv(self) == /\ pc[self] = "pt_recv"
                                  gwhist, dwSt, dwW, dblTaken, dblW1, dblW2, 
                                  nextDW, ready, cwait, cnotif, cvHeld, sdres, 
                                  jpanic, sfst, slotSt, qrSent, qrWaker, 
-                                 dnState, dnWaker, parkTok, barGen, myBar, 
-                                 cdone, rv, rwb, rneed, stres, dsl, atomic, 
-                                 strong, ppPending, ppClosed, ppNotify, ppNC, 
-                                 ppBP, ppDepth, ppAlive, ppHeld, inItems, 
+                                 dnState, susDropped, dnWaker, parkTok, barGen, 
+                                 myBar, cdone, rv, rwb, rneed, stres, dsl, 
+                                 atomic, strong, ppPending, ppClosed, ppNotify, 
+                                 ppNC, ppBP, ppDepth, ppAlive, ppHeld, inItems, 
                                  inClosed, inWaker, pollFn, chuteFn, pwTaken, 
                                  nextPoll, ppItem, pjLive, ppStage, stack, 
                                  dead, sti, smax, rq, sq, sj, ww, rsq, bown, 
@@ -7154,17 +7270,18 @@ pt_next(self) == /\ pc[self] = "pt_next"
                                  gwaker, gthreads, gwhist, dwSt, dwW, dblTaken, 
                                  dblW1, dblW2, nextDW, ready, cwait, cnotif, 
                                  cvHeld, sdres, jpanic, sfst, slotSt, qrSent, 
-                                 qrWaker, dnState, dnWaker, parkTok, barGen, 
-                                 myBar, cdone, rv, rwb, rneed, stres, dsl, 
-                                 atomic, strong, ppPending, ppClosed, ppNotify, 
-                                 ppNC, ppBP, ppDepth, ppAlive, ppHeld, inItems, 
-                                 inClosed, inWaker, pollFn, chuteFn, pwTaken, 
-                                 nextPoll, ppItem, pjLive, ppStage, h, stack, 
-                                 dead, sti, smax, rq, sq, sj, ww, rsq, bown, 
-                                 bwk, bi, bcur, bw, bsp, jq, jj, jwk, fj, dq, 
-                                 dj, oq, oop, omode, oj, yq, yop, yclaimed, tq, 
-                                 top, af, wf, wop, sf, sctx, xf, cop, kj, pp, 
-                                 pwk, np, nbp, nres, dp, pf, pctx, pq, pj, pd >>
+                                 qrWaker, dnState, susDropped, dnWaker, 
+                                 parkTok, barGen, myBar, cdone, rv, rwb, rneed, 
+                                 stres, dsl, atomic, strong, ppPending, 
+                                 ppClosed, ppNotify, ppNC, ppBP, ppDepth, 
+                                 ppAlive, ppHeld, inItems, inClosed, inWaker, 
+                                 pollFn, chuteFn, pwTaken, nextPoll, ppItem, 
+                                 pjLive, ppStage, h, stack, dead, sti, smax, 
+                                 rq, sq, sj, ww, rsq, bown, bwk, bi, bcur, bw, 
+                                 bsp, jq, jj, jwk, fj, dq, dj, oq, oop, omode, 
+                                 oj, yq, yop, yclaimed, tq, top, af, wf, wop, 
+                                 sf, sctx, xf, cop, kj, pp, pwk, np, nbp, nres, 
+                                 dp, pf, pctx, pq, pj, pd >>
 
 pt_after(self) == /\ pc[self] = "pt_after"
                   /\ busyLocked' = [busyLocked EXCEPT ![self] = FALSE]
@@ -7188,17 +7305,17 @@ pt_after(self) == /\ pc[self] = "pt_after"
                                   dwSt, dwW, dblTaken, dblW1, dblW2, nextDW, 
                                   ready, cwait, cnotif, cvHeld, sdres, jpanic, 
                                   sfst, slotSt, qrSent, qrWaker, dnState, 
-                                  dnWaker, parkTok, barGen, myBar, cdone, rv, 
-                                  rwb, rneed, stres, dsl, atomic, strong, 
-                                  ppPending, ppClosed, ppNotify, ppNC, ppBP, 
-                                  ppDepth, ppAlive, ppHeld, inItems, inClosed, 
-                                  inWaker, pollFn, chuteFn, pwTaken, nextPoll, 
-                                  ppItem, pjLive, ppStage, h, dead, sti, smax, 
-                                  rq, sq, sj, ww, rsq, bown, bwk, bi, bcur, bw, 
-                                  bsp, jq, jj, jwk, fj, oq, oop, omode, oj, yq, 
-                                  yop, yclaimed, tq, top, af, wf, wop, sf, 
-                                  sctx, xf, cop, kj, pp, pwk, np, nbp, nres, 
-                                  dp, pf, pctx, pq, pj, pd, nq >>
+                                  susDropped, dnWaker, parkTok, barGen, myBar, 
+                                  cdone, rv, rwb, rneed, stres, dsl, atomic, 
+                                  strong, ppPending, ppClosed, ppNotify, ppNC, 
+                                  ppBP, ppDepth, ppAlive, ppHeld, inItems, 
+                                  inClosed, inWaker, pollFn, chuteFn, pwTaken, 
+                                  nextPoll, ppItem, pjLive, ppStage, h, dead, 
+                                  sti, smax, rq, sq, sj, ww, rsq, bown, bwk, 
+                                  bi, bcur, bw, bsp, jq, jj, jwk, fj, oq, oop, 
+                                  omode, oj, yq, yop, yclaimed, tq, top, af, 
+                                  wf, wop, sf, sctx, xf, cop, kj, pp, pwk, np, 
+                                  nbp, nres, dp, pf, pctx, pq, pj, pd, nq >>
 
 z_pt_chk(self) == /\ pc[self] = "z_pt_chk"
                   /\ IF rv[self] = 9
@@ -7214,18 +7331,18 @@ z_pt_chk(self) == /\ pc[self] = "z_pt_chk"
                                   gwhist, dwSt, dwW, dblTaken, dblW1, dblW2, 
                                   nextDW, ready, cwait, cnotif, cvHeld, sdres, 
                                   jpanic, sfst, slotSt, qrSent, qrWaker, 
-                                  dnState, dnWaker, parkTok, barGen, myBar, 
-                                  cdone, rv, rwb, rneed, stres, dsl, atomic, 
-                                  strong, ppPending, ppClosed, ppNotify, ppNC, 
-                                  ppBP, ppDepth, ppAlive, ppHeld, inItems, 
-                                  inClosed, inWaker, pollFn, chuteFn, pwTaken, 
-                                  nextPoll, ppItem, pjLive, ppStage, stack, 
-                                  dead, sti, smax, rq, sq, sj, ww, rsq, bown, 
-                                  bwk, bi, bcur, bw, bsp, jq, jj, jwk, fj, dq, 
-                                  dj, oq, oop, omode, oj, yq, yop, yclaimed, 
-                                  tq, top, af, wf, wop, sf, sctx, xf, cop, kj, 
-                                  pp, pwk, np, nbp, nres, dp, pf, pctx, pq, pj, 
-                                  pd, nq >>
+                                  dnState, susDropped, dnWaker, parkTok, 
+                                  barGen, myBar, cdone, rv, rwb, rneed, stres, 
+                                  dsl, atomic, strong, ppPending, ppClosed, 
+                                  ppNotify, ppNC, ppBP, ppDepth, ppAlive, 
+                                  ppHeld, inItems, inClosed, inWaker, pollFn, 
+                                  chuteFn, pwTaken, nextPoll, ppItem, pjLive, 
+                                  ppStage, stack, dead, sti, smax, rq, sq, sj, 
+                                  ww, rsq, bown, bwk, bi, bcur, bw, bsp, jq, 
+                                  jj, jwk, fj, dq, dj, oq, oop, omode, oj, yq, 
+                                  yop, yclaimed, tq, top, af, wf, wop, sf, 
+                                  sctx, xf, cop, kj, pp, pwk, np, nbp, nres, 
+                                  dp, pf, pctx, pq, pj, pd, nq >>
 
 z_pt_done(self) == /\ pc[self] = "z_pt_done"
                    /\ TRUE
@@ -7237,19 +7354,19 @@ z_pt_done(self) == /\ pc[self] = "z_pt_done"
                                    gfired, gwaker, gthreads, gwhist, dwSt, dwW, 
                                    dblTaken, dblW1, dblW2, nextDW, ready, 
                                    cwait, cnotif, cvHeld, sdres, jpanic, sfst, 
-                                   slotSt, qrSent, qrWaker, dnState, dnWaker, 
-                                   parkTok, barGen, myBar, cdone, rv, rwb, 
-                                   rneed, stres, dsl, atomic, strong, 
-                                   ppPending, ppClosed, ppNotify, ppNC, ppBP, 
-                                   ppDepth, ppAlive, ppHeld, inItems, inClosed, 
-                                   inWaker, pollFn, chuteFn, pwTaken, nextPoll, 
-                                   ppItem, pjLive, ppStage, h, stack, dead, 
-                                   sti, smax, rq, sq, sj, ww, rsq, bown, bwk, 
-                                   bi, bcur, bw, bsp, jq, jj, jwk, fj, dq, dj, 
-                                   oq, oop, omode, oj, yq, yop, yclaimed, tq, 
-                                   top, af, wf, wop, sf, sctx, xf, cop, kj, pp, 
-                                   pwk, np, nbp, nres, dp, pf, pctx, pq, pj, 
-                                   pd, nq >>
+                                   slotSt, qrSent, qrWaker, dnState, 
+                                   susDropped, dnWaker, parkTok, barGen, myBar, 
+                                   cdone, rv, rwb, rneed, stres, dsl, atomic, 
+                                   strong, ppPending, ppClosed, ppNotify, ppNC, 
+                                   ppBP, ppDepth, ppAlive, ppHeld, inItems, 
+                                   inClosed, inWaker, pollFn, chuteFn, pwTaken, 
+                                   nextPoll, ppItem, pjLive, ppStage, h, stack, 
+                                   dead, sti, smax, rq, sq, sj, ww, rsq, bown, 
+                                   bwk, bi, bcur, bw, bsp, jq, jj, jwk, fj, dq, 
+                                   dj, oq, oop, omode, oj, yq, yop, yclaimed, 
+                                   tq, top, af, wf, wop, sf, sctx, xf, cop, kj, 
+                                   pp, pwk, np, nbp, nres, dp, pf, pctx, pq, 
+                                   pj, pd, nq >>
 
 pool(self) == pt_recv(self) \/ pt_next(self) \/ pt_after(self)
                  \/ z_pt_chk(self) \/ z_pt_done(self)
